@@ -19,6 +19,7 @@ CONSTANTS
   Prog,       \* Prog[t]: sequence of calls, see Thread below
   InitMem,    \* initial memory (after the scenario's sequential setup)
   InitHeld,   \* InitHeld[t]: sequence of <<frame, order>> held by t initially
+  InitHidden, \* InitHidden[t]: free frames of tree t taken offline by the setup (Abs.tla: hidden)
   KnownPanics \* panic reasons that are recorded known findings (tolerated by NoPanic)
 
 Threads == 0 .. NTHREADS - 1
@@ -33,6 +34,7 @@ variables
   inflight = [t \in Threads |-> <<>>],   \* the call in flight, <<>> if none
   rv = [t \in Threads |-> [ok |-> FALSE]],   \* return value of the last procedure
   panicked = [t \in Threads |-> ""],     \* why the thread panicked ("" = it did not)
+  hid = InitHidden,                      \* ghost: frames per tree hidden by Offline changes (as Abs.tla counts them)
   lastop = NoOp;                         \* the last shared access (for step conformance)
 
 define {
@@ -883,6 +885,9 @@ cg_cas:
       if (cg_ok) {
         rv[self] := [ok |-> TRUE, err |-> ""];
         cg_done := TRUE;
+        \* ghost bookkeeping as in TraceAbs!SeqChange: Offline hides what the counter held, Online ends the hiding
+        if (cg_cop = 2) { hid[cg_t] := hid[cg_t] + cg_prev.free; }
+        else if (cg_cop = 1) { hid[cg_t] := 0; };
       } else {
         cg_prev := cg_seen;
       }
@@ -975,9 +980,9 @@ t_next:
   };
 }
 } *)
-\* BEGIN TRANSLATION (chksum(pcal) = "c9c9691f" /\ chksum(tla) = "59571a7c")
+\* BEGIN TRANSLATION (chksum(pcal) = "4f26e731" /\ chksum(tla) = "7e15f20b")
 CONSTANT defaultInitValue
-VARIABLES pc, mem, held, results, inflight, rv, panicked, lastop, stack
+VARIABLES pc, mem, held, results, inflight, rv, panicked, hid, lastop, stack
 
 (* define statement *)
 ZerosOf(h) == LET S == UNION {{r * 64 + b : b \in AllBits \ mem[Row(h, r)]} : r \in 0 .. ROWS - 1} IN Cardinality(S)
@@ -1005,7 +1010,7 @@ VARIABLES dp_why, tu_loc, tu_fn, tu_arg, tu_prev, tu_next, tu_done, tu_ok,
           cg_v, cg_next, cg_ok, cg_seen, ac_id, ac_mclass, ac_mfree, 
           ac_cclass, ac_cop, ac_i, ac_done, pcx, cur, blk
 
-vars == << pc, mem, held, results, inflight, rv, panicked, lastop, stack, 
+vars == << pc, mem, held, results, inflight, rv, panicked, hid, lastop, stack, 
            dp_why, tu_loc, tu_fn, tu_arg, tu_prev, tu_next, tu_done, tu_ok, 
            tu_seen, lg_row, lg_order, lg_tree, lg_off, lg_j, lg_i, lg_h, 
            lg_found, lg_frame, lg_n, ca_h0, ca_num, ca_cur, ca_new, ca_i, 
@@ -1038,6 +1043,7 @@ Init == (* Global variables *)
         /\ inflight = [t \in Threads |-> <<>>]
         /\ rv = [t \in Threads |-> [ok |-> FALSE]]
         /\ panicked = [t \in Threads |-> ""]
+        /\ hid = InitHidden
         /\ lastop = NoOp
         (* Procedure do_panic *)
         /\ dp_why = [ self \in ProcSet |-> defaultInitValue]
@@ -1236,7 +1242,7 @@ Init == (* Global variables *)
 dp_flag(self) == /\ pc[self] = "dp_flag"
                  /\ panicked' = [panicked EXCEPT ![self] = dp_why[self]]
                  /\ pc' = [pc EXCEPT ![self] = "dp_stop"]
-                 /\ UNCHANGED << mem, held, results, inflight, rv, lastop, 
+                 /\ UNCHANGED << mem, held, results, inflight, rv, hid, lastop, 
                                  stack, dp_why, tu_loc, tu_fn, tu_arg, tu_prev, 
                                  tu_next, tu_done, tu_ok, tu_seen, lg_row, 
                                  lg_order, lg_tree, lg_off, lg_j, lg_i, lg_h, 
@@ -1277,7 +1283,7 @@ dp_stop(self) == /\ pc[self] = "dp_stop"
                  /\ dp_why' = [dp_why EXCEPT ![self] = Head(stack[self]).dp_why]
                  /\ stack' = [stack EXCEPT ![self] = Tail(stack[self])]
                  /\ UNCHANGED << mem, held, results, inflight, rv, panicked, 
-                                 lastop, tu_loc, tu_fn, tu_arg, tu_prev, 
+                                 hid, lastop, tu_loc, tu_fn, tu_arg, tu_prev, 
                                  tu_next, tu_done, tu_ok, tu_seen, lg_row, 
                                  lg_order, lg_tree, lg_off, lg_j, lg_i, lg_h, 
                                  lg_found, lg_frame, lg_n, ca_h0, ca_num, 
@@ -1319,11 +1325,11 @@ tu_load(self) == /\ pc[self] = "tu_load"
                  /\ tu_done' = [tu_done EXCEPT ![self] = FALSE]
                  /\ pc' = [pc EXCEPT ![self] = "tu_cas"]
                  /\ UNCHANGED << mem, held, results, inflight, rv, panicked, 
-                                 stack, dp_why, tu_loc, tu_fn, tu_arg, tu_next, 
-                                 tu_ok, tu_seen, lg_row, lg_order, lg_tree, 
-                                 lg_off, lg_j, lg_i, lg_h, lg_found, lg_frame, 
-                                 lg_n, ca_h0, ca_num, ca_cur, ca_new, ca_i, 
-                                 ca_ok, ca_seen, ca_j, sf_h, sf_start, 
+                                 hid, stack, dp_why, tu_loc, tu_fn, tu_arg, 
+                                 tu_next, tu_ok, tu_seen, lg_row, lg_order, 
+                                 lg_tree, lg_off, lg_j, lg_i, lg_h, lg_found, 
+                                 lg_frame, lg_n, ca_h0, ca_num, ca_cur, ca_new, 
+                                 ca_i, ca_ok, ca_seen, ca_j, sf_h, sf_start, 
                                  sf_order, sf_i, sf_r, sf_found, sf_off, 
                                  sf_nrows, sf_c, sf_k, sf_v, sf_zero, sf_ok, 
                                  sf_seen, sf_u, tg_h, tg_off, tg_order, tg_exp, 
@@ -1403,7 +1409,7 @@ tu_cas(self) == /\ pc[self] = "tu_cas"
                            /\ tu_arg' = [tu_arg EXCEPT ![self] = Head(stack[self]).tu_arg]
                            /\ stack' = [stack EXCEPT ![self] = Tail(stack[self])]
                            /\ UNCHANGED << mem, rv, lastop, dp_why >>
-                /\ UNCHANGED << held, results, inflight, panicked, lg_row, 
+                /\ UNCHANGED << held, results, inflight, panicked, hid, lg_row, 
                                 lg_order, lg_tree, lg_off, lg_j, lg_i, lg_h, 
                                 lg_found, lg_frame, lg_n, ca_h0, ca_num, 
                                 ca_cur, ca_new, ca_i, ca_ok, ca_seen, ca_j, 
@@ -1448,30 +1454,31 @@ lg_start(self) == /\ pc[self] = "lg_start"
                         ELSE /\ pc' = [pc EXCEPT ![self] = "lg_small"]
                              /\ lg_n' = lg_n
                   /\ UNCHANGED << mem, held, results, inflight, rv, panicked, 
-                                  lastop, stack, dp_why, tu_loc, tu_fn, tu_arg, 
-                                  tu_prev, tu_next, tu_done, tu_ok, tu_seen, 
-                                  lg_row, lg_order, lg_i, lg_h, lg_frame, 
-                                  ca_h0, ca_num, ca_cur, ca_new, ca_i, ca_ok, 
-                                  ca_seen, ca_j, sf_h, sf_start, sf_order, 
-                                  sf_i, sf_r, sf_found, sf_off, sf_nrows, sf_c, 
-                                  sf_k, sf_v, sf_zero, sf_ok, sf_seen, sf_u, 
-                                  tg_h, tg_off, tg_order, tg_exp, tg_ok, tg_i, 
-                                  tg_n, tg_seen, tg_u, tg_r0, la_frame, 
-                                  la_order, la_h, ps_frame, ps_order, lp_frame, 
-                                  lp_order, lp_h, lp_old, lp_ok, lp_seen, 
-                                  lp_spin, lp_v, tp_t, tp_n, tu2_t, tu2_free, 
-                                  tu2_class, gl_order, gl_class, gl_local, 
-                                  gl_frame, gl_sync, gl_row, gl_res, gl_min, 
-                                  gl_got, sg_i, sg_class, sg_order, sg_frame, 
-                                  sg_c, rs_i, rs_order, rs_class, rs_local, 
-                                  rs_reserved, rs_free, rs_tc, rs_frame, 
-                                  rs_old, sb_n, sb_start, sb_offset, sb_len, 
-                                  sb_mode, sb_order, sb_class, sb_local, sb_i, 
-                                  sb_idx, sb_t, sb_p, sb_best, sb_done, sb_k, 
-                                  sl_class, sl_local, sl_order, sl_frame, sl_i, 
-                                  sl_tc, sl_j, sl_found, sl_row, sl_jj, 
-                                  dl_class, dl_local, dl_order, dl_frame, dl_i, 
-                                  dl_tc, dl_j, dl_found, dl_new, dl_old, dl_jj, 
+                                  hid, lastop, stack, dp_why, tu_loc, tu_fn, 
+                                  tu_arg, tu_prev, tu_next, tu_done, tu_ok, 
+                                  tu_seen, lg_row, lg_order, lg_i, lg_h, 
+                                  lg_frame, ca_h0, ca_num, ca_cur, ca_new, 
+                                  ca_i, ca_ok, ca_seen, ca_j, sf_h, sf_start, 
+                                  sf_order, sf_i, sf_r, sf_found, sf_off, 
+                                  sf_nrows, sf_c, sf_k, sf_v, sf_zero, sf_ok, 
+                                  sf_seen, sf_u, tg_h, tg_off, tg_order, 
+                                  tg_exp, tg_ok, tg_i, tg_n, tg_seen, tg_u, 
+                                  tg_r0, la_frame, la_order, la_h, ps_frame, 
+                                  ps_order, lp_frame, lp_order, lp_h, lp_old, 
+                                  lp_ok, lp_seen, lp_spin, lp_v, tp_t, tp_n, 
+                                  tu2_t, tu2_free, tu2_class, gl_order, 
+                                  gl_class, gl_local, gl_frame, gl_sync, 
+                                  gl_row, gl_res, gl_min, gl_got, sg_i, 
+                                  sg_class, sg_order, sg_frame, sg_c, rs_i, 
+                                  rs_order, rs_class, rs_local, rs_reserved, 
+                                  rs_free, rs_tc, rs_frame, rs_old, sb_n, 
+                                  sb_start, sb_offset, sb_len, sb_mode, 
+                                  sb_order, sb_class, sb_local, sb_i, sb_idx, 
+                                  sb_t, sb_p, sb_best, sb_done, sb_k, sl_class, 
+                                  sl_local, sl_order, sl_frame, sl_i, sl_tc, 
+                                  sl_j, sl_found, sl_row, sl_jj, dl_class, 
+                                  dl_local, dl_order, dl_frame, dl_i, dl_tc, 
+                                  dl_j, dl_found, dl_new, dl_old, dl_jj, 
                                   dl_oldclass, ag_order, ag_class, ag_local, 
                                   ag_frame, ag_len, ag_start, ag_near, ag_done, 
                                   ap_frame, ap_order, ap_class, ap_local, ad_c, 
@@ -1509,7 +1516,7 @@ lg_huge(self) == /\ pc[self] = "lg_huge"
                             /\ UNCHANGED << stack, lg_i, ca_h0, ca_num, ca_cur, 
                                             ca_new, ca_i, ca_ok, ca_seen, ca_j >>
                  /\ UNCHANGED << mem, held, results, inflight, rv, panicked, 
-                                 lastop, dp_why, tu_loc, tu_fn, tu_arg, 
+                                 hid, lastop, dp_why, tu_loc, tu_fn, tu_arg, 
                                  tu_prev, tu_next, tu_done, tu_ok, tu_seen, 
                                  lg_row, lg_order, lg_tree, lg_off, lg_j, lg_h, 
                                  lg_found, lg_frame, lg_n, sf_h, sf_start, 
@@ -1551,7 +1558,7 @@ lg_huge_r(self) == /\ pc[self] = "lg_huge_r"
                               /\ UNCHANGED << lg_found, lg_frame >>
                    /\ pc' = [pc EXCEPT ![self] = "lg_huge"]
                    /\ UNCHANGED << mem, held, results, inflight, rv, panicked, 
-                                   lastop, stack, dp_why, tu_loc, tu_fn, 
+                                   hid, lastop, stack, dp_why, tu_loc, tu_fn, 
                                    tu_arg, tu_prev, tu_next, tu_done, tu_ok, 
                                    tu_seen, lg_row, lg_order, lg_tree, lg_off, 
                                    lg_i, lg_h, lg_n, ca_h0, ca_num, ca_cur, 
@@ -1615,29 +1622,30 @@ lg_small(self) == /\ pc[self] = "lg_small"
                                              tu_prev, tu_next, tu_done, tu_ok, 
                                              tu_seen, lg_i, lg_h >>
                   /\ UNCHANGED << mem, held, results, inflight, rv, panicked, 
-                                  lastop, dp_why, lg_row, lg_order, lg_tree, 
-                                  lg_off, lg_j, lg_found, lg_frame, lg_n, 
-                                  ca_h0, ca_num, ca_cur, ca_new, ca_i, ca_ok, 
-                                  ca_seen, ca_j, sf_h, sf_start, sf_order, 
-                                  sf_i, sf_r, sf_found, sf_off, sf_nrows, sf_c, 
-                                  sf_k, sf_v, sf_zero, sf_ok, sf_seen, sf_u, 
-                                  tg_h, tg_off, tg_order, tg_exp, tg_ok, tg_i, 
-                                  tg_n, tg_seen, tg_u, tg_r0, la_frame, 
-                                  la_order, la_h, ps_frame, ps_order, lp_frame, 
-                                  lp_order, lp_h, lp_old, lp_ok, lp_seen, 
-                                  lp_spin, lp_v, tp_t, tp_n, tu2_t, tu2_free, 
-                                  tu2_class, gl_order, gl_class, gl_local, 
-                                  gl_frame, gl_sync, gl_row, gl_res, gl_min, 
-                                  gl_got, sg_i, sg_class, sg_order, sg_frame, 
-                                  sg_c, rs_i, rs_order, rs_class, rs_local, 
-                                  rs_reserved, rs_free, rs_tc, rs_frame, 
-                                  rs_old, sb_n, sb_start, sb_offset, sb_len, 
-                                  sb_mode, sb_order, sb_class, sb_local, sb_i, 
-                                  sb_idx, sb_t, sb_p, sb_best, sb_done, sb_k, 
-                                  sl_class, sl_local, sl_order, sl_frame, sl_i, 
-                                  sl_tc, sl_j, sl_found, sl_row, sl_jj, 
-                                  dl_class, dl_local, dl_order, dl_frame, dl_i, 
-                                  dl_tc, dl_j, dl_found, dl_new, dl_old, dl_jj, 
+                                  hid, lastop, dp_why, lg_row, lg_order, 
+                                  lg_tree, lg_off, lg_j, lg_found, lg_frame, 
+                                  lg_n, ca_h0, ca_num, ca_cur, ca_new, ca_i, 
+                                  ca_ok, ca_seen, ca_j, sf_h, sf_start, 
+                                  sf_order, sf_i, sf_r, sf_found, sf_off, 
+                                  sf_nrows, sf_c, sf_k, sf_v, sf_zero, sf_ok, 
+                                  sf_seen, sf_u, tg_h, tg_off, tg_order, 
+                                  tg_exp, tg_ok, tg_i, tg_n, tg_seen, tg_u, 
+                                  tg_r0, la_frame, la_order, la_h, ps_frame, 
+                                  ps_order, lp_frame, lp_order, lp_h, lp_old, 
+                                  lp_ok, lp_seen, lp_spin, lp_v, tp_t, tp_n, 
+                                  tu2_t, tu2_free, tu2_class, gl_order, 
+                                  gl_class, gl_local, gl_frame, gl_sync, 
+                                  gl_row, gl_res, gl_min, gl_got, sg_i, 
+                                  sg_class, sg_order, sg_frame, sg_c, rs_i, 
+                                  rs_order, rs_class, rs_local, rs_reserved, 
+                                  rs_free, rs_tc, rs_frame, rs_old, sb_n, 
+                                  sb_start, sb_offset, sb_len, sb_mode, 
+                                  sb_order, sb_class, sb_local, sb_i, sb_idx, 
+                                  sb_t, sb_p, sb_best, sb_done, sb_k, sl_class, 
+                                  sl_local, sl_order, sl_frame, sl_i, sl_tc, 
+                                  sl_j, sl_found, sl_row, sl_jj, dl_class, 
+                                  dl_local, dl_order, dl_frame, dl_i, dl_tc, 
+                                  dl_j, dl_found, dl_new, dl_old, dl_jj, 
                                   dl_oldclass, ag_order, ag_class, ag_local, 
                                   ag_frame, ag_len, ag_start, ag_near, ag_done, 
                                   ap_frame, ap_order, ap_class, ap_local, ad_c, 
@@ -1692,7 +1700,7 @@ lg_small_r(self) == /\ pc[self] = "lg_small_r"
                                                sf_nrows, sf_c, sf_k, sf_v, 
                                                sf_zero, sf_ok, sf_seen, sf_u >>
                     /\ UNCHANGED << mem, held, results, inflight, rv, panicked, 
-                                    lastop, dp_why, tu_loc, tu_fn, tu_arg, 
+                                    hid, lastop, dp_why, tu_loc, tu_fn, tu_arg, 
                                     tu_prev, tu_next, tu_done, tu_ok, tu_seen, 
                                     lg_row, lg_order, lg_tree, lg_off, lg_i, 
                                     lg_h, lg_found, lg_frame, lg_n, ca_h0, 
@@ -1756,9 +1764,9 @@ lg_small_s(self) == /\ pc[self] = "lg_small_s"
                                /\ pc' = [pc EXCEPT ![self] = "tu_load"]
                                /\ UNCHANGED << lg_found, lg_frame >>
                     /\ UNCHANGED << mem, held, results, inflight, rv, panicked, 
-                                    lastop, dp_why, lg_row, lg_order, lg_tree, 
-                                    lg_off, lg_j, lg_i, lg_h, lg_n, ca_h0, 
-                                    ca_num, ca_cur, ca_new, ca_i, ca_ok, 
+                                    hid, lastop, dp_why, lg_row, lg_order, 
+                                    lg_tree, lg_off, lg_j, lg_i, lg_h, lg_n, 
+                                    ca_h0, ca_num, ca_cur, ca_new, ca_i, ca_ok, 
                                     ca_seen, ca_j, sf_h, sf_start, sf_order, 
                                     sf_i, sf_r, sf_found, sf_off, sf_nrows, 
                                     sf_c, sf_k, sf_v, sf_zero, sf_ok, sf_seen, 
@@ -1804,41 +1812,42 @@ lg_small_u(self) == /\ pc[self] = "lg_small_u"
                                /\ pc' = [pc EXCEPT ![self] = "lg_small"]
                                /\ UNCHANGED << stack, dp_why >>
                     /\ UNCHANGED << mem, held, results, inflight, rv, panicked, 
-                                    lastop, tu_loc, tu_fn, tu_arg, tu_prev, 
-                                    tu_next, tu_done, tu_ok, tu_seen, lg_row, 
-                                    lg_order, lg_tree, lg_off, lg_i, lg_h, 
-                                    lg_found, lg_frame, lg_n, ca_h0, ca_num, 
-                                    ca_cur, ca_new, ca_i, ca_ok, ca_seen, ca_j, 
-                                    sf_h, sf_start, sf_order, sf_i, sf_r, 
-                                    sf_found, sf_off, sf_nrows, sf_c, sf_k, 
-                                    sf_v, sf_zero, sf_ok, sf_seen, sf_u, tg_h, 
-                                    tg_off, tg_order, tg_exp, tg_ok, tg_i, 
-                                    tg_n, tg_seen, tg_u, tg_r0, la_frame, 
-                                    la_order, la_h, ps_frame, ps_order, 
-                                    lp_frame, lp_order, lp_h, lp_old, lp_ok, 
-                                    lp_seen, lp_spin, lp_v, tp_t, tp_n, tu2_t, 
-                                    tu2_free, tu2_class, gl_order, gl_class, 
-                                    gl_local, gl_frame, gl_sync, gl_row, 
-                                    gl_res, gl_min, gl_got, sg_i, sg_class, 
-                                    sg_order, sg_frame, sg_c, rs_i, rs_order, 
-                                    rs_class, rs_local, rs_reserved, rs_free, 
-                                    rs_tc, rs_frame, rs_old, sb_n, sb_start, 
-                                    sb_offset, sb_len, sb_mode, sb_order, 
-                                    sb_class, sb_local, sb_i, sb_idx, sb_t, 
-                                    sb_p, sb_best, sb_done, sb_k, sl_class, 
-                                    sl_local, sl_order, sl_frame, sl_i, sl_tc, 
-                                    sl_j, sl_found, sl_row, sl_jj, dl_class, 
-                                    dl_local, dl_order, dl_frame, dl_i, dl_tc, 
-                                    dl_j, dl_found, dl_new, dl_old, dl_jj, 
-                                    dl_oldclass, ag_order, ag_class, ag_local, 
-                                    ag_frame, ag_len, ag_start, ag_near, 
-                                    ag_done, ap_frame, ap_order, ap_class, 
-                                    ap_local, ad_c, ad_k, ad_old, cg_t, 
-                                    cg_mclass, cg_mfree, cg_cclass, cg_cop, 
-                                    cg_prev, cg_done, cg_fetched, cg_h, cg_v, 
-                                    cg_next, cg_ok, cg_seen, ac_id, ac_mclass, 
-                                    ac_mfree, ac_cclass, ac_cop, ac_i, ac_done, 
-                                    pcx, cur, blk >>
+                                    hid, lastop, tu_loc, tu_fn, tu_arg, 
+                                    tu_prev, tu_next, tu_done, tu_ok, tu_seen, 
+                                    lg_row, lg_order, lg_tree, lg_off, lg_i, 
+                                    lg_h, lg_found, lg_frame, lg_n, ca_h0, 
+                                    ca_num, ca_cur, ca_new, ca_i, ca_ok, 
+                                    ca_seen, ca_j, sf_h, sf_start, sf_order, 
+                                    sf_i, sf_r, sf_found, sf_off, sf_nrows, 
+                                    sf_c, sf_k, sf_v, sf_zero, sf_ok, sf_seen, 
+                                    sf_u, tg_h, tg_off, tg_order, tg_exp, 
+                                    tg_ok, tg_i, tg_n, tg_seen, tg_u, tg_r0, 
+                                    la_frame, la_order, la_h, ps_frame, 
+                                    ps_order, lp_frame, lp_order, lp_h, lp_old, 
+                                    lp_ok, lp_seen, lp_spin, lp_v, tp_t, tp_n, 
+                                    tu2_t, tu2_free, tu2_class, gl_order, 
+                                    gl_class, gl_local, gl_frame, gl_sync, 
+                                    gl_row, gl_res, gl_min, gl_got, sg_i, 
+                                    sg_class, sg_order, sg_frame, sg_c, rs_i, 
+                                    rs_order, rs_class, rs_local, rs_reserved, 
+                                    rs_free, rs_tc, rs_frame, rs_old, sb_n, 
+                                    sb_start, sb_offset, sb_len, sb_mode, 
+                                    sb_order, sb_class, sb_local, sb_i, sb_idx, 
+                                    sb_t, sb_p, sb_best, sb_done, sb_k, 
+                                    sl_class, sl_local, sl_order, sl_frame, 
+                                    sl_i, sl_tc, sl_j, sl_found, sl_row, sl_jj, 
+                                    dl_class, dl_local, dl_order, dl_frame, 
+                                    dl_i, dl_tc, dl_j, dl_found, dl_new, 
+                                    dl_old, dl_jj, dl_oldclass, ag_order, 
+                                    ag_class, ag_local, ag_frame, ag_len, 
+                                    ag_start, ag_near, ag_done, ap_frame, 
+                                    ap_order, ap_class, ap_local, ad_c, ad_k, 
+                                    ad_old, cg_t, cg_mclass, cg_mfree, 
+                                    cg_cclass, cg_cop, cg_prev, cg_done, 
+                                    cg_fetched, cg_h, cg_v, cg_next, cg_ok, 
+                                    cg_seen, ac_id, ac_mclass, ac_mfree, 
+                                    ac_cclass, ac_cop, ac_i, ac_done, pcx, cur, 
+                                    blk >>
 
 lg_ret(self) == /\ pc[self] = "lg_ret"
                 /\ rv' = [rv EXCEPT ![self] = [ok |-> lg_found[self], frame |-> lg_frame[self], err |-> "mem"]]
@@ -1854,8 +1863,8 @@ lg_ret(self) == /\ pc[self] = "lg_ret"
                 /\ lg_row' = [lg_row EXCEPT ![self] = Head(stack[self]).lg_row]
                 /\ lg_order' = [lg_order EXCEPT ![self] = Head(stack[self]).lg_order]
                 /\ stack' = [stack EXCEPT ![self] = Tail(stack[self])]
-                /\ UNCHANGED << mem, held, results, inflight, panicked, lastop, 
-                                dp_why, tu_loc, tu_fn, tu_arg, tu_prev, 
+                /\ UNCHANGED << mem, held, results, inflight, panicked, hid, 
+                                lastop, dp_why, tu_loc, tu_fn, tu_arg, tu_prev, 
                                 tu_next, tu_done, tu_ok, tu_seen, ca_h0, 
                                 ca_num, ca_cur, ca_new, ca_i, ca_ok, ca_seen, 
                                 ca_j, sf_h, sf_start, sf_order, sf_i, sf_r, 
@@ -1896,19 +1905,19 @@ ca_start(self) == /\ pc[self] = "ca_start"
                   /\ ca_ok' = [ca_ok EXCEPT ![self] = TRUE]
                   /\ pc' = [pc EXCEPT ![self] = "ca_loop"]
                   /\ UNCHANGED << mem, held, results, inflight, rv, panicked, 
-                                  lastop, stack, dp_why, tu_loc, tu_fn, tu_arg, 
-                                  tu_prev, tu_next, tu_done, tu_ok, tu_seen, 
-                                  lg_row, lg_order, lg_tree, lg_off, lg_j, 
-                                  lg_i, lg_h, lg_found, lg_frame, lg_n, ca_h0, 
-                                  ca_num, ca_cur, ca_new, ca_seen, ca_j, sf_h, 
-                                  sf_start, sf_order, sf_i, sf_r, sf_found, 
-                                  sf_off, sf_nrows, sf_c, sf_k, sf_v, sf_zero, 
-                                  sf_ok, sf_seen, sf_u, tg_h, tg_off, tg_order, 
-                                  tg_exp, tg_ok, tg_i, tg_n, tg_seen, tg_u, 
-                                  tg_r0, la_frame, la_order, la_h, ps_frame, 
-                                  ps_order, lp_frame, lp_order, lp_h, lp_old, 
-                                  lp_ok, lp_seen, lp_spin, lp_v, tp_t, tp_n, 
-                                  tu2_t, tu2_free, tu2_class, gl_order, 
+                                  hid, lastop, stack, dp_why, tu_loc, tu_fn, 
+                                  tu_arg, tu_prev, tu_next, tu_done, tu_ok, 
+                                  tu_seen, lg_row, lg_order, lg_tree, lg_off, 
+                                  lg_j, lg_i, lg_h, lg_found, lg_frame, lg_n, 
+                                  ca_h0, ca_num, ca_cur, ca_new, ca_seen, ca_j, 
+                                  sf_h, sf_start, sf_order, sf_i, sf_r, 
+                                  sf_found, sf_off, sf_nrows, sf_c, sf_k, sf_v, 
+                                  sf_zero, sf_ok, sf_seen, sf_u, tg_h, tg_off, 
+                                  tg_order, tg_exp, tg_ok, tg_i, tg_n, tg_seen, 
+                                  tg_u, tg_r0, la_frame, la_order, la_h, 
+                                  ps_frame, ps_order, lp_frame, lp_order, lp_h, 
+                                  lp_old, lp_ok, lp_seen, lp_spin, lp_v, tp_t, 
+                                  tp_n, tu2_t, tu2_free, tu2_class, gl_order, 
                                   gl_class, gl_local, gl_frame, gl_sync, 
                                   gl_row, gl_res, gl_min, gl_got, sg_i, 
                                   sg_class, sg_order, sg_frame, sg_c, rs_i, 
@@ -1967,30 +1976,30 @@ ca_loop(self) == /\ pc[self] = "ca_loop"
                                        /\ ca_new' = [ca_new EXCEPT ![self] = Head(stack[self]).ca_new]
                                        /\ stack' = [stack EXCEPT ![self] = Tail(stack[self])]
                             /\ UNCHANGED << mem, lastop >>
-                 /\ UNCHANGED << held, results, inflight, panicked, dp_why, 
-                                 tu_loc, tu_fn, tu_arg, tu_prev, tu_next, 
-                                 tu_done, tu_ok, tu_seen, lg_row, lg_order, 
-                                 lg_tree, lg_off, lg_j, lg_i, lg_h, lg_found, 
-                                 lg_frame, lg_n, sf_h, sf_start, sf_order, 
-                                 sf_i, sf_r, sf_found, sf_off, sf_nrows, sf_c, 
-                                 sf_k, sf_v, sf_zero, sf_ok, sf_seen, sf_u, 
-                                 tg_h, tg_off, tg_order, tg_exp, tg_ok, tg_i, 
-                                 tg_n, tg_seen, tg_u, tg_r0, la_frame, 
-                                 la_order, la_h, ps_frame, ps_order, lp_frame, 
-                                 lp_order, lp_h, lp_old, lp_ok, lp_seen, 
-                                 lp_spin, lp_v, tp_t, tp_n, tu2_t, tu2_free, 
-                                 tu2_class, gl_order, gl_class, gl_local, 
-                                 gl_frame, gl_sync, gl_row, gl_res, gl_min, 
-                                 gl_got, sg_i, sg_class, sg_order, sg_frame, 
-                                 sg_c, rs_i, rs_order, rs_class, rs_local, 
-                                 rs_reserved, rs_free, rs_tc, rs_frame, rs_old, 
-                                 sb_n, sb_start, sb_offset, sb_len, sb_mode, 
-                                 sb_order, sb_class, sb_local, sb_i, sb_idx, 
-                                 sb_t, sb_p, sb_best, sb_done, sb_k, sl_class, 
-                                 sl_local, sl_order, sl_frame, sl_i, sl_tc, 
-                                 sl_j, sl_found, sl_row, sl_jj, dl_class, 
-                                 dl_local, dl_order, dl_frame, dl_i, dl_tc, 
-                                 dl_j, dl_found, dl_new, dl_old, dl_jj, 
+                 /\ UNCHANGED << held, results, inflight, panicked, hid, 
+                                 dp_why, tu_loc, tu_fn, tu_arg, tu_prev, 
+                                 tu_next, tu_done, tu_ok, tu_seen, lg_row, 
+                                 lg_order, lg_tree, lg_off, lg_j, lg_i, lg_h, 
+                                 lg_found, lg_frame, lg_n, sf_h, sf_start, 
+                                 sf_order, sf_i, sf_r, sf_found, sf_off, 
+                                 sf_nrows, sf_c, sf_k, sf_v, sf_zero, sf_ok, 
+                                 sf_seen, sf_u, tg_h, tg_off, tg_order, tg_exp, 
+                                 tg_ok, tg_i, tg_n, tg_seen, tg_u, tg_r0, 
+                                 la_frame, la_order, la_h, ps_frame, ps_order, 
+                                 lp_frame, lp_order, lp_h, lp_old, lp_ok, 
+                                 lp_seen, lp_spin, lp_v, tp_t, tp_n, tu2_t, 
+                                 tu2_free, tu2_class, gl_order, gl_class, 
+                                 gl_local, gl_frame, gl_sync, gl_row, gl_res, 
+                                 gl_min, gl_got, sg_i, sg_class, sg_order, 
+                                 sg_frame, sg_c, rs_i, rs_order, rs_class, 
+                                 rs_local, rs_reserved, rs_free, rs_tc, 
+                                 rs_frame, rs_old, sb_n, sb_start, sb_offset, 
+                                 sb_len, sb_mode, sb_order, sb_class, sb_local, 
+                                 sb_i, sb_idx, sb_t, sb_p, sb_best, sb_done, 
+                                 sb_k, sl_class, sl_local, sl_order, sl_frame, 
+                                 sl_i, sl_tc, sl_j, sl_found, sl_row, sl_jj, 
+                                 dl_class, dl_local, dl_order, dl_frame, dl_i, 
+                                 dl_tc, dl_j, dl_found, dl_new, dl_old, dl_jj, 
                                  dl_oldclass, ag_order, ag_class, ag_local, 
                                  ag_frame, ag_len, ag_start, ag_near, ag_done, 
                                  ap_frame, ap_order, ap_class, ap_local, ad_c, 
@@ -2026,12 +2035,12 @@ ca_undo(self) == /\ pc[self] = "ca_undo"
                        ELSE /\ pc' = [pc EXCEPT ![self] = "ca_fail"]
                             /\ UNCHANGED << mem, lastop, stack, dp_why, ca_ok, 
                                             ca_seen, ca_j >>
-                 /\ UNCHANGED << held, results, inflight, rv, panicked, tu_loc, 
-                                 tu_fn, tu_arg, tu_prev, tu_next, tu_done, 
-                                 tu_ok, tu_seen, lg_row, lg_order, lg_tree, 
-                                 lg_off, lg_j, lg_i, lg_h, lg_found, lg_frame, 
-                                 lg_n, ca_h0, ca_num, ca_cur, ca_new, ca_i, 
-                                 sf_h, sf_start, sf_order, sf_i, sf_r, 
+                 /\ UNCHANGED << held, results, inflight, rv, panicked, hid, 
+                                 tu_loc, tu_fn, tu_arg, tu_prev, tu_next, 
+                                 tu_done, tu_ok, tu_seen, lg_row, lg_order, 
+                                 lg_tree, lg_off, lg_j, lg_i, lg_h, lg_found, 
+                                 lg_frame, lg_n, ca_h0, ca_num, ca_cur, ca_new, 
+                                 ca_i, sf_h, sf_start, sf_order, sf_i, sf_r, 
                                  sf_found, sf_off, sf_nrows, sf_c, sf_k, sf_v, 
                                  sf_zero, sf_ok, sf_seen, sf_u, tg_h, tg_off, 
                                  tg_order, tg_exp, tg_ok, tg_i, tg_n, tg_seen, 
@@ -2072,7 +2081,7 @@ ca_fail(self) == /\ pc[self] = "ca_fail"
                  /\ ca_cur' = [ca_cur EXCEPT ![self] = Head(stack[self]).ca_cur]
                  /\ ca_new' = [ca_new EXCEPT ![self] = Head(stack[self]).ca_new]
                  /\ stack' = [stack EXCEPT ![self] = Tail(stack[self])]
-                 /\ UNCHANGED << mem, held, results, inflight, panicked, 
+                 /\ UNCHANGED << mem, held, results, inflight, panicked, hid, 
                                  lastop, dp_why, tu_loc, tu_fn, tu_arg, 
                                  tu_prev, tu_next, tu_done, tu_ok, tu_seen, 
                                  lg_row, lg_order, lg_tree, lg_off, lg_j, lg_i, 
@@ -2119,30 +2128,31 @@ sf_begin(self) == /\ pc[self] = "sf_begin"
                              /\ sf_c' = [sf_c EXCEPT ![self] = 0]
                              /\ pc' = [pc EXCEPT ![self] = "sf_chunks"]
                   /\ UNCHANGED << mem, held, results, inflight, rv, panicked, 
-                                  lastop, stack, dp_why, tu_loc, tu_fn, tu_arg, 
-                                  tu_prev, tu_next, tu_done, tu_ok, tu_seen, 
-                                  lg_row, lg_order, lg_tree, lg_off, lg_j, 
-                                  lg_i, lg_h, lg_found, lg_frame, lg_n, ca_h0, 
-                                  ca_num, ca_cur, ca_new, ca_i, ca_ok, ca_seen, 
-                                  ca_j, sf_h, sf_start, sf_order, sf_r, sf_off, 
-                                  sf_k, sf_v, sf_zero, sf_ok, sf_seen, sf_u, 
-                                  tg_h, tg_off, tg_order, tg_exp, tg_ok, tg_i, 
-                                  tg_n, tg_seen, tg_u, tg_r0, la_frame, 
-                                  la_order, la_h, ps_frame, ps_order, lp_frame, 
-                                  lp_order, lp_h, lp_old, lp_ok, lp_seen, 
-                                  lp_spin, lp_v, tp_t, tp_n, tu2_t, tu2_free, 
-                                  tu2_class, gl_order, gl_class, gl_local, 
-                                  gl_frame, gl_sync, gl_row, gl_res, gl_min, 
-                                  gl_got, sg_i, sg_class, sg_order, sg_frame, 
-                                  sg_c, rs_i, rs_order, rs_class, rs_local, 
-                                  rs_reserved, rs_free, rs_tc, rs_frame, 
-                                  rs_old, sb_n, sb_start, sb_offset, sb_len, 
-                                  sb_mode, sb_order, sb_class, sb_local, sb_i, 
-                                  sb_idx, sb_t, sb_p, sb_best, sb_done, sb_k, 
-                                  sl_class, sl_local, sl_order, sl_frame, sl_i, 
-                                  sl_tc, sl_j, sl_found, sl_row, sl_jj, 
-                                  dl_class, dl_local, dl_order, dl_frame, dl_i, 
-                                  dl_tc, dl_j, dl_found, dl_new, dl_old, dl_jj, 
+                                  hid, lastop, stack, dp_why, tu_loc, tu_fn, 
+                                  tu_arg, tu_prev, tu_next, tu_done, tu_ok, 
+                                  tu_seen, lg_row, lg_order, lg_tree, lg_off, 
+                                  lg_j, lg_i, lg_h, lg_found, lg_frame, lg_n, 
+                                  ca_h0, ca_num, ca_cur, ca_new, ca_i, ca_ok, 
+                                  ca_seen, ca_j, sf_h, sf_start, sf_order, 
+                                  sf_r, sf_off, sf_k, sf_v, sf_zero, sf_ok, 
+                                  sf_seen, sf_u, tg_h, tg_off, tg_order, 
+                                  tg_exp, tg_ok, tg_i, tg_n, tg_seen, tg_u, 
+                                  tg_r0, la_frame, la_order, la_h, ps_frame, 
+                                  ps_order, lp_frame, lp_order, lp_h, lp_old, 
+                                  lp_ok, lp_seen, lp_spin, lp_v, tp_t, tp_n, 
+                                  tu2_t, tu2_free, tu2_class, gl_order, 
+                                  gl_class, gl_local, gl_frame, gl_sync, 
+                                  gl_row, gl_res, gl_min, gl_got, sg_i, 
+                                  sg_class, sg_order, sg_frame, sg_c, rs_i, 
+                                  rs_order, rs_class, rs_local, rs_reserved, 
+                                  rs_free, rs_tc, rs_frame, rs_old, sb_n, 
+                                  sb_start, sb_offset, sb_len, sb_mode, 
+                                  sb_order, sb_class, sb_local, sb_i, sb_idx, 
+                                  sb_t, sb_p, sb_best, sb_done, sb_k, sl_class, 
+                                  sl_local, sl_order, sl_frame, sl_i, sl_tc, 
+                                  sl_j, sl_found, sl_row, sl_jj, dl_class, 
+                                  dl_local, dl_order, dl_frame, dl_i, dl_tc, 
+                                  dl_j, dl_found, dl_new, dl_old, dl_jj, 
                                   dl_oldclass, ag_order, ag_class, ag_local, 
                                   ag_frame, ag_len, ag_start, ag_near, ag_done, 
                                   ap_frame, ap_order, ap_class, ap_local, ad_c, 
@@ -2181,10 +2191,10 @@ sf_rows(self) == /\ pc[self] = "sf_rows"
                                             tu_prev, tu_next, tu_done, tu_ok, 
                                             tu_seen, sf_r >>
                  /\ UNCHANGED << mem, held, results, inflight, rv, panicked, 
-                                 lastop, dp_why, lg_row, lg_order, lg_tree, 
-                                 lg_off, lg_j, lg_i, lg_h, lg_found, lg_frame, 
-                                 lg_n, ca_h0, ca_num, ca_cur, ca_new, ca_i, 
-                                 ca_ok, ca_seen, ca_j, sf_h, sf_start, 
+                                 hid, lastop, dp_why, lg_row, lg_order, 
+                                 lg_tree, lg_off, lg_j, lg_i, lg_h, lg_found, 
+                                 lg_frame, lg_n, ca_h0, ca_num, ca_cur, ca_new, 
+                                 ca_i, ca_ok, ca_seen, ca_j, sf_h, sf_start, 
                                  sf_order, sf_i, sf_found, sf_off, sf_nrows, 
                                  sf_c, sf_k, sf_v, sf_zero, sf_ok, sf_seen, 
                                  sf_u, tg_h, tg_off, tg_order, tg_exp, tg_ok, 
@@ -2223,7 +2233,7 @@ sf_rows_r(self) == /\ pc[self] = "sf_rows_r"
                               /\ UNCHANGED << sf_found, sf_off >>
                    /\ pc' = [pc EXCEPT ![self] = "sf_rows"]
                    /\ UNCHANGED << mem, held, results, inflight, rv, panicked, 
-                                   lastop, stack, dp_why, tu_loc, tu_fn, 
+                                   hid, lastop, stack, dp_why, tu_loc, tu_fn, 
                                    tu_arg, tu_prev, tu_next, tu_done, tu_ok, 
                                    tu_seen, lg_row, lg_order, lg_tree, lg_off, 
                                    lg_j, lg_i, lg_h, lg_found, lg_frame, lg_n, 
@@ -2266,7 +2276,7 @@ sf_chunks(self) == /\ pc[self] = "sf_chunks"
                          ELSE /\ pc' = [pc EXCEPT ![self] = "sf_ret"]
                               /\ UNCHANGED << sf_k, sf_zero >>
                    /\ UNCHANGED << mem, held, results, inflight, rv, panicked, 
-                                   lastop, stack, dp_why, tu_loc, tu_fn, 
+                                   hid, lastop, stack, dp_why, tu_loc, tu_fn, 
                                    tu_arg, tu_prev, tu_next, tu_done, tu_ok, 
                                    tu_seen, lg_row, lg_order, lg_tree, lg_off, 
                                    lg_j, lg_i, lg_h, lg_found, lg_frame, lg_n, 
@@ -2322,7 +2332,7 @@ sf_check(self) == /\ pc[self] = "sf_check"
                                         /\ UNCHANGED << sf_k, sf_ok >>
                              /\ UNCHANGED << lastop, sf_v, sf_zero >>
                   /\ UNCHANGED << mem, held, results, inflight, rv, panicked, 
-                                  stack, dp_why, tu_loc, tu_fn, tu_arg, 
+                                  hid, stack, dp_why, tu_loc, tu_fn, tu_arg, 
                                   tu_prev, tu_next, tu_done, tu_ok, tu_seen, 
                                   lg_row, lg_order, lg_tree, lg_off, lg_j, 
                                   lg_i, lg_h, lg_found, lg_frame, lg_n, ca_h0, 
@@ -2382,8 +2392,8 @@ sf_set(self) == /\ pc[self] = "sf_set"
                                       /\ pc' = [pc EXCEPT ![self] = "sf_undo"]
                                       /\ UNCHANGED << sf_found, sf_off >>
                            /\ UNCHANGED << mem, lastop, sf_k, sf_ok, sf_seen >>
-                /\ UNCHANGED << held, results, inflight, rv, panicked, stack, 
-                                dp_why, tu_loc, tu_fn, tu_arg, tu_prev, 
+                /\ UNCHANGED << held, results, inflight, rv, panicked, hid, 
+                                stack, dp_why, tu_loc, tu_fn, tu_arg, tu_prev, 
                                 tu_next, tu_done, tu_ok, tu_seen, lg_row, 
                                 lg_order, lg_tree, lg_off, lg_j, lg_i, lg_h, 
                                 lg_found, lg_frame, lg_n, ca_h0, ca_num, 
@@ -2442,12 +2452,12 @@ sf_undo(self) == /\ pc[self] = "sf_undo"
                             /\ pc' = [pc EXCEPT ![self] = "sf_chunks"]
                             /\ UNCHANGED << mem, lastop, stack, dp_why, sf_ok, 
                                             sf_seen, sf_u >>
-                 /\ UNCHANGED << held, results, inflight, rv, panicked, tu_loc, 
-                                 tu_fn, tu_arg, tu_prev, tu_next, tu_done, 
-                                 tu_ok, tu_seen, lg_row, lg_order, lg_tree, 
-                                 lg_off, lg_j, lg_i, lg_h, lg_found, lg_frame, 
-                                 lg_n, ca_h0, ca_num, ca_cur, ca_new, ca_i, 
-                                 ca_ok, ca_seen, ca_j, sf_h, sf_start, 
+                 /\ UNCHANGED << held, results, inflight, rv, panicked, hid, 
+                                 tu_loc, tu_fn, tu_arg, tu_prev, tu_next, 
+                                 tu_done, tu_ok, tu_seen, lg_row, lg_order, 
+                                 lg_tree, lg_off, lg_j, lg_i, lg_h, lg_found, 
+                                 lg_frame, lg_n, ca_h0, ca_num, ca_cur, ca_new, 
+                                 ca_i, ca_ok, ca_seen, ca_j, sf_h, sf_start, 
                                  sf_order, sf_i, sf_r, sf_found, sf_off, 
                                  sf_nrows, sf_k, sf_v, sf_zero, tg_h, tg_off, 
                                  tg_order, tg_exp, tg_ok, tg_i, tg_n, tg_seen, 
@@ -2495,8 +2505,8 @@ sf_ret(self) == /\ pc[self] = "sf_ret"
                 /\ sf_start' = [sf_start EXCEPT ![self] = Head(stack[self]).sf_start]
                 /\ sf_order' = [sf_order EXCEPT ![self] = Head(stack[self]).sf_order]
                 /\ stack' = [stack EXCEPT ![self] = Tail(stack[self])]
-                /\ UNCHANGED << mem, held, results, inflight, panicked, lastop, 
-                                dp_why, tu_loc, tu_fn, tu_arg, tu_prev, 
+                /\ UNCHANGED << mem, held, results, inflight, panicked, hid, 
+                                lastop, dp_why, tu_loc, tu_fn, tu_arg, tu_prev, 
                                 tu_next, tu_done, tu_ok, tu_seen, lg_row, 
                                 lg_order, lg_tree, lg_off, lg_j, lg_i, lg_h, 
                                 lg_found, lg_frame, lg_n, ca_h0, ca_num, 
@@ -2572,13 +2582,13 @@ tg_begin(self) == /\ pc[self] = "tg_begin"
                                              tu_prev, tu_next, tu_done, tu_ok, 
                                              tu_seen >>
                   /\ UNCHANGED << mem, held, results, inflight, rv, panicked, 
-                                  lastop, dp_why, lg_row, lg_order, lg_tree, 
-                                  lg_off, lg_j, lg_i, lg_h, lg_found, lg_frame, 
-                                  lg_n, ca_h0, ca_num, ca_cur, ca_new, ca_i, 
-                                  ca_ok, ca_seen, ca_j, sf_h, sf_start, 
-                                  sf_order, sf_i, sf_r, sf_found, sf_off, 
-                                  sf_nrows, sf_c, sf_k, sf_v, sf_zero, sf_ok, 
-                                  sf_seen, sf_u, tg_h, tg_off, tg_order, 
+                                  hid, lastop, dp_why, lg_row, lg_order, 
+                                  lg_tree, lg_off, lg_j, lg_i, lg_h, lg_found, 
+                                  lg_frame, lg_n, ca_h0, ca_num, ca_cur, 
+                                  ca_new, ca_i, ca_ok, ca_seen, ca_j, sf_h, 
+                                  sf_start, sf_order, sf_i, sf_r, sf_found, 
+                                  sf_off, sf_nrows, sf_c, sf_k, sf_v, sf_zero, 
+                                  sf_ok, sf_seen, sf_u, tg_h, tg_off, tg_order, 
                                   tg_exp, tg_seen, tg_u, la_frame, la_order, 
                                   la_h, ps_frame, ps_order, lp_frame, lp_order, 
                                   lp_h, lp_old, lp_ok, lp_seen, lp_spin, lp_v, 
@@ -2620,7 +2630,7 @@ tg_small_r(self) == /\ pc[self] = "tg_small_r"
                     /\ tg_exp' = [tg_exp EXCEPT ![self] = Head(stack[self]).tg_exp]
                     /\ stack' = [stack EXCEPT ![self] = Tail(stack[self])]
                     /\ UNCHANGED << mem, held, results, inflight, panicked, 
-                                    lastop, dp_why, tu_loc, tu_fn, tu_arg, 
+                                    hid, lastop, dp_why, tu_loc, tu_fn, tu_arg, 
                                     tu_prev, tu_next, tu_done, tu_ok, tu_seen, 
                                     lg_row, lg_order, lg_tree, lg_off, lg_j, 
                                     lg_i, lg_h, lg_found, lg_frame, lg_n, 
@@ -2666,7 +2676,7 @@ tg_int(self) == /\ pc[self] = "tg_int"
                            /\ mem' = mem
                 /\ rv' = [rv EXCEPT ![self] = [ok |-> tg_ok'[self]]]
                 /\ pc' = [pc EXCEPT ![self] = "Lbl_1"]
-                /\ UNCHANGED << held, results, inflight, panicked, stack, 
+                /\ UNCHANGED << held, results, inflight, panicked, hid, stack, 
                                 dp_why, tu_loc, tu_fn, tu_arg, tu_prev, 
                                 tu_next, tu_done, tu_ok, tu_seen, lg_row, 
                                 lg_order, lg_tree, lg_off, lg_j, lg_i, lg_h, 
@@ -2713,7 +2723,7 @@ Lbl_1(self) == /\ pc[self] = "Lbl_1"
                /\ tg_order' = [tg_order EXCEPT ![self] = Head(stack[self]).tg_order]
                /\ tg_exp' = [tg_exp EXCEPT ![self] = Head(stack[self]).tg_exp]
                /\ stack' = [stack EXCEPT ![self] = Tail(stack[self])]
-               /\ UNCHANGED << mem, held, results, inflight, rv, panicked, 
+               /\ UNCHANGED << mem, held, results, inflight, rv, panicked, hid, 
                                lastop, dp_why, tu_loc, tu_fn, tu_arg, tu_prev, 
                                tu_next, tu_done, tu_ok, tu_seen, lg_row, 
                                lg_order, lg_tree, lg_off, lg_j, lg_i, lg_h, 
@@ -2757,13 +2767,13 @@ tg_int64(self) == /\ pc[self] = "tg_int64"
                              /\ mem' = mem
                   /\ rv' = [rv EXCEPT ![self] = [ok |-> tg_ok'[self]]]
                   /\ pc' = [pc EXCEPT ![self] = "Lbl_2"]
-                  /\ UNCHANGED << held, results, inflight, panicked, stack, 
-                                  dp_why, tu_loc, tu_fn, tu_arg, tu_prev, 
-                                  tu_next, tu_done, tu_ok, tu_seen, lg_row, 
-                                  lg_order, lg_tree, lg_off, lg_j, lg_i, lg_h, 
-                                  lg_found, lg_frame, lg_n, ca_h0, ca_num, 
-                                  ca_cur, ca_new, ca_i, ca_ok, ca_seen, ca_j, 
-                                  sf_h, sf_start, sf_order, sf_i, sf_r, 
+                  /\ UNCHANGED << held, results, inflight, panicked, hid, 
+                                  stack, dp_why, tu_loc, tu_fn, tu_arg, 
+                                  tu_prev, tu_next, tu_done, tu_ok, tu_seen, 
+                                  lg_row, lg_order, lg_tree, lg_off, lg_j, 
+                                  lg_i, lg_h, lg_found, lg_frame, lg_n, ca_h0, 
+                                  ca_num, ca_cur, ca_new, ca_i, ca_ok, ca_seen, 
+                                  ca_j, sf_h, sf_start, sf_order, sf_i, sf_r, 
                                   sf_found, sf_off, sf_nrows, sf_c, sf_k, sf_v, 
                                   sf_zero, sf_ok, sf_seen, sf_u, tg_h, tg_off, 
                                   tg_order, tg_exp, tg_i, tg_n, tg_u, tg_r0, 
@@ -2805,7 +2815,7 @@ Lbl_2(self) == /\ pc[self] = "Lbl_2"
                /\ tg_order' = [tg_order EXCEPT ![self] = Head(stack[self]).tg_order]
                /\ tg_exp' = [tg_exp EXCEPT ![self] = Head(stack[self]).tg_exp]
                /\ stack' = [stack EXCEPT ![self] = Tail(stack[self])]
-               /\ UNCHANGED << mem, held, results, inflight, rv, panicked, 
+               /\ UNCHANGED << mem, held, results, inflight, rv, panicked, hid, 
                                lastop, dp_why, tu_loc, tu_fn, tu_arg, tu_prev, 
                                tu_next, tu_done, tu_ok, tu_seen, lg_row, 
                                lg_order, lg_tree, lg_off, lg_j, lg_i, lg_h, 
@@ -2876,38 +2886,39 @@ tg_rows(self) == /\ pc[self] = "tg_rows"
                                        /\ tg_exp' = [tg_exp EXCEPT ![self] = Head(stack[self]).tg_exp]
                                        /\ stack' = [stack EXCEPT ![self] = Tail(stack[self])]
                             /\ UNCHANGED << mem, lastop >>
-                 /\ UNCHANGED << held, results, inflight, panicked, dp_why, 
-                                 tu_loc, tu_fn, tu_arg, tu_prev, tu_next, 
-                                 tu_done, tu_ok, tu_seen, lg_row, lg_order, 
-                                 lg_tree, lg_off, lg_j, lg_i, lg_h, lg_found, 
-                                 lg_frame, lg_n, ca_h0, ca_num, ca_cur, ca_new, 
-                                 ca_i, ca_ok, ca_seen, ca_j, sf_h, sf_start, 
-                                 sf_order, sf_i, sf_r, sf_found, sf_off, 
-                                 sf_nrows, sf_c, sf_k, sf_v, sf_zero, sf_ok, 
-                                 sf_seen, sf_u, la_frame, la_order, la_h, 
-                                 ps_frame, ps_order, lp_frame, lp_order, lp_h, 
-                                 lp_old, lp_ok, lp_seen, lp_spin, lp_v, tp_t, 
-                                 tp_n, tu2_t, tu2_free, tu2_class, gl_order, 
-                                 gl_class, gl_local, gl_frame, gl_sync, gl_row, 
-                                 gl_res, gl_min, gl_got, sg_i, sg_class, 
-                                 sg_order, sg_frame, sg_c, rs_i, rs_order, 
-                                 rs_class, rs_local, rs_reserved, rs_free, 
-                                 rs_tc, rs_frame, rs_old, sb_n, sb_start, 
-                                 sb_offset, sb_len, sb_mode, sb_order, 
-                                 sb_class, sb_local, sb_i, sb_idx, sb_t, sb_p, 
-                                 sb_best, sb_done, sb_k, sl_class, sl_local, 
-                                 sl_order, sl_frame, sl_i, sl_tc, sl_j, 
-                                 sl_found, sl_row, sl_jj, dl_class, dl_local, 
-                                 dl_order, dl_frame, dl_i, dl_tc, dl_j, 
-                                 dl_found, dl_new, dl_old, dl_jj, dl_oldclass, 
-                                 ag_order, ag_class, ag_local, ag_frame, 
-                                 ag_len, ag_start, ag_near, ag_done, ap_frame, 
-                                 ap_order, ap_class, ap_local, ad_c, ad_k, 
-                                 ad_old, cg_t, cg_mclass, cg_mfree, cg_cclass, 
-                                 cg_cop, cg_prev, cg_done, cg_fetched, cg_h, 
-                                 cg_v, cg_next, cg_ok, cg_seen, ac_id, 
-                                 ac_mclass, ac_mfree, ac_cclass, ac_cop, ac_i, 
-                                 ac_done, pcx, cur, blk >>
+                 /\ UNCHANGED << held, results, inflight, panicked, hid, 
+                                 dp_why, tu_loc, tu_fn, tu_arg, tu_prev, 
+                                 tu_next, tu_done, tu_ok, tu_seen, lg_row, 
+                                 lg_order, lg_tree, lg_off, lg_j, lg_i, lg_h, 
+                                 lg_found, lg_frame, lg_n, ca_h0, ca_num, 
+                                 ca_cur, ca_new, ca_i, ca_ok, ca_seen, ca_j, 
+                                 sf_h, sf_start, sf_order, sf_i, sf_r, 
+                                 sf_found, sf_off, sf_nrows, sf_c, sf_k, sf_v, 
+                                 sf_zero, sf_ok, sf_seen, sf_u, la_frame, 
+                                 la_order, la_h, ps_frame, ps_order, lp_frame, 
+                                 lp_order, lp_h, lp_old, lp_ok, lp_seen, 
+                                 lp_spin, lp_v, tp_t, tp_n, tu2_t, tu2_free, 
+                                 tu2_class, gl_order, gl_class, gl_local, 
+                                 gl_frame, gl_sync, gl_row, gl_res, gl_min, 
+                                 gl_got, sg_i, sg_class, sg_order, sg_frame, 
+                                 sg_c, rs_i, rs_order, rs_class, rs_local, 
+                                 rs_reserved, rs_free, rs_tc, rs_frame, rs_old, 
+                                 sb_n, sb_start, sb_offset, sb_len, sb_mode, 
+                                 sb_order, sb_class, sb_local, sb_i, sb_idx, 
+                                 sb_t, sb_p, sb_best, sb_done, sb_k, sl_class, 
+                                 sl_local, sl_order, sl_frame, sl_i, sl_tc, 
+                                 sl_j, sl_found, sl_row, sl_jj, dl_class, 
+                                 dl_local, dl_order, dl_frame, dl_i, dl_tc, 
+                                 dl_j, dl_found, dl_new, dl_old, dl_jj, 
+                                 dl_oldclass, ag_order, ag_class, ag_local, 
+                                 ag_frame, ag_len, ag_start, ag_near, ag_done, 
+                                 ap_frame, ap_order, ap_class, ap_local, ad_c, 
+                                 ad_k, ad_old, cg_t, cg_mclass, cg_mfree, 
+                                 cg_cclass, cg_cop, cg_prev, cg_done, 
+                                 cg_fetched, cg_h, cg_v, cg_next, cg_ok, 
+                                 cg_seen, ac_id, ac_mclass, ac_mfree, 
+                                 ac_cclass, ac_cop, ac_i, ac_done, pcx, cur, 
+                                 blk >>
 
 tg_undo(self) == /\ pc[self] = "tg_undo"
                  /\ IF tg_u[self] >= 0
@@ -2934,12 +2945,12 @@ tg_undo(self) == /\ pc[self] = "tg_undo"
                        ELSE /\ pc' = [pc EXCEPT ![self] = "tg_fail"]
                             /\ UNCHANGED << mem, lastop, stack, dp_why, tg_ok, 
                                             tg_seen, tg_u >>
-                 /\ UNCHANGED << held, results, inflight, rv, panicked, tu_loc, 
-                                 tu_fn, tu_arg, tu_prev, tu_next, tu_done, 
-                                 tu_ok, tu_seen, lg_row, lg_order, lg_tree, 
-                                 lg_off, lg_j, lg_i, lg_h, lg_found, lg_frame, 
-                                 lg_n, ca_h0, ca_num, ca_cur, ca_new, ca_i, 
-                                 ca_ok, ca_seen, ca_j, sf_h, sf_start, 
+                 /\ UNCHANGED << held, results, inflight, rv, panicked, hid, 
+                                 tu_loc, tu_fn, tu_arg, tu_prev, tu_next, 
+                                 tu_done, tu_ok, tu_seen, lg_row, lg_order, 
+                                 lg_tree, lg_off, lg_j, lg_i, lg_h, lg_found, 
+                                 lg_frame, lg_n, ca_h0, ca_num, ca_cur, ca_new, 
+                                 ca_i, ca_ok, ca_seen, ca_j, sf_h, sf_start, 
                                  sf_order, sf_i, sf_r, sf_found, sf_off, 
                                  sf_nrows, sf_c, sf_k, sf_v, sf_zero, sf_ok, 
                                  sf_seen, sf_u, tg_h, tg_off, tg_order, tg_exp, 
@@ -2982,7 +2993,7 @@ tg_fail(self) == /\ pc[self] = "tg_fail"
                  /\ tg_order' = [tg_order EXCEPT ![self] = Head(stack[self]).tg_order]
                  /\ tg_exp' = [tg_exp EXCEPT ![self] = Head(stack[self]).tg_exp]
                  /\ stack' = [stack EXCEPT ![self] = Tail(stack[self])]
-                 /\ UNCHANGED << mem, held, results, inflight, panicked, 
+                 /\ UNCHANGED << mem, held, results, inflight, panicked, hid, 
                                  lastop, dp_why, tu_loc, tu_fn, tu_arg, 
                                  tu_prev, tu_next, tu_done, tu_ok, tu_seen, 
                                  lg_row, lg_order, lg_tree, lg_off, lg_j, lg_i, 
@@ -3068,28 +3079,28 @@ la_begin(self) == /\ pc[self] = "la_begin"
                              /\ UNCHANGED << ca_h0, ca_num, ca_cur, ca_new, 
                                              ca_i, ca_ok, ca_seen, ca_j >>
                   /\ UNCHANGED << mem, held, results, inflight, rv, panicked, 
-                                  lastop, dp_why, lg_row, lg_order, lg_tree, 
-                                  lg_off, lg_j, lg_i, lg_h, lg_found, lg_frame, 
-                                  lg_n, sf_h, sf_start, sf_order, sf_i, sf_r, 
-                                  sf_found, sf_off, sf_nrows, sf_c, sf_k, sf_v, 
-                                  sf_zero, sf_ok, sf_seen, sf_u, tg_h, tg_off, 
-                                  tg_order, tg_exp, tg_ok, tg_i, tg_n, tg_seen, 
-                                  tg_u, tg_r0, la_frame, la_order, ps_frame, 
-                                  ps_order, lp_frame, lp_order, lp_h, lp_old, 
-                                  lp_ok, lp_seen, lp_spin, lp_v, tp_t, tp_n, 
-                                  tu2_t, tu2_free, tu2_class, gl_order, 
-                                  gl_class, gl_local, gl_frame, gl_sync, 
-                                  gl_row, gl_res, gl_min, gl_got, sg_i, 
-                                  sg_class, sg_order, sg_frame, sg_c, rs_i, 
-                                  rs_order, rs_class, rs_local, rs_reserved, 
-                                  rs_free, rs_tc, rs_frame, rs_old, sb_n, 
-                                  sb_start, sb_offset, sb_len, sb_mode, 
-                                  sb_order, sb_class, sb_local, sb_i, sb_idx, 
-                                  sb_t, sb_p, sb_best, sb_done, sb_k, sl_class, 
-                                  sl_local, sl_order, sl_frame, sl_i, sl_tc, 
-                                  sl_j, sl_found, sl_row, sl_jj, dl_class, 
-                                  dl_local, dl_order, dl_frame, dl_i, dl_tc, 
-                                  dl_j, dl_found, dl_new, dl_old, dl_jj, 
+                                  hid, lastop, dp_why, lg_row, lg_order, 
+                                  lg_tree, lg_off, lg_j, lg_i, lg_h, lg_found, 
+                                  lg_frame, lg_n, sf_h, sf_start, sf_order, 
+                                  sf_i, sf_r, sf_found, sf_off, sf_nrows, sf_c, 
+                                  sf_k, sf_v, sf_zero, sf_ok, sf_seen, sf_u, 
+                                  tg_h, tg_off, tg_order, tg_exp, tg_ok, tg_i, 
+                                  tg_n, tg_seen, tg_u, tg_r0, la_frame, 
+                                  la_order, ps_frame, ps_order, lp_frame, 
+                                  lp_order, lp_h, lp_old, lp_ok, lp_seen, 
+                                  lp_spin, lp_v, tp_t, tp_n, tu2_t, tu2_free, 
+                                  tu2_class, gl_order, gl_class, gl_local, 
+                                  gl_frame, gl_sync, gl_row, gl_res, gl_min, 
+                                  gl_got, sg_i, sg_class, sg_order, sg_frame, 
+                                  sg_c, rs_i, rs_order, rs_class, rs_local, 
+                                  rs_reserved, rs_free, rs_tc, rs_frame, 
+                                  rs_old, sb_n, sb_start, sb_offset, sb_len, 
+                                  sb_mode, sb_order, sb_class, sb_local, sb_i, 
+                                  sb_idx, sb_t, sb_p, sb_best, sb_done, sb_k, 
+                                  sl_class, sl_local, sl_order, sl_frame, sl_i, 
+                                  sl_tc, sl_j, sl_found, sl_row, sl_jj, 
+                                  dl_class, dl_local, dl_order, dl_frame, dl_i, 
+                                  dl_tc, dl_j, dl_found, dl_new, dl_old, dl_jj, 
                                   dl_oldclass, ag_order, ag_class, ag_local, 
                                   ag_frame, ag_len, ag_start, ag_near, ag_done, 
                                   ap_frame, ap_order, ap_class, ap_local, ad_c, 
@@ -3107,7 +3118,7 @@ la_huge_r(self) == /\ pc[self] = "la_huge_r"
                    /\ la_frame' = [la_frame EXCEPT ![self] = Head(stack[self]).la_frame]
                    /\ la_order' = [la_order EXCEPT ![self] = Head(stack[self]).la_order]
                    /\ stack' = [stack EXCEPT ![self] = Tail(stack[self])]
-                   /\ UNCHANGED << mem, held, results, inflight, panicked, 
+                   /\ UNCHANGED << mem, held, results, inflight, panicked, hid, 
                                    lastop, dp_why, tu_loc, tu_fn, tu_arg, 
                                    tu_prev, tu_next, tu_done, tu_ok, tu_seen, 
                                    lg_row, lg_order, lg_tree, lg_off, lg_j, 
@@ -3179,7 +3190,7 @@ la_dec_r(self) == /\ pc[self] = "la_dec_r"
                              /\ UNCHANGED << tg_h, tg_off, tg_order, tg_exp, 
                                              tg_ok, tg_i, tg_n, tg_seen, tg_u, 
                                              tg_r0 >>
-                  /\ UNCHANGED << mem, held, results, inflight, panicked, 
+                  /\ UNCHANGED << mem, held, results, inflight, panicked, hid, 
                                   lastop, dp_why, tu_loc, tu_fn, tu_arg, 
                                   tu_prev, tu_next, tu_done, tu_ok, tu_seen, 
                                   lg_row, lg_order, lg_tree, lg_off, lg_j, 
@@ -3244,7 +3255,7 @@ la_tog_r(self) == /\ pc[self] = "la_tog_r"
                              /\ tu_seen' = [tu_seen EXCEPT ![self] = 0]
                              /\ pc' = [pc EXCEPT ![self] = "tu_load"]
                              /\ UNCHANGED << rv, la_frame, la_order, la_h >>
-                  /\ UNCHANGED << mem, held, results, inflight, panicked, 
+                  /\ UNCHANGED << mem, held, results, inflight, panicked, hid, 
                                   lastop, dp_why, lg_row, lg_order, lg_tree, 
                                   lg_off, lg_j, lg_i, lg_h, lg_found, lg_frame, 
                                   lg_n, ca_h0, ca_num, ca_cur, ca_new, ca_i, 
@@ -3294,7 +3305,7 @@ la_undo_r(self) == /\ pc[self] = "la_undo_r"
                               /\ la_order' = [la_order EXCEPT ![self] = Head(stack[self]).la_order]
                               /\ stack' = [stack EXCEPT ![self] = Tail(stack[self])]
                               /\ UNCHANGED dp_why
-                   /\ UNCHANGED << mem, held, results, inflight, panicked, 
+                   /\ UNCHANGED << mem, held, results, inflight, panicked, hid, 
                                    lastop, tu_loc, tu_fn, tu_arg, tu_prev, 
                                    tu_next, tu_done, tu_ok, tu_seen, lg_row, 
                                    lg_order, lg_tree, lg_off, lg_j, lg_i, lg_h, 
@@ -3359,7 +3370,7 @@ ps_begin(self) == /\ pc[self] = "ps_begin"
                   /\ tg_r0' = [tg_r0 EXCEPT ![self] = 0]
                   /\ pc' = [pc EXCEPT ![self] = "tg_begin"]
                   /\ UNCHANGED << mem, held, results, inflight, rv, panicked, 
-                                  lastop, dp_why, tu_loc, tu_fn, tu_arg, 
+                                  hid, lastop, dp_why, tu_loc, tu_fn, tu_arg, 
                                   tu_prev, tu_next, tu_done, tu_ok, tu_seen, 
                                   lg_row, lg_order, lg_tree, lg_off, lg_j, 
                                   lg_i, lg_h, lg_found, lg_frame, lg_n, ca_h0, 
@@ -3422,7 +3433,7 @@ ps_tog_r(self) == /\ pc[self] = "ps_tog_r"
                              /\ tu_seen' = [tu_seen EXCEPT ![self] = 0]
                              /\ pc' = [pc EXCEPT ![self] = "tu_load"]
                              /\ UNCHANGED << rv, ps_frame, ps_order >>
-                  /\ UNCHANGED << mem, held, results, inflight, panicked, 
+                  /\ UNCHANGED << mem, held, results, inflight, panicked, hid, 
                                   lastop, dp_why, lg_row, lg_order, lg_tree, 
                                   lg_off, lg_j, lg_i, lg_h, lg_found, lg_frame, 
                                   lg_n, ca_h0, ca_num, ca_cur, ca_new, ca_i, 
@@ -3471,7 +3482,7 @@ ps_inc_r(self) == /\ pc[self] = "ps_inc_r"
                              /\ ps_order' = [ps_order EXCEPT ![self] = Head(stack[self]).ps_order]
                              /\ stack' = [stack EXCEPT ![self] = Tail(stack[self])]
                              /\ UNCHANGED dp_why
-                  /\ UNCHANGED << mem, held, results, inflight, panicked, 
+                  /\ UNCHANGED << mem, held, results, inflight, panicked, hid, 
                                   lastop, tu_loc, tu_fn, tu_arg, tu_prev, 
                                   tu_next, tu_done, tu_ok, tu_seen, lg_row, 
                                   lg_order, lg_tree, lg_off, lg_j, lg_i, lg_h, 
@@ -3536,7 +3547,7 @@ lp_begin(self) == /\ pc[self] = "lp_begin"
                                              ca_new, ca_i, ca_ok, ca_seen, 
                                              ca_j >>
                   /\ UNCHANGED << mem, held, results, inflight, rv, panicked, 
-                                  lastop, dp_why, tu_loc, tu_fn, tu_arg, 
+                                  hid, lastop, dp_why, tu_loc, tu_fn, tu_arg, 
                                   tu_prev, tu_next, tu_done, tu_ok, tu_seen, 
                                   lg_row, lg_order, lg_tree, lg_off, lg_j, 
                                   lg_i, lg_h, lg_found, lg_frame, lg_n, sf_h, 
@@ -3581,7 +3592,7 @@ lp_huge_r(self) == /\ pc[self] = "lp_huge_r"
                    /\ lp_frame' = [lp_frame EXCEPT ![self] = Head(stack[self]).lp_frame]
                    /\ lp_order' = [lp_order EXCEPT ![self] = Head(stack[self]).lp_order]
                    /\ stack' = [stack EXCEPT ![self] = Tail(stack[self])]
-                   /\ UNCHANGED << mem, held, results, inflight, panicked, 
+                   /\ UNCHANGED << mem, held, results, inflight, panicked, hid, 
                                    lastop, dp_why, tu_loc, tu_fn, tu_arg, 
                                    tu_prev, tu_next, tu_done, tu_ok, tu_seen, 
                                    lg_row, lg_order, lg_tree, lg_off, lg_j, 
@@ -3662,7 +3673,7 @@ lp_load(self) == /\ pc[self] = "lp_load"
                             /\ UNCHANGED << tg_h, tg_off, tg_order, tg_exp, 
                                             tg_ok, tg_i, tg_n, tg_seen, tg_u, 
                                             tg_r0 >>
-                 /\ UNCHANGED << mem, held, results, inflight, panicked, 
+                 /\ UNCHANGED << mem, held, results, inflight, panicked, hid, 
                                  dp_why, tu_loc, tu_fn, tu_arg, tu_prev, 
                                  tu_next, tu_done, tu_ok, tu_seen, lg_row, 
                                  lg_order, lg_tree, lg_off, lg_j, lg_i, lg_h, 
@@ -3703,7 +3714,7 @@ lp_fill_r(self) == /\ pc[self] = "lp_fill_r"
                               /\ lp_v' = [lp_v EXCEPT ![self] = HUGE]
                               /\ pc' = [pc EXCEPT ![self] = "lp_wait"]
                    /\ UNCHANGED << mem, held, results, inflight, rv, panicked, 
-                                   lastop, stack, dp_why, tu_loc, tu_fn, 
+                                   hid, lastop, stack, dp_why, tu_loc, tu_fn, 
                                    tu_arg, tu_prev, tu_next, tu_done, tu_ok, 
                                    tu_seen, lg_row, lg_order, lg_tree, lg_off, 
                                    lg_j, lg_i, lg_h, lg_found, lg_frame, lg_n, 
@@ -3757,7 +3768,7 @@ lp_clear(self) == /\ pc[self] = "lp_clear"
                              /\ pc' = [pc EXCEPT ![self] = "dp_flag"]
                         ELSE /\ pc' = [pc EXCEPT ![self] = "lp_small"]
                              /\ UNCHANGED << stack, dp_why >>
-                  /\ UNCHANGED << held, results, inflight, rv, panicked, 
+                  /\ UNCHANGED << held, results, inflight, rv, panicked, hid, 
                                   tu_loc, tu_fn, tu_arg, tu_prev, tu_next, 
                                   tu_done, tu_ok, tu_seen, lg_row, lg_order, 
                                   lg_tree, lg_off, lg_j, lg_i, lg_h, lg_found, 
@@ -3810,7 +3821,7 @@ lp_wait(self) == /\ pc[self] = "lp_wait"
                                        /\ UNCHANGED << stack, dp_why >>
                             /\ UNCHANGED << lastop, lp_spin, lp_v >>
                  /\ UNCHANGED << mem, held, results, inflight, rv, panicked, 
-                                 tu_loc, tu_fn, tu_arg, tu_prev, tu_next, 
+                                 hid, tu_loc, tu_fn, tu_arg, tu_prev, tu_next, 
                                  tu_done, tu_ok, tu_seen, lg_row, lg_order, 
                                  lg_tree, lg_off, lg_j, lg_i, lg_h, lg_found, 
                                  lg_frame, lg_n, ca_h0, ca_num, ca_cur, ca_new, 
@@ -3854,7 +3865,7 @@ lp_small(self) == /\ pc[self] = "lp_small"
                                                           \o stack[self]]
                   /\ pc' = [pc EXCEPT ![self] = "ps_begin"]
                   /\ UNCHANGED << mem, held, results, inflight, rv, panicked, 
-                                  lastop, dp_why, tu_loc, tu_fn, tu_arg, 
+                                  hid, lastop, dp_why, tu_loc, tu_fn, tu_arg, 
                                   tu_prev, tu_next, tu_done, tu_ok, tu_seen, 
                                   lg_row, lg_order, lg_tree, lg_off, lg_j, 
                                   lg_i, lg_h, lg_found, lg_frame, lg_n, ca_h0, 
@@ -3900,7 +3911,7 @@ lp_small_r(self) == /\ pc[self] = "lp_small_r"
                     /\ lp_order' = [lp_order EXCEPT ![self] = Head(stack[self]).lp_order]
                     /\ stack' = [stack EXCEPT ![self] = Tail(stack[self])]
                     /\ UNCHANGED << mem, held, results, inflight, rv, panicked, 
-                                    lastop, dp_why, tu_loc, tu_fn, tu_arg, 
+                                    hid, lastop, dp_why, tu_loc, tu_fn, tu_arg, 
                                     tu_prev, tu_next, tu_done, tu_ok, tu_seen, 
                                     lg_row, lg_order, lg_tree, lg_off, lg_j, 
                                     lg_i, lg_h, lg_found, lg_frame, lg_n, 
@@ -3947,9 +3958,9 @@ lp_small2_r(self) == /\ pc[self] = "lp_small2_r"
                      /\ lp_order' = [lp_order EXCEPT ![self] = Head(stack[self]).lp_order]
                      /\ stack' = [stack EXCEPT ![self] = Tail(stack[self])]
                      /\ UNCHANGED << mem, held, results, inflight, rv, 
-                                     panicked, lastop, dp_why, tu_loc, tu_fn, 
-                                     tu_arg, tu_prev, tu_next, tu_done, tu_ok, 
-                                     tu_seen, lg_row, lg_order, lg_tree, 
+                                     panicked, hid, lastop, dp_why, tu_loc, 
+                                     tu_fn, tu_arg, tu_prev, tu_next, tu_done, 
+                                     tu_ok, tu_seen, lg_row, lg_order, lg_tree, 
                                      lg_off, lg_j, lg_i, lg_h, lg_found, 
                                      lg_frame, lg_n, ca_h0, ca_num, ca_cur, 
                                      ca_new, ca_i, ca_ok, ca_seen, ca_j, sf_h, 
@@ -3994,7 +4005,7 @@ Lbl_3(self) == /\ pc[self] = "Lbl_3"
                /\ lp_frame' = [lp_frame EXCEPT ![self] = Head(stack[self]).lp_frame]
                /\ lp_order' = [lp_order EXCEPT ![self] = Head(stack[self]).lp_order]
                /\ stack' = [stack EXCEPT ![self] = Tail(stack[self])]
-               /\ UNCHANGED << mem, held, results, inflight, rv, panicked, 
+               /\ UNCHANGED << mem, held, results, inflight, rv, panicked, hid, 
                                lastop, dp_why, tu_loc, tu_fn, tu_arg, tu_prev, 
                                tu_next, tu_done, tu_ok, tu_seen, lg_row, 
                                lg_order, lg_tree, lg_off, lg_j, lg_i, lg_h, 
@@ -4053,13 +4064,13 @@ tp_begin(self) == /\ pc[self] = "tp_begin"
                   /\ tu_seen' = [tu_seen EXCEPT ![self] = 0]
                   /\ pc' = [pc EXCEPT ![self] = "tu_load"]
                   /\ UNCHANGED << mem, held, results, inflight, rv, panicked, 
-                                  lastop, dp_why, lg_row, lg_order, lg_tree, 
-                                  lg_off, lg_j, lg_i, lg_h, lg_found, lg_frame, 
-                                  lg_n, ca_h0, ca_num, ca_cur, ca_new, ca_i, 
-                                  ca_ok, ca_seen, ca_j, sf_h, sf_start, 
-                                  sf_order, sf_i, sf_r, sf_found, sf_off, 
-                                  sf_nrows, sf_c, sf_k, sf_v, sf_zero, sf_ok, 
-                                  sf_seen, sf_u, tg_h, tg_off, tg_order, 
+                                  hid, lastop, dp_why, lg_row, lg_order, 
+                                  lg_tree, lg_off, lg_j, lg_i, lg_h, lg_found, 
+                                  lg_frame, lg_n, ca_h0, ca_num, ca_cur, 
+                                  ca_new, ca_i, ca_ok, ca_seen, ca_j, sf_h, 
+                                  sf_start, sf_order, sf_i, sf_r, sf_found, 
+                                  sf_off, sf_nrows, sf_c, sf_k, sf_v, sf_zero, 
+                                  sf_ok, sf_seen, sf_u, tg_h, tg_off, tg_order, 
                                   tg_exp, tg_ok, tg_i, tg_n, tg_seen, tg_u, 
                                   tg_r0, la_frame, la_order, la_h, ps_frame, 
                                   ps_order, lp_frame, lp_order, lp_h, lp_old, 
@@ -4092,7 +4103,7 @@ tp_r(self) == /\ pc[self] = "tp_r"
               /\ tp_t' = [tp_t EXCEPT ![self] = Head(stack[self]).tp_t]
               /\ tp_n' = [tp_n EXCEPT ![self] = Head(stack[self]).tp_n]
               /\ stack' = [stack EXCEPT ![self] = Tail(stack[self])]
-              /\ UNCHANGED << mem, held, results, inflight, rv, panicked, 
+              /\ UNCHANGED << mem, held, results, inflight, rv, panicked, hid, 
                               lastop, dp_why, tu_loc, tu_fn, tu_arg, tu_prev, 
                               tu_next, tu_done, tu_ok, tu_seen, lg_row, 
                               lg_order, lg_tree, lg_off, lg_j, lg_i, lg_h, 
@@ -4148,13 +4159,13 @@ un_begin(self) == /\ pc[self] = "un_begin"
                   /\ tu_seen' = [tu_seen EXCEPT ![self] = 0]
                   /\ pc' = [pc EXCEPT ![self] = "tu_load"]
                   /\ UNCHANGED << mem, held, results, inflight, rv, panicked, 
-                                  lastop, dp_why, lg_row, lg_order, lg_tree, 
-                                  lg_off, lg_j, lg_i, lg_h, lg_found, lg_frame, 
-                                  lg_n, ca_h0, ca_num, ca_cur, ca_new, ca_i, 
-                                  ca_ok, ca_seen, ca_j, sf_h, sf_start, 
-                                  sf_order, sf_i, sf_r, sf_found, sf_off, 
-                                  sf_nrows, sf_c, sf_k, sf_v, sf_zero, sf_ok, 
-                                  sf_seen, sf_u, tg_h, tg_off, tg_order, 
+                                  hid, lastop, dp_why, lg_row, lg_order, 
+                                  lg_tree, lg_off, lg_j, lg_i, lg_h, lg_found, 
+                                  lg_frame, lg_n, ca_h0, ca_num, ca_cur, 
+                                  ca_new, ca_i, ca_ok, ca_seen, ca_j, sf_h, 
+                                  sf_start, sf_order, sf_i, sf_r, sf_found, 
+                                  sf_off, sf_nrows, sf_c, sf_k, sf_v, sf_zero, 
+                                  sf_ok, sf_seen, sf_u, tg_h, tg_off, tg_order, 
                                   tg_exp, tg_ok, tg_i, tg_n, tg_seen, tg_u, 
                                   tg_r0, la_frame, la_order, la_h, ps_frame, 
                                   ps_order, lp_frame, lp_order, lp_h, lp_old, 
@@ -4197,7 +4208,7 @@ un_r(self) == /\ pc[self] = "un_r"
                          /\ tu2_class' = [tu2_class EXCEPT ![self] = Head(stack[self]).tu2_class]
                          /\ stack' = [stack EXCEPT ![self] = Tail(stack[self])]
                          /\ UNCHANGED dp_why
-              /\ UNCHANGED << mem, held, results, inflight, rv, panicked, 
+              /\ UNCHANGED << mem, held, results, inflight, rv, panicked, hid, 
                               lastop, tu_loc, tu_fn, tu_arg, tu_prev, tu_next, 
                               tu_done, tu_ok, tu_seen, lg_row, lg_order, 
                               lg_tree, lg_off, lg_j, lg_i, lg_h, lg_found, 
@@ -4253,13 +4264,13 @@ gl_begin(self) == /\ pc[self] = "gl_begin"
                   /\ tu_seen' = [tu_seen EXCEPT ![self] = 0]
                   /\ pc' = [pc EXCEPT ![self] = "tu_load"]
                   /\ UNCHANGED << mem, held, results, inflight, rv, panicked, 
-                                  lastop, dp_why, lg_row, lg_order, lg_tree, 
-                                  lg_off, lg_j, lg_i, lg_h, lg_found, lg_frame, 
-                                  lg_n, ca_h0, ca_num, ca_cur, ca_new, ca_i, 
-                                  ca_ok, ca_seen, ca_j, sf_h, sf_start, 
-                                  sf_order, sf_i, sf_r, sf_found, sf_off, 
-                                  sf_nrows, sf_c, sf_k, sf_v, sf_zero, sf_ok, 
-                                  sf_seen, sf_u, tg_h, tg_off, tg_order, 
+                                  hid, lastop, dp_why, lg_row, lg_order, 
+                                  lg_tree, lg_off, lg_j, lg_i, lg_h, lg_found, 
+                                  lg_frame, lg_n, ca_h0, ca_num, ca_cur, 
+                                  ca_new, ca_i, ca_ok, ca_seen, ca_j, sf_h, 
+                                  sf_start, sf_order, sf_i, sf_r, sf_found, 
+                                  sf_off, sf_nrows, sf_c, sf_k, sf_v, sf_zero, 
+                                  sf_ok, sf_seen, sf_u, tg_h, tg_off, tg_order, 
                                   tg_exp, tg_ok, tg_i, tg_n, tg_seen, tg_u, 
                                   tg_r0, la_frame, la_order, la_h, ps_frame, 
                                   ps_order, lp_frame, lp_order, lp_h, lp_old, 
@@ -4380,7 +4391,7 @@ gl_get_r(self) == /\ pc[self] = "gl_get_r"
                                              lg_j, lg_i, lg_h, lg_found, 
                                              lg_frame, lg_n, la_frame, 
                                              la_order, la_h, gl_row >>
-                  /\ UNCHANGED << mem, held, results, inflight, panicked, 
+                  /\ UNCHANGED << mem, held, results, inflight, panicked, hid, 
                                   lastop, dp_why, ca_h0, ca_num, ca_cur, 
                                   ca_new, ca_i, ca_ok, ca_seen, ca_j, sf_h, 
                                   sf_start, sf_order, sf_i, sf_r, sf_found, 
@@ -4453,13 +4464,13 @@ gl_lower_r(self) == /\ pc[self] = "gl_lower_r"
                                                tu_next, tu_done, tu_ok, 
                                                tu_seen, gl_got >>
                     /\ UNCHANGED << mem, held, results, inflight, rv, panicked, 
-                                    lastop, dp_why, lg_row, lg_order, lg_tree, 
-                                    lg_off, lg_j, lg_i, lg_h, lg_found, 
-                                    lg_frame, lg_n, ca_h0, ca_num, ca_cur, 
-                                    ca_new, ca_i, ca_ok, ca_seen, ca_j, sf_h, 
-                                    sf_start, sf_order, sf_i, sf_r, sf_found, 
-                                    sf_off, sf_nrows, sf_c, sf_k, sf_v, 
-                                    sf_zero, sf_ok, sf_seen, sf_u, tg_h, 
+                                    hid, lastop, dp_why, lg_row, lg_order, 
+                                    lg_tree, lg_off, lg_j, lg_i, lg_h, 
+                                    lg_found, lg_frame, lg_n, ca_h0, ca_num, 
+                                    ca_cur, ca_new, ca_i, ca_ok, ca_seen, ca_j, 
+                                    sf_h, sf_start, sf_order, sf_i, sf_r, 
+                                    sf_found, sf_off, sf_nrows, sf_c, sf_k, 
+                                    sf_v, sf_zero, sf_ok, sf_seen, sf_u, tg_h, 
                                     tg_off, tg_order, tg_exp, tg_ok, tg_i, 
                                     tg_n, tg_seen, tg_u, tg_r0, la_frame, 
                                     la_order, la_h, ps_frame, ps_order, 
@@ -4501,16 +4512,16 @@ gl_ok(self) == /\ pc[self] = "gl_ok"
                /\ gl_frame' = [gl_frame EXCEPT ![self] = Head(stack[self]).gl_frame]
                /\ gl_sync' = [gl_sync EXCEPT ![self] = Head(stack[self]).gl_sync]
                /\ stack' = [stack EXCEPT ![self] = Tail(stack[self])]
-               /\ UNCHANGED << mem, held, results, inflight, panicked, lastop, 
-                               dp_why, tu_loc, tu_fn, tu_arg, tu_prev, tu_next, 
-                               tu_done, tu_ok, tu_seen, lg_row, lg_order, 
-                               lg_tree, lg_off, lg_j, lg_i, lg_h, lg_found, 
-                               lg_frame, lg_n, ca_h0, ca_num, ca_cur, ca_new, 
-                               ca_i, ca_ok, ca_seen, ca_j, sf_h, sf_start, 
-                               sf_order, sf_i, sf_r, sf_found, sf_off, 
-                               sf_nrows, sf_c, sf_k, sf_v, sf_zero, sf_ok, 
-                               sf_seen, sf_u, tg_h, tg_off, tg_order, tg_exp, 
-                               tg_ok, tg_i, tg_n, tg_seen, tg_u, tg_r0, 
+               /\ UNCHANGED << mem, held, results, inflight, panicked, hid, 
+                               lastop, dp_why, tu_loc, tu_fn, tu_arg, tu_prev, 
+                               tu_next, tu_done, tu_ok, tu_seen, lg_row, 
+                               lg_order, lg_tree, lg_off, lg_j, lg_i, lg_h, 
+                               lg_found, lg_frame, lg_n, ca_h0, ca_num, ca_cur, 
+                               ca_new, ca_i, ca_ok, ca_seen, ca_j, sf_h, 
+                               sf_start, sf_order, sf_i, sf_r, sf_found, 
+                               sf_off, sf_nrows, sf_c, sf_k, sf_v, sf_zero, 
+                               sf_ok, sf_seen, sf_u, tg_h, tg_off, tg_order, 
+                               tg_exp, tg_ok, tg_i, tg_n, tg_seen, tg_u, tg_r0, 
                                la_frame, la_order, la_h, ps_frame, ps_order, 
                                lp_frame, lp_order, lp_h, lp_old, lp_ok, 
                                lp_seen, lp_spin, lp_v, tp_t, tp_n, tu2_t, 
@@ -4545,7 +4556,7 @@ gl_undo_r(self) == /\ pc[self] = "gl_undo_r"
                    /\ gl_frame' = [gl_frame EXCEPT ![self] = Head(stack[self]).gl_frame]
                    /\ gl_sync' = [gl_sync EXCEPT ![self] = Head(stack[self]).gl_sync]
                    /\ stack' = [stack EXCEPT ![self] = Tail(stack[self])]
-                   /\ UNCHANGED << mem, held, results, inflight, panicked, 
+                   /\ UNCHANGED << mem, held, results, inflight, panicked, hid, 
                                    lastop, dp_why, tu_loc, tu_fn, tu_arg, 
                                    tu_prev, tu_next, tu_done, tu_ok, tu_seen, 
                                    lg_row, lg_order, lg_tree, lg_off, lg_j, 
@@ -4592,7 +4603,7 @@ Lbl_4(self) == /\ pc[self] = "Lbl_4"
                /\ gl_frame' = [gl_frame EXCEPT ![self] = Head(stack[self]).gl_frame]
                /\ gl_sync' = [gl_sync EXCEPT ![self] = Head(stack[self]).gl_sync]
                /\ stack' = [stack EXCEPT ![self] = Tail(stack[self])]
-               /\ UNCHANGED << mem, held, results, inflight, rv, panicked, 
+               /\ UNCHANGED << mem, held, results, inflight, rv, panicked, hid, 
                                lastop, dp_why, tu_loc, tu_fn, tu_arg, tu_prev, 
                                tu_next, tu_done, tu_ok, tu_seen, lg_row, 
                                lg_order, lg_tree, lg_off, lg_j, lg_i, lg_h, 
@@ -4636,7 +4647,7 @@ gl_fail(self) == /\ pc[self] = "gl_fail"
                  /\ gl_frame' = [gl_frame EXCEPT ![self] = Head(stack[self]).gl_frame]
                  /\ gl_sync' = [gl_sync EXCEPT ![self] = Head(stack[self]).gl_sync]
                  /\ stack' = [stack EXCEPT ![self] = Tail(stack[self])]
-                 /\ UNCHANGED << mem, held, results, inflight, panicked, 
+                 /\ UNCHANGED << mem, held, results, inflight, panicked, hid, 
                                  lastop, dp_why, tu_loc, tu_fn, tu_arg, 
                                  tu_prev, tu_next, tu_done, tu_ok, tu_seen, 
                                  lg_row, lg_order, lg_tree, lg_off, lg_j, lg_i, 
@@ -4698,8 +4709,8 @@ gl_sync_r(self) == /\ pc[self] = "gl_sync_r"
                                               tu_prev, tu_next, tu_done, tu_ok, 
                                               tu_seen, gl_got >>
                    /\ UNCHANGED << mem, held, results, inflight, rv, panicked, 
-                                   lastop, dp_why, lg_row, lg_order, lg_tree, 
-                                   lg_off, lg_j, lg_i, lg_h, lg_found, 
+                                   hid, lastop, dp_why, lg_row, lg_order, 
+                                   lg_tree, lg_off, lg_j, lg_i, lg_h, lg_found, 
                                    lg_frame, lg_n, ca_h0, ca_num, ca_cur, 
                                    ca_new, ca_i, ca_ok, ca_seen, ca_j, sf_h, 
                                    sf_start, sf_order, sf_i, sf_r, sf_found, 
@@ -4769,7 +4780,7 @@ gl_sput_r(self) == /\ pc[self] = "gl_sput_r"
                                               gl_frame, gl_sync, gl_row, 
                                               gl_res, gl_min, gl_got >>
                    /\ UNCHANGED << mem, held, results, inflight, rv, panicked, 
-                                   lastop, dp_why, tu_loc, tu_fn, tu_arg, 
+                                   hid, lastop, dp_why, tu_loc, tu_fn, tu_arg, 
                                    tu_prev, tu_next, tu_done, tu_ok, tu_seen, 
                                    lg_row, lg_order, lg_tree, lg_off, lg_j, 
                                    lg_i, lg_h, lg_found, lg_frame, lg_n, ca_h0, 
@@ -4816,7 +4827,7 @@ gl_retry_r(self) == /\ pc[self] = "gl_retry_r"
                     /\ gl_sync' = [gl_sync EXCEPT ![self] = Head(stack[self]).gl_sync]
                     /\ stack' = [stack EXCEPT ![self] = Tail(stack[self])]
                     /\ UNCHANGED << mem, held, results, inflight, rv, panicked, 
-                                    lastop, dp_why, tu_loc, tu_fn, tu_arg, 
+                                    hid, lastop, dp_why, tu_loc, tu_fn, tu_arg, 
                                     tu_prev, tu_next, tu_done, tu_ok, tu_seen, 
                                     lg_row, lg_order, lg_tree, lg_off, lg_j, 
                                     lg_i, lg_h, lg_found, lg_frame, lg_n, 
@@ -4877,13 +4888,13 @@ sg_begin(self) == /\ pc[self] = "sg_begin"
                   /\ tu_seen' = [tu_seen EXCEPT ![self] = 0]
                   /\ pc' = [pc EXCEPT ![self] = "tu_load"]
                   /\ UNCHANGED << mem, held, results, inflight, rv, panicked, 
-                                  lastop, dp_why, lg_row, lg_order, lg_tree, 
-                                  lg_off, lg_j, lg_i, lg_h, lg_found, lg_frame, 
-                                  lg_n, ca_h0, ca_num, ca_cur, ca_new, ca_i, 
-                                  ca_ok, ca_seen, ca_j, sf_h, sf_start, 
-                                  sf_order, sf_i, sf_r, sf_found, sf_off, 
-                                  sf_nrows, sf_c, sf_k, sf_v, sf_zero, sf_ok, 
-                                  sf_seen, sf_u, tg_h, tg_off, tg_order, 
+                                  hid, lastop, dp_why, lg_row, lg_order, 
+                                  lg_tree, lg_off, lg_j, lg_i, lg_h, lg_found, 
+                                  lg_frame, lg_n, ca_h0, ca_num, ca_cur, 
+                                  ca_new, ca_i, ca_ok, ca_seen, ca_j, sf_h, 
+                                  sf_start, sf_order, sf_i, sf_r, sf_found, 
+                                  sf_off, sf_nrows, sf_c, sf_k, sf_v, sf_zero, 
+                                  sf_ok, sf_seen, sf_u, tg_h, tg_off, tg_order, 
                                   tg_exp, tg_ok, tg_i, tg_n, tg_seen, tg_u, 
                                   tg_r0, la_frame, la_order, la_h, ps_frame, 
                                   ps_order, lp_frame, lp_order, lp_h, lp_old, 
@@ -4971,7 +4982,7 @@ sg_steal_r(self) == /\ pc[self] = "sg_steal_r"
                                                lg_found, lg_frame, lg_n, 
                                                la_frame, la_order, la_h >>
                     /\ UNCHANGED << mem, held, results, inflight, panicked, 
-                                    lastop, dp_why, tu_loc, tu_fn, tu_arg, 
+                                    hid, lastop, dp_why, tu_loc, tu_fn, tu_arg, 
                                     tu_prev, tu_next, tu_done, tu_ok, tu_seen, 
                                     ca_h0, ca_num, ca_cur, ca_new, ca_i, ca_ok, 
                                     ca_seen, ca_j, sf_h, sf_start, sf_order, 
@@ -5026,7 +5037,7 @@ sg_lower_r(self) == /\ pc[self] = "sg_lower_r"
                                /\ UNCHANGED << rv, sg_i, sg_class, sg_order, 
                                                sg_frame, sg_c >>
                     /\ UNCHANGED << mem, held, results, inflight, panicked, 
-                                    lastop, dp_why, tu_loc, tu_fn, tu_arg, 
+                                    hid, lastop, dp_why, tu_loc, tu_fn, tu_arg, 
                                     tu_prev, tu_next, tu_done, tu_ok, tu_seen, 
                                     lg_row, lg_order, lg_tree, lg_off, lg_j, 
                                     lg_i, lg_h, lg_found, lg_frame, lg_n, 
@@ -5070,7 +5081,7 @@ sg_undo_r(self) == /\ pc[self] = "sg_undo_r"
                    /\ sg_order' = [sg_order EXCEPT ![self] = Head(stack[self]).sg_order]
                    /\ sg_frame' = [sg_frame EXCEPT ![self] = Head(stack[self]).sg_frame]
                    /\ stack' = [stack EXCEPT ![self] = Tail(stack[self])]
-                   /\ UNCHANGED << mem, held, results, inflight, panicked, 
+                   /\ UNCHANGED << mem, held, results, inflight, panicked, hid, 
                                    lastop, dp_why, tu_loc, tu_fn, tu_arg, 
                                    tu_prev, tu_next, tu_done, tu_ok, tu_seen, 
                                    lg_row, lg_order, lg_tree, lg_off, lg_j, 
@@ -5131,13 +5142,13 @@ rs_begin(self) == /\ pc[self] = "rs_begin"
                   /\ tu_seen' = [tu_seen EXCEPT ![self] = 0]
                   /\ pc' = [pc EXCEPT ![self] = "tu_load"]
                   /\ UNCHANGED << mem, held, results, inflight, rv, panicked, 
-                                  lastop, dp_why, lg_row, lg_order, lg_tree, 
-                                  lg_off, lg_j, lg_i, lg_h, lg_found, lg_frame, 
-                                  lg_n, ca_h0, ca_num, ca_cur, ca_new, ca_i, 
-                                  ca_ok, ca_seen, ca_j, sf_h, sf_start, 
-                                  sf_order, sf_i, sf_r, sf_found, sf_off, 
-                                  sf_nrows, sf_c, sf_k, sf_v, sf_zero, sf_ok, 
-                                  sf_seen, sf_u, tg_h, tg_off, tg_order, 
+                                  hid, lastop, dp_why, lg_row, lg_order, 
+                                  lg_tree, lg_off, lg_j, lg_i, lg_h, lg_found, 
+                                  lg_frame, lg_n, ca_h0, ca_num, ca_cur, 
+                                  ca_new, ca_i, ca_ok, ca_seen, ca_j, sf_h, 
+                                  sf_start, sf_order, sf_i, sf_r, sf_found, 
+                                  sf_off, sf_nrows, sf_c, sf_k, sf_v, sf_zero, 
+                                  sf_ok, sf_seen, sf_u, tg_h, tg_off, tg_order, 
                                   tg_exp, tg_ok, tg_i, tg_n, tg_seen, tg_u, 
                                   tg_r0, la_frame, la_order, la_h, ps_frame, 
                                   ps_order, lp_frame, lp_order, lp_h, lp_old, 
@@ -5211,7 +5222,7 @@ rs_ros_r(self) == /\ pc[self] = "rs_ros_r"
                              /\ UNCHANGED << lg_row, lg_order, lg_tree, lg_off, 
                                              lg_j, lg_i, lg_h, lg_found, 
                                              lg_frame, lg_n >>
-                  /\ UNCHANGED << mem, held, results, inflight, panicked, 
+                  /\ UNCHANGED << mem, held, results, inflight, panicked, hid, 
                                   lastop, dp_why, tu_loc, tu_fn, tu_arg, 
                                   tu_prev, tu_next, tu_done, tu_ok, tu_seen, 
                                   ca_h0, ca_num, ca_cur, ca_new, ca_i, ca_ok, 
@@ -5285,11 +5296,11 @@ rs_lower_r(self) == /\ pc[self] = "rs_lower_r"
                                                           tu2_class >>
                                /\ UNCHANGED << dp_why, rs_frame >>
                     /\ UNCHANGED << mem, held, results, inflight, rv, panicked, 
-                                    lastop, tu_loc, tu_fn, tu_arg, tu_prev, 
-                                    tu_next, tu_done, tu_ok, tu_seen, lg_row, 
-                                    lg_order, lg_tree, lg_off, lg_j, lg_i, 
-                                    lg_h, lg_found, lg_frame, lg_n, ca_h0, 
-                                    ca_num, ca_cur, ca_new, ca_i, ca_ok, 
+                                    hid, lastop, tu_loc, tu_fn, tu_arg, 
+                                    tu_prev, tu_next, tu_done, tu_ok, tu_seen, 
+                                    lg_row, lg_order, lg_tree, lg_off, lg_j, 
+                                    lg_i, lg_h, lg_found, lg_frame, lg_n, 
+                                    ca_h0, ca_num, ca_cur, ca_new, ca_i, ca_ok, 
                                     ca_seen, ca_j, sf_h, sf_start, sf_order, 
                                     sf_i, sf_r, sf_found, sf_off, sf_nrows, 
                                     sf_c, sf_k, sf_v, sf_zero, sf_ok, sf_seen, 
@@ -5333,16 +5344,16 @@ rs_ok(self) == /\ pc[self] = "rs_ok"
                /\ rs_class' = [rs_class EXCEPT ![self] = Head(stack[self]).rs_class]
                /\ rs_local' = [rs_local EXCEPT ![self] = Head(stack[self]).rs_local]
                /\ stack' = [stack EXCEPT ![self] = Tail(stack[self])]
-               /\ UNCHANGED << mem, held, results, inflight, panicked, lastop, 
-                               dp_why, tu_loc, tu_fn, tu_arg, tu_prev, tu_next, 
-                               tu_done, tu_ok, tu_seen, lg_row, lg_order, 
-                               lg_tree, lg_off, lg_j, lg_i, lg_h, lg_found, 
-                               lg_frame, lg_n, ca_h0, ca_num, ca_cur, ca_new, 
-                               ca_i, ca_ok, ca_seen, ca_j, sf_h, sf_start, 
-                               sf_order, sf_i, sf_r, sf_found, sf_off, 
-                               sf_nrows, sf_c, sf_k, sf_v, sf_zero, sf_ok, 
-                               sf_seen, sf_u, tg_h, tg_off, tg_order, tg_exp, 
-                               tg_ok, tg_i, tg_n, tg_seen, tg_u, tg_r0, 
+               /\ UNCHANGED << mem, held, results, inflight, panicked, hid, 
+                               lastop, dp_why, tu_loc, tu_fn, tu_arg, tu_prev, 
+                               tu_next, tu_done, tu_ok, tu_seen, lg_row, 
+                               lg_order, lg_tree, lg_off, lg_j, lg_i, lg_h, 
+                               lg_found, lg_frame, lg_n, ca_h0, ca_num, ca_cur, 
+                               ca_new, ca_i, ca_ok, ca_seen, ca_j, sf_h, 
+                               sf_start, sf_order, sf_i, sf_r, sf_found, 
+                               sf_off, sf_nrows, sf_c, sf_k, sf_v, sf_zero, 
+                               sf_ok, sf_seen, sf_u, tg_h, tg_off, tg_order, 
+                               tg_exp, tg_ok, tg_i, tg_n, tg_seen, tg_u, tg_r0, 
                                la_frame, la_order, la_h, ps_frame, ps_order, 
                                lp_frame, lp_order, lp_h, lp_old, lp_ok, 
                                lp_seen, lp_spin, lp_v, tp_t, tp_n, tu2_t, 
@@ -5378,7 +5389,7 @@ rs_fail(self) == /\ pc[self] = "rs_fail"
                  /\ rs_class' = [rs_class EXCEPT ![self] = Head(stack[self]).rs_class]
                  /\ rs_local' = [rs_local EXCEPT ![self] = Head(stack[self]).rs_local]
                  /\ stack' = [stack EXCEPT ![self] = Tail(stack[self])]
-                 /\ UNCHANGED << mem, held, results, inflight, panicked, 
+                 /\ UNCHANGED << mem, held, results, inflight, panicked, hid, 
                                  lastop, dp_why, tu_loc, tu_fn, tu_arg, 
                                  tu_prev, tu_next, tu_done, tu_ok, tu_seen, 
                                  lg_row, lg_order, lg_tree, lg_off, lg_j, lg_i, 
@@ -5430,39 +5441,39 @@ rs_swap(self) == /\ pc[self] = "rs_swap"
                             /\ pc' = [pc EXCEPT ![self] = "un_begin"]
                        ELSE /\ pc' = [pc EXCEPT ![self] = "rs_ok"]
                             /\ UNCHANGED << stack, tu2_t, tu2_free, tu2_class >>
-                 /\ UNCHANGED << held, results, inflight, rv, panicked, dp_why, 
-                                 tu_loc, tu_fn, tu_arg, tu_prev, tu_next, 
-                                 tu_done, tu_ok, tu_seen, lg_row, lg_order, 
-                                 lg_tree, lg_off, lg_j, lg_i, lg_h, lg_found, 
-                                 lg_frame, lg_n, ca_h0, ca_num, ca_cur, ca_new, 
-                                 ca_i, ca_ok, ca_seen, ca_j, sf_h, sf_start, 
-                                 sf_order, sf_i, sf_r, sf_found, sf_off, 
-                                 sf_nrows, sf_c, sf_k, sf_v, sf_zero, sf_ok, 
-                                 sf_seen, sf_u, tg_h, tg_off, tg_order, tg_exp, 
-                                 tg_ok, tg_i, tg_n, tg_seen, tg_u, tg_r0, 
-                                 la_frame, la_order, la_h, ps_frame, ps_order, 
-                                 lp_frame, lp_order, lp_h, lp_old, lp_ok, 
-                                 lp_seen, lp_spin, lp_v, tp_t, tp_n, gl_order, 
-                                 gl_class, gl_local, gl_frame, gl_sync, gl_row, 
-                                 gl_res, gl_min, gl_got, sg_i, sg_class, 
-                                 sg_order, sg_frame, sg_c, rs_i, rs_order, 
-                                 rs_class, rs_local, rs_reserved, rs_free, 
-                                 rs_tc, rs_frame, sb_n, sb_start, sb_offset, 
-                                 sb_len, sb_mode, sb_order, sb_class, sb_local, 
-                                 sb_i, sb_idx, sb_t, sb_p, sb_best, sb_done, 
-                                 sb_k, sl_class, sl_local, sl_order, sl_frame, 
-                                 sl_i, sl_tc, sl_j, sl_found, sl_row, sl_jj, 
-                                 dl_class, dl_local, dl_order, dl_frame, dl_i, 
-                                 dl_tc, dl_j, dl_found, dl_new, dl_old, dl_jj, 
-                                 dl_oldclass, ag_order, ag_class, ag_local, 
-                                 ag_frame, ag_len, ag_start, ag_near, ag_done, 
-                                 ap_frame, ap_order, ap_class, ap_local, ad_c, 
-                                 ad_k, ad_old, cg_t, cg_mclass, cg_mfree, 
-                                 cg_cclass, cg_cop, cg_prev, cg_done, 
-                                 cg_fetched, cg_h, cg_v, cg_next, cg_ok, 
-                                 cg_seen, ac_id, ac_mclass, ac_mfree, 
-                                 ac_cclass, ac_cop, ac_i, ac_done, pcx, cur, 
-                                 blk >>
+                 /\ UNCHANGED << held, results, inflight, rv, panicked, hid, 
+                                 dp_why, tu_loc, tu_fn, tu_arg, tu_prev, 
+                                 tu_next, tu_done, tu_ok, tu_seen, lg_row, 
+                                 lg_order, lg_tree, lg_off, lg_j, lg_i, lg_h, 
+                                 lg_found, lg_frame, lg_n, ca_h0, ca_num, 
+                                 ca_cur, ca_new, ca_i, ca_ok, ca_seen, ca_j, 
+                                 sf_h, sf_start, sf_order, sf_i, sf_r, 
+                                 sf_found, sf_off, sf_nrows, sf_c, sf_k, sf_v, 
+                                 sf_zero, sf_ok, sf_seen, sf_u, tg_h, tg_off, 
+                                 tg_order, tg_exp, tg_ok, tg_i, tg_n, tg_seen, 
+                                 tg_u, tg_r0, la_frame, la_order, la_h, 
+                                 ps_frame, ps_order, lp_frame, lp_order, lp_h, 
+                                 lp_old, lp_ok, lp_seen, lp_spin, lp_v, tp_t, 
+                                 tp_n, gl_order, gl_class, gl_local, gl_frame, 
+                                 gl_sync, gl_row, gl_res, gl_min, gl_got, sg_i, 
+                                 sg_class, sg_order, sg_frame, sg_c, rs_i, 
+                                 rs_order, rs_class, rs_local, rs_reserved, 
+                                 rs_free, rs_tc, rs_frame, sb_n, sb_start, 
+                                 sb_offset, sb_len, sb_mode, sb_order, 
+                                 sb_class, sb_local, sb_i, sb_idx, sb_t, sb_p, 
+                                 sb_best, sb_done, sb_k, sl_class, sl_local, 
+                                 sl_order, sl_frame, sl_i, sl_tc, sl_j, 
+                                 sl_found, sl_row, sl_jj, dl_class, dl_local, 
+                                 dl_order, dl_frame, dl_i, dl_tc, dl_j, 
+                                 dl_found, dl_new, dl_old, dl_jj, dl_oldclass, 
+                                 ag_order, ag_class, ag_local, ag_frame, 
+                                 ag_len, ag_start, ag_near, ag_done, ap_frame, 
+                                 ap_order, ap_class, ap_local, ad_c, ad_k, 
+                                 ad_old, cg_t, cg_mclass, cg_mfree, cg_cclass, 
+                                 cg_cop, cg_prev, cg_done, cg_fetched, cg_h, 
+                                 cg_v, cg_next, cg_ok, cg_seen, ac_id, 
+                                 ac_mclass, ac_mfree, ac_cclass, ac_cop, ac_i, 
+                                 ac_done, pcx, cur, blk >>
 
 reserve_or_steal(self) == rs_begin(self) \/ rs_ros_r(self)
                              \/ rs_lower_r(self) \/ rs_ok(self)
@@ -5474,33 +5485,33 @@ sb_begin(self) == /\ pc[self] = "sb_begin"
                   /\ sb_done' = [sb_done EXCEPT ![self] = FALSE]
                   /\ pc' = [pc EXCEPT ![self] = "sb_scan"]
                   /\ UNCHANGED << mem, held, results, inflight, rv, panicked, 
-                                  lastop, stack, dp_why, tu_loc, tu_fn, tu_arg, 
-                                  tu_prev, tu_next, tu_done, tu_ok, tu_seen, 
-                                  lg_row, lg_order, lg_tree, lg_off, lg_j, 
-                                  lg_i, lg_h, lg_found, lg_frame, lg_n, ca_h0, 
-                                  ca_num, ca_cur, ca_new, ca_i, ca_ok, ca_seen, 
-                                  ca_j, sf_h, sf_start, sf_order, sf_i, sf_r, 
-                                  sf_found, sf_off, sf_nrows, sf_c, sf_k, sf_v, 
-                                  sf_zero, sf_ok, sf_seen, sf_u, tg_h, tg_off, 
-                                  tg_order, tg_exp, tg_ok, tg_i, tg_n, tg_seen, 
-                                  tg_u, tg_r0, la_frame, la_order, la_h, 
-                                  ps_frame, ps_order, lp_frame, lp_order, lp_h, 
-                                  lp_old, lp_ok, lp_seen, lp_spin, lp_v, tp_t, 
-                                  tp_n, tu2_t, tu2_free, tu2_class, gl_order, 
-                                  gl_class, gl_local, gl_frame, gl_sync, 
-                                  gl_row, gl_res, gl_min, gl_got, sg_i, 
-                                  sg_class, sg_order, sg_frame, sg_c, rs_i, 
-                                  rs_order, rs_class, rs_local, rs_reserved, 
-                                  rs_free, rs_tc, rs_frame, rs_old, sb_n, 
-                                  sb_start, sb_offset, sb_len, sb_mode, 
-                                  sb_order, sb_class, sb_local, sb_idx, sb_t, 
-                                  sb_p, sb_k, sl_class, sl_local, sl_order, 
-                                  sl_frame, sl_i, sl_tc, sl_j, sl_found, 
-                                  sl_row, sl_jj, dl_class, dl_local, dl_order, 
-                                  dl_frame, dl_i, dl_tc, dl_j, dl_found, 
-                                  dl_new, dl_old, dl_jj, dl_oldclass, ag_order, 
-                                  ag_class, ag_local, ag_frame, ag_len, 
-                                  ag_start, ag_near, ag_done, ap_frame, 
+                                  hid, lastop, stack, dp_why, tu_loc, tu_fn, 
+                                  tu_arg, tu_prev, tu_next, tu_done, tu_ok, 
+                                  tu_seen, lg_row, lg_order, lg_tree, lg_off, 
+                                  lg_j, lg_i, lg_h, lg_found, lg_frame, lg_n, 
+                                  ca_h0, ca_num, ca_cur, ca_new, ca_i, ca_ok, 
+                                  ca_seen, ca_j, sf_h, sf_start, sf_order, 
+                                  sf_i, sf_r, sf_found, sf_off, sf_nrows, sf_c, 
+                                  sf_k, sf_v, sf_zero, sf_ok, sf_seen, sf_u, 
+                                  tg_h, tg_off, tg_order, tg_exp, tg_ok, tg_i, 
+                                  tg_n, tg_seen, tg_u, tg_r0, la_frame, 
+                                  la_order, la_h, ps_frame, ps_order, lp_frame, 
+                                  lp_order, lp_h, lp_old, lp_ok, lp_seen, 
+                                  lp_spin, lp_v, tp_t, tp_n, tu2_t, tu2_free, 
+                                  tu2_class, gl_order, gl_class, gl_local, 
+                                  gl_frame, gl_sync, gl_row, gl_res, gl_min, 
+                                  gl_got, sg_i, sg_class, sg_order, sg_frame, 
+                                  sg_c, rs_i, rs_order, rs_class, rs_local, 
+                                  rs_reserved, rs_free, rs_tc, rs_frame, 
+                                  rs_old, sb_n, sb_start, sb_offset, sb_len, 
+                                  sb_mode, sb_order, sb_class, sb_local, 
+                                  sb_idx, sb_t, sb_p, sb_k, sl_class, sl_local, 
+                                  sl_order, sl_frame, sl_i, sl_tc, sl_j, 
+                                  sl_found, sl_row, sl_jj, dl_class, dl_local, 
+                                  dl_order, dl_frame, dl_i, dl_tc, dl_j, 
+                                  dl_found, dl_new, dl_old, dl_jj, dl_oldclass, 
+                                  ag_order, ag_class, ag_local, ag_frame, 
+                                  ag_len, ag_start, ag_near, ag_done, ap_frame, 
                                   ap_order, ap_class, ap_local, ad_c, ad_k, 
                                   ad_old, cg_t, cg_mclass, cg_mfree, cg_cclass, 
                                   cg_cop, cg_prev, cg_done, cg_fetched, cg_h, 
@@ -5528,10 +5539,10 @@ sb_scan(self) == /\ pc[self] = "sb_scan"
                             /\ pc' = [pc EXCEPT ![self] = "sb_try"]
                             /\ UNCHANGED << lastop, sb_i, sb_idx, sb_t, sb_p >>
                  /\ UNCHANGED << mem, held, results, inflight, rv, panicked, 
-                                 stack, dp_why, tu_loc, tu_fn, tu_arg, tu_prev, 
-                                 tu_next, tu_done, tu_ok, tu_seen, lg_row, 
-                                 lg_order, lg_tree, lg_off, lg_j, lg_i, lg_h, 
-                                 lg_found, lg_frame, lg_n, ca_h0, ca_num, 
+                                 hid, stack, dp_why, tu_loc, tu_fn, tu_arg, 
+                                 tu_prev, tu_next, tu_done, tu_ok, tu_seen, 
+                                 lg_row, lg_order, lg_tree, lg_off, lg_j, lg_i, 
+                                 lg_h, lg_found, lg_frame, lg_n, ca_h0, ca_num, 
                                  ca_cur, ca_new, ca_i, ca_ok, ca_seen, ca_j, 
                                  sf_h, sf_start, sf_order, sf_i, sf_r, 
                                  sf_found, sf_off, sf_nrows, sf_c, sf_k, sf_v, 
@@ -5617,7 +5628,7 @@ Lbl_7(self) == /\ pc[self] = "Lbl_7"
                                           sg_frame, sg_c, rs_i, rs_order, 
                                           rs_class, rs_local, rs_reserved, 
                                           rs_free, rs_tc, rs_frame, rs_old >>
-               /\ UNCHANGED << mem, held, results, inflight, rv, panicked, 
+               /\ UNCHANGED << mem, held, results, inflight, rv, panicked, hid, 
                                lastop, dp_why, tu_loc, tu_fn, tu_arg, tu_prev, 
                                tu_next, tu_done, tu_ok, tu_seen, lg_row, 
                                lg_order, lg_tree, lg_off, lg_j, lg_i, lg_h, 
@@ -5654,7 +5665,7 @@ sb_scan_r(self) == /\ pc[self] = "sb_scan_r"
                               /\ UNCHANGED sb_done
                    /\ pc' = [pc EXCEPT ![self] = "sb_scan"]
                    /\ UNCHANGED << mem, held, results, inflight, rv, panicked, 
-                                   lastop, stack, dp_why, tu_loc, tu_fn, 
+                                   hid, lastop, stack, dp_why, tu_loc, tu_fn, 
                                    tu_arg, tu_prev, tu_next, tu_done, tu_ok, 
                                    tu_seen, lg_row, lg_order, lg_tree, lg_off, 
                                    lg_j, lg_i, lg_h, lg_found, lg_frame, lg_n, 
@@ -5694,7 +5705,7 @@ Lbl_5(self) == /\ pc[self] = "Lbl_5"
                /\ sb_p' = [sb_p EXCEPT ![self] = IF sb_p[self].kind = "match" THEN sb_p[self]
                                                  ELSE IF sb_p[self].kind = "demote" /\ sb_t[self].free = TF THEN sb_p[self] ELSE Invalid]
                /\ pc' = [pc EXCEPT ![self] = "Lbl_7"]
-               /\ UNCHANGED << mem, held, results, inflight, rv, panicked, 
+               /\ UNCHANGED << mem, held, results, inflight, rv, panicked, hid, 
                                lastop, stack, dp_why, tu_loc, tu_fn, tu_arg, 
                                tu_prev, tu_next, tu_done, tu_ok, tu_seen, 
                                lg_row, lg_order, lg_tree, lg_off, lg_j, lg_i, 
@@ -5731,7 +5742,7 @@ Lbl_6(self) == /\ pc[self] = "Lbl_6"
                /\ sb_p' = [sb_p EXCEPT ![self] = IF sb_p[self].kind = "match" THEN Perfect
                                                  ELSE IF sb_p[self].kind = "demote" /\ sb_t[self].free = TF THEN Perfect ELSE sb_p[self]]
                /\ pc' = [pc EXCEPT ![self] = "Lbl_7"]
-               /\ UNCHANGED << mem, held, results, inflight, rv, panicked, 
+               /\ UNCHANGED << mem, held, results, inflight, rv, panicked, hid, 
                                lastop, stack, dp_why, tu_loc, tu_fn, tu_arg, 
                                tu_prev, tu_next, tu_done, tu_ok, tu_seen, 
                                lg_row, lg_order, lg_tree, lg_off, lg_j, lg_i, 
@@ -5815,10 +5826,10 @@ sb_try(self) == /\ pc[self] = "sb_try"
                                            rs_class, rs_local, rs_reserved, 
                                            rs_free, rs_tc, rs_frame, rs_old >>
                 /\ UNCHANGED << mem, held, results, inflight, rv, panicked, 
-                                lastop, dp_why, tu_loc, tu_fn, tu_arg, tu_prev, 
-                                tu_next, tu_done, tu_ok, tu_seen, lg_row, 
-                                lg_order, lg_tree, lg_off, lg_j, lg_i, lg_h, 
-                                lg_found, lg_frame, lg_n, ca_h0, ca_num, 
+                                hid, lastop, dp_why, tu_loc, tu_fn, tu_arg, 
+                                tu_prev, tu_next, tu_done, tu_ok, tu_seen, 
+                                lg_row, lg_order, lg_tree, lg_off, lg_j, lg_i, 
+                                lg_h, lg_found, lg_frame, lg_n, ca_h0, ca_num, 
                                 ca_cur, ca_new, ca_i, ca_ok, ca_seen, ca_j, 
                                 sf_h, sf_start, sf_order, sf_i, sf_r, sf_found, 
                                 sf_off, sf_nrows, sf_c, sf_k, sf_v, sf_zero, 
@@ -5853,39 +5864,40 @@ sb_try_r(self) == /\ pc[self] = "sb_try_r"
                              /\ UNCHANGED sb_done
                   /\ pc' = [pc EXCEPT ![self] = "sb_try"]
                   /\ UNCHANGED << mem, held, results, inflight, rv, panicked, 
-                                  lastop, stack, dp_why, tu_loc, tu_fn, tu_arg, 
-                                  tu_prev, tu_next, tu_done, tu_ok, tu_seen, 
-                                  lg_row, lg_order, lg_tree, lg_off, lg_j, 
-                                  lg_i, lg_h, lg_found, lg_frame, lg_n, ca_h0, 
-                                  ca_num, ca_cur, ca_new, ca_i, ca_ok, ca_seen, 
-                                  ca_j, sf_h, sf_start, sf_order, sf_i, sf_r, 
-                                  sf_found, sf_off, sf_nrows, sf_c, sf_k, sf_v, 
-                                  sf_zero, sf_ok, sf_seen, sf_u, tg_h, tg_off, 
-                                  tg_order, tg_exp, tg_ok, tg_i, tg_n, tg_seen, 
-                                  tg_u, tg_r0, la_frame, la_order, la_h, 
-                                  ps_frame, ps_order, lp_frame, lp_order, lp_h, 
-                                  lp_old, lp_ok, lp_seen, lp_spin, lp_v, tp_t, 
-                                  tp_n, tu2_t, tu2_free, tu2_class, gl_order, 
-                                  gl_class, gl_local, gl_frame, gl_sync, 
-                                  gl_row, gl_res, gl_min, gl_got, sg_i, 
-                                  sg_class, sg_order, sg_frame, sg_c, rs_i, 
-                                  rs_order, rs_class, rs_local, rs_reserved, 
-                                  rs_free, rs_tc, rs_frame, rs_old, sb_n, 
-                                  sb_start, sb_offset, sb_len, sb_mode, 
-                                  sb_order, sb_class, sb_local, sb_i, sb_idx, 
-                                  sb_t, sb_p, sb_best, sl_class, sl_local, 
-                                  sl_order, sl_frame, sl_i, sl_tc, sl_j, 
-                                  sl_found, sl_row, sl_jj, dl_class, dl_local, 
-                                  dl_order, dl_frame, dl_i, dl_tc, dl_j, 
-                                  dl_found, dl_new, dl_old, dl_jj, dl_oldclass, 
-                                  ag_order, ag_class, ag_local, ag_frame, 
-                                  ag_len, ag_start, ag_near, ag_done, ap_frame, 
-                                  ap_order, ap_class, ap_local, ad_c, ad_k, 
-                                  ad_old, cg_t, cg_mclass, cg_mfree, cg_cclass, 
-                                  cg_cop, cg_prev, cg_done, cg_fetched, cg_h, 
-                                  cg_v, cg_next, cg_ok, cg_seen, ac_id, 
-                                  ac_mclass, ac_mfree, ac_cclass, ac_cop, ac_i, 
-                                  ac_done, pcx, cur, blk >>
+                                  hid, lastop, stack, dp_why, tu_loc, tu_fn, 
+                                  tu_arg, tu_prev, tu_next, tu_done, tu_ok, 
+                                  tu_seen, lg_row, lg_order, lg_tree, lg_off, 
+                                  lg_j, lg_i, lg_h, lg_found, lg_frame, lg_n, 
+                                  ca_h0, ca_num, ca_cur, ca_new, ca_i, ca_ok, 
+                                  ca_seen, ca_j, sf_h, sf_start, sf_order, 
+                                  sf_i, sf_r, sf_found, sf_off, sf_nrows, sf_c, 
+                                  sf_k, sf_v, sf_zero, sf_ok, sf_seen, sf_u, 
+                                  tg_h, tg_off, tg_order, tg_exp, tg_ok, tg_i, 
+                                  tg_n, tg_seen, tg_u, tg_r0, la_frame, 
+                                  la_order, la_h, ps_frame, ps_order, lp_frame, 
+                                  lp_order, lp_h, lp_old, lp_ok, lp_seen, 
+                                  lp_spin, lp_v, tp_t, tp_n, tu2_t, tu2_free, 
+                                  tu2_class, gl_order, gl_class, gl_local, 
+                                  gl_frame, gl_sync, gl_row, gl_res, gl_min, 
+                                  gl_got, sg_i, sg_class, sg_order, sg_frame, 
+                                  sg_c, rs_i, rs_order, rs_class, rs_local, 
+                                  rs_reserved, rs_free, rs_tc, rs_frame, 
+                                  rs_old, sb_n, sb_start, sb_offset, sb_len, 
+                                  sb_mode, sb_order, sb_class, sb_local, sb_i, 
+                                  sb_idx, sb_t, sb_p, sb_best, sl_class, 
+                                  sl_local, sl_order, sl_frame, sl_i, sl_tc, 
+                                  sl_j, sl_found, sl_row, sl_jj, dl_class, 
+                                  dl_local, dl_order, dl_frame, dl_i, dl_tc, 
+                                  dl_j, dl_found, dl_new, dl_old, dl_jj, 
+                                  dl_oldclass, ag_order, ag_class, ag_local, 
+                                  ag_frame, ag_len, ag_start, ag_near, ag_done, 
+                                  ap_frame, ap_order, ap_class, ap_local, ad_c, 
+                                  ad_k, ad_old, cg_t, cg_mclass, cg_mfree, 
+                                  cg_cclass, cg_cop, cg_prev, cg_done, 
+                                  cg_fetched, cg_h, cg_v, cg_next, cg_ok, 
+                                  cg_seen, ac_id, ac_mclass, ac_mfree, 
+                                  ac_cclass, ac_cop, ac_i, ac_done, pcx, cur, 
+                                  blk >>
 
 sb_ret(self) == /\ pc[self] = "sb_ret"
                 /\ IF ~sb_done[self]
@@ -5909,8 +5921,8 @@ sb_ret(self) == /\ pc[self] = "sb_ret"
                 /\ sb_class' = [sb_class EXCEPT ![self] = Head(stack[self]).sb_class]
                 /\ sb_local' = [sb_local EXCEPT ![self] = Head(stack[self]).sb_local]
                 /\ stack' = [stack EXCEPT ![self] = Tail(stack[self])]
-                /\ UNCHANGED << mem, held, results, inflight, panicked, lastop, 
-                                dp_why, tu_loc, tu_fn, tu_arg, tu_prev, 
+                /\ UNCHANGED << mem, held, results, inflight, panicked, hid, 
+                                lastop, dp_why, tu_loc, tu_fn, tu_arg, tu_prev, 
                                 tu_next, tu_done, tu_ok, tu_seen, lg_row, 
                                 lg_order, lg_tree, lg_off, lg_j, lg_i, lg_h, 
                                 lg_found, lg_frame, lg_n, ca_h0, ca_num, 
@@ -5949,39 +5961,40 @@ sl_begin(self) == /\ pc[self] = "sl_begin"
                   /\ sl_found' = [sl_found EXCEPT ![self] = FALSE]
                   /\ pc' = [pc EXCEPT ![self] = "sl_classes"]
                   /\ UNCHANGED << mem, held, results, inflight, rv, panicked, 
-                                  lastop, stack, dp_why, tu_loc, tu_fn, tu_arg, 
-                                  tu_prev, tu_next, tu_done, tu_ok, tu_seen, 
-                                  lg_row, lg_order, lg_tree, lg_off, lg_j, 
-                                  lg_i, lg_h, lg_found, lg_frame, lg_n, ca_h0, 
-                                  ca_num, ca_cur, ca_new, ca_i, ca_ok, ca_seen, 
-                                  ca_j, sf_h, sf_start, sf_order, sf_i, sf_r, 
-                                  sf_found, sf_off, sf_nrows, sf_c, sf_k, sf_v, 
-                                  sf_zero, sf_ok, sf_seen, sf_u, tg_h, tg_off, 
-                                  tg_order, tg_exp, tg_ok, tg_i, tg_n, tg_seen, 
-                                  tg_u, tg_r0, la_frame, la_order, la_h, 
-                                  ps_frame, ps_order, lp_frame, lp_order, lp_h, 
-                                  lp_old, lp_ok, lp_seen, lp_spin, lp_v, tp_t, 
-                                  tp_n, tu2_t, tu2_free, tu2_class, gl_order, 
-                                  gl_class, gl_local, gl_frame, gl_sync, 
-                                  gl_row, gl_res, gl_min, gl_got, sg_i, 
-                                  sg_class, sg_order, sg_frame, sg_c, rs_i, 
-                                  rs_order, rs_class, rs_local, rs_reserved, 
-                                  rs_free, rs_tc, rs_frame, rs_old, sb_n, 
-                                  sb_start, sb_offset, sb_len, sb_mode, 
-                                  sb_order, sb_class, sb_local, sb_i, sb_idx, 
-                                  sb_t, sb_p, sb_best, sb_done, sb_k, sl_class, 
-                                  sl_local, sl_order, sl_frame, sl_tc, sl_j, 
-                                  sl_row, sl_jj, dl_class, dl_local, dl_order, 
-                                  dl_frame, dl_i, dl_tc, dl_j, dl_found, 
-                                  dl_new, dl_old, dl_jj, dl_oldclass, ag_order, 
-                                  ag_class, ag_local, ag_frame, ag_len, 
-                                  ag_start, ag_near, ag_done, ap_frame, 
-                                  ap_order, ap_class, ap_local, ad_c, ad_k, 
-                                  ad_old, cg_t, cg_mclass, cg_mfree, cg_cclass, 
-                                  cg_cop, cg_prev, cg_done, cg_fetched, cg_h, 
-                                  cg_v, cg_next, cg_ok, cg_seen, ac_id, 
-                                  ac_mclass, ac_mfree, ac_cclass, ac_cop, ac_i, 
-                                  ac_done, pcx, cur, blk >>
+                                  hid, lastop, stack, dp_why, tu_loc, tu_fn, 
+                                  tu_arg, tu_prev, tu_next, tu_done, tu_ok, 
+                                  tu_seen, lg_row, lg_order, lg_tree, lg_off, 
+                                  lg_j, lg_i, lg_h, lg_found, lg_frame, lg_n, 
+                                  ca_h0, ca_num, ca_cur, ca_new, ca_i, ca_ok, 
+                                  ca_seen, ca_j, sf_h, sf_start, sf_order, 
+                                  sf_i, sf_r, sf_found, sf_off, sf_nrows, sf_c, 
+                                  sf_k, sf_v, sf_zero, sf_ok, sf_seen, sf_u, 
+                                  tg_h, tg_off, tg_order, tg_exp, tg_ok, tg_i, 
+                                  tg_n, tg_seen, tg_u, tg_r0, la_frame, 
+                                  la_order, la_h, ps_frame, ps_order, lp_frame, 
+                                  lp_order, lp_h, lp_old, lp_ok, lp_seen, 
+                                  lp_spin, lp_v, tp_t, tp_n, tu2_t, tu2_free, 
+                                  tu2_class, gl_order, gl_class, gl_local, 
+                                  gl_frame, gl_sync, gl_row, gl_res, gl_min, 
+                                  gl_got, sg_i, sg_class, sg_order, sg_frame, 
+                                  sg_c, rs_i, rs_order, rs_class, rs_local, 
+                                  rs_reserved, rs_free, rs_tc, rs_frame, 
+                                  rs_old, sb_n, sb_start, sb_offset, sb_len, 
+                                  sb_mode, sb_order, sb_class, sb_local, sb_i, 
+                                  sb_idx, sb_t, sb_p, sb_best, sb_done, sb_k, 
+                                  sl_class, sl_local, sl_order, sl_frame, 
+                                  sl_tc, sl_j, sl_row, sl_jj, dl_class, 
+                                  dl_local, dl_order, dl_frame, dl_i, dl_tc, 
+                                  dl_j, dl_found, dl_new, dl_old, dl_jj, 
+                                  dl_oldclass, ag_order, ag_class, ag_local, 
+                                  ag_frame, ag_len, ag_start, ag_near, ag_done, 
+                                  ap_frame, ap_order, ap_class, ap_local, ad_c, 
+                                  ad_k, ad_old, cg_t, cg_mclass, cg_mfree, 
+                                  cg_cclass, cg_cop, cg_prev, cg_done, 
+                                  cg_fetched, cg_h, cg_v, cg_next, cg_ok, 
+                                  cg_seen, ac_id, ac_mclass, ac_mfree, 
+                                  ac_cclass, ac_cop, ac_i, ac_done, pcx, cur, 
+                                  blk >>
 
 sl_classes(self) == /\ pc[self] = "sl_classes"
                     /\ IF sl_i[self] < 8 /\ ~sl_found[self]
@@ -6075,7 +6088,7 @@ sl_classes(self) == /\ pc[self] = "sl_classes"
                                                           lg_n, la_frame, 
                                                           la_order, la_h >>
                     /\ UNCHANGED << mem, held, results, inflight, panicked, 
-                                    lastop, dp_why, tu_loc, tu_fn, tu_arg, 
+                                    hid, lastop, dp_why, tu_loc, tu_fn, tu_arg, 
                                     tu_prev, tu_next, tu_done, tu_ok, tu_seen, 
                                     ca_h0, ca_num, ca_cur, ca_new, ca_i, ca_ok, 
                                     ca_seen, ca_j, sf_h, sf_start, sf_order, 
@@ -6135,13 +6148,13 @@ sl_slots(self) == /\ pc[self] = "sl_slots"
                                              tu_prev, tu_next, tu_done, tu_ok, 
                                              tu_seen, sl_jj >>
                   /\ UNCHANGED << mem, held, results, inflight, rv, panicked, 
-                                  lastop, dp_why, lg_row, lg_order, lg_tree, 
-                                  lg_off, lg_j, lg_i, lg_h, lg_found, lg_frame, 
-                                  lg_n, ca_h0, ca_num, ca_cur, ca_new, ca_i, 
-                                  ca_ok, ca_seen, ca_j, sf_h, sf_start, 
-                                  sf_order, sf_i, sf_r, sf_found, sf_off, 
-                                  sf_nrows, sf_c, sf_k, sf_v, sf_zero, sf_ok, 
-                                  sf_seen, sf_u, tg_h, tg_off, tg_order, 
+                                  hid, lastop, dp_why, lg_row, lg_order, 
+                                  lg_tree, lg_off, lg_j, lg_i, lg_h, lg_found, 
+                                  lg_frame, lg_n, ca_h0, ca_num, ca_cur, 
+                                  ca_new, ca_i, ca_ok, ca_seen, ca_j, sf_h, 
+                                  sf_start, sf_order, sf_i, sf_r, sf_found, 
+                                  sf_off, sf_nrows, sf_c, sf_k, sf_v, sf_zero, 
+                                  sf_ok, sf_seen, sf_u, tg_h, tg_off, tg_order, 
                                   tg_exp, tg_ok, tg_i, tg_n, tg_seen, tg_u, 
                                   tg_r0, la_frame, la_order, la_h, ps_frame, 
                                   ps_order, lp_frame, lp_order, lp_h, lp_old, 
@@ -6177,7 +6190,7 @@ sl_slots_r(self) == /\ pc[self] = "sl_slots_r"
                                /\ UNCHANGED << sl_found, sl_row >>
                     /\ pc' = [pc EXCEPT ![self] = "sl_slots"]
                     /\ UNCHANGED << mem, held, results, inflight, rv, panicked, 
-                                    lastop, stack, dp_why, tu_loc, tu_fn, 
+                                    hid, lastop, stack, dp_why, tu_loc, tu_fn, 
                                     tu_arg, tu_prev, tu_next, tu_done, tu_ok, 
                                     tu_seen, lg_row, lg_order, lg_tree, lg_off, 
                                     lg_j, lg_i, lg_h, lg_found, lg_frame, lg_n, 
@@ -6220,33 +6233,33 @@ sl_next(self) == /\ pc[self] = "sl_next"
                             /\ sl_i' = sl_i
                  /\ pc' = [pc EXCEPT ![self] = "sl_classes"]
                  /\ UNCHANGED << mem, held, results, inflight, rv, panicked, 
-                                 lastop, stack, dp_why, tu_loc, tu_fn, tu_arg, 
-                                 tu_prev, tu_next, tu_done, tu_ok, tu_seen, 
-                                 lg_row, lg_order, lg_tree, lg_off, lg_j, lg_i, 
-                                 lg_h, lg_found, lg_frame, lg_n, ca_h0, ca_num, 
-                                 ca_cur, ca_new, ca_i, ca_ok, ca_seen, ca_j, 
-                                 sf_h, sf_start, sf_order, sf_i, sf_r, 
-                                 sf_found, sf_off, sf_nrows, sf_c, sf_k, sf_v, 
-                                 sf_zero, sf_ok, sf_seen, sf_u, tg_h, tg_off, 
-                                 tg_order, tg_exp, tg_ok, tg_i, tg_n, tg_seen, 
-                                 tg_u, tg_r0, la_frame, la_order, la_h, 
-                                 ps_frame, ps_order, lp_frame, lp_order, lp_h, 
-                                 lp_old, lp_ok, lp_seen, lp_spin, lp_v, tp_t, 
-                                 tp_n, tu2_t, tu2_free, tu2_class, gl_order, 
-                                 gl_class, gl_local, gl_frame, gl_sync, gl_row, 
-                                 gl_res, gl_min, gl_got, sg_i, sg_class, 
-                                 sg_order, sg_frame, sg_c, rs_i, rs_order, 
-                                 rs_class, rs_local, rs_reserved, rs_free, 
-                                 rs_tc, rs_frame, rs_old, sb_n, sb_start, 
-                                 sb_offset, sb_len, sb_mode, sb_order, 
-                                 sb_class, sb_local, sb_i, sb_idx, sb_t, sb_p, 
-                                 sb_best, sb_done, sb_k, sl_class, sl_local, 
-                                 sl_order, sl_frame, sl_tc, sl_j, sl_found, 
-                                 sl_row, sl_jj, dl_class, dl_local, dl_order, 
-                                 dl_frame, dl_i, dl_tc, dl_j, dl_found, dl_new, 
-                                 dl_old, dl_jj, dl_oldclass, ag_order, 
-                                 ag_class, ag_local, ag_frame, ag_len, 
-                                 ag_start, ag_near, ag_done, ap_frame, 
+                                 hid, lastop, stack, dp_why, tu_loc, tu_fn, 
+                                 tu_arg, tu_prev, tu_next, tu_done, tu_ok, 
+                                 tu_seen, lg_row, lg_order, lg_tree, lg_off, 
+                                 lg_j, lg_i, lg_h, lg_found, lg_frame, lg_n, 
+                                 ca_h0, ca_num, ca_cur, ca_new, ca_i, ca_ok, 
+                                 ca_seen, ca_j, sf_h, sf_start, sf_order, sf_i, 
+                                 sf_r, sf_found, sf_off, sf_nrows, sf_c, sf_k, 
+                                 sf_v, sf_zero, sf_ok, sf_seen, sf_u, tg_h, 
+                                 tg_off, tg_order, tg_exp, tg_ok, tg_i, tg_n, 
+                                 tg_seen, tg_u, tg_r0, la_frame, la_order, 
+                                 la_h, ps_frame, ps_order, lp_frame, lp_order, 
+                                 lp_h, lp_old, lp_ok, lp_seen, lp_spin, lp_v, 
+                                 tp_t, tp_n, tu2_t, tu2_free, tu2_class, 
+                                 gl_order, gl_class, gl_local, gl_frame, 
+                                 gl_sync, gl_row, gl_res, gl_min, gl_got, sg_i, 
+                                 sg_class, sg_order, sg_frame, sg_c, rs_i, 
+                                 rs_order, rs_class, rs_local, rs_reserved, 
+                                 rs_free, rs_tc, rs_frame, rs_old, sb_n, 
+                                 sb_start, sb_offset, sb_len, sb_mode, 
+                                 sb_order, sb_class, sb_local, sb_i, sb_idx, 
+                                 sb_t, sb_p, sb_best, sb_done, sb_k, sl_class, 
+                                 sl_local, sl_order, sl_frame, sl_tc, sl_j, 
+                                 sl_found, sl_row, sl_jj, dl_class, dl_local, 
+                                 dl_order, dl_frame, dl_i, dl_tc, dl_j, 
+                                 dl_found, dl_new, dl_old, dl_jj, dl_oldclass, 
+                                 ag_order, ag_class, ag_local, ag_frame, 
+                                 ag_len, ag_start, ag_near, ag_done, ap_frame, 
                                  ap_order, ap_class, ap_local, ad_c, ad_k, 
                                  ad_old, cg_t, cg_mclass, cg_mfree, cg_cclass, 
                                  cg_cop, cg_prev, cg_done, cg_fetched, cg_h, 
@@ -6282,7 +6295,7 @@ sl_lower_r(self) == /\ pc[self] = "sl_lower_r"
                                                sl_order, sl_frame, sl_i, sl_tc, 
                                                sl_j, sl_found, sl_row, sl_jj >>
                     /\ UNCHANGED << mem, held, results, inflight, panicked, 
-                                    lastop, dp_why, tu_loc, tu_fn, tu_arg, 
+                                    hid, lastop, dp_why, tu_loc, tu_fn, tu_arg, 
                                     tu_prev, tu_next, tu_done, tu_ok, tu_seen, 
                                     lg_row, lg_order, lg_tree, lg_off, lg_j, 
                                     lg_i, lg_h, lg_found, lg_frame, lg_n, 
@@ -6330,7 +6343,7 @@ sl_undo_r(self) == /\ pc[self] = "sl_undo_r"
                    /\ sl_order' = [sl_order EXCEPT ![self] = Head(stack[self]).sl_order]
                    /\ sl_frame' = [sl_frame EXCEPT ![self] = Head(stack[self]).sl_frame]
                    /\ stack' = [stack EXCEPT ![self] = Tail(stack[self])]
-                   /\ UNCHANGED << mem, held, results, inflight, panicked, 
+                   /\ UNCHANGED << mem, held, results, inflight, panicked, hid, 
                                    lastop, dp_why, tu_loc, tu_fn, tu_arg, 
                                    tu_prev, tu_next, tu_done, tu_ok, tu_seen, 
                                    lg_row, lg_order, lg_tree, lg_off, lg_j, 
@@ -6377,7 +6390,7 @@ dl_begin(self) == /\ pc[self] = "dl_begin"
                              /\ pc' = [pc EXCEPT ![self] = "Lbl_8"]
                         ELSE /\ pc' = [pc EXCEPT ![self] = "dl_classes"]
                              /\ rv' = rv
-                  /\ UNCHANGED << mem, held, results, inflight, panicked, 
+                  /\ UNCHANGED << mem, held, results, inflight, panicked, hid, 
                                   lastop, stack, dp_why, tu_loc, tu_fn, tu_arg, 
                                   tu_prev, tu_next, tu_done, tu_ok, tu_seen, 
                                   lg_row, lg_order, lg_tree, lg_off, lg_j, 
@@ -6427,7 +6440,7 @@ Lbl_8(self) == /\ pc[self] = "Lbl_8"
                /\ dl_order' = [dl_order EXCEPT ![self] = Head(stack[self]).dl_order]
                /\ dl_frame' = [dl_frame EXCEPT ![self] = Head(stack[self]).dl_frame]
                /\ stack' = [stack EXCEPT ![self] = Tail(stack[self])]
-               /\ UNCHANGED << mem, held, results, inflight, rv, panicked, 
+               /\ UNCHANGED << mem, held, results, inflight, rv, panicked, hid, 
                                lastop, dp_why, tu_loc, tu_fn, tu_arg, tu_prev, 
                                tu_next, tu_done, tu_ok, tu_seen, lg_row, 
                                lg_order, lg_tree, lg_off, lg_j, lg_i, lg_h, 
@@ -6500,7 +6513,7 @@ dl_classes(self) == /\ pc[self] = "dl_classes"
                                                           dl_found, dl_new, 
                                                           dl_jj, dl_oldclass >>
                     /\ UNCHANGED << mem, held, results, inflight, panicked, 
-                                    lastop, dp_why, tu_loc, tu_fn, tu_arg, 
+                                    hid, lastop, dp_why, tu_loc, tu_fn, tu_arg, 
                                     tu_prev, tu_next, tu_done, tu_ok, tu_seen, 
                                     lg_row, lg_order, lg_tree, lg_off, lg_j, 
                                     lg_i, lg_h, lg_found, lg_frame, lg_n, 
@@ -6562,13 +6575,13 @@ dl_slots(self) == /\ pc[self] = "dl_slots"
                                              tu_prev, tu_next, tu_done, tu_ok, 
                                              tu_seen, dl_jj >>
                   /\ UNCHANGED << mem, held, results, inflight, rv, panicked, 
-                                  lastop, dp_why, lg_row, lg_order, lg_tree, 
-                                  lg_off, lg_j, lg_i, lg_h, lg_found, lg_frame, 
-                                  lg_n, ca_h0, ca_num, ca_cur, ca_new, ca_i, 
-                                  ca_ok, ca_seen, ca_j, sf_h, sf_start, 
-                                  sf_order, sf_i, sf_r, sf_found, sf_off, 
-                                  sf_nrows, sf_c, sf_k, sf_v, sf_zero, sf_ok, 
-                                  sf_seen, sf_u, tg_h, tg_off, tg_order, 
+                                  hid, lastop, dp_why, lg_row, lg_order, 
+                                  lg_tree, lg_off, lg_j, lg_i, lg_h, lg_found, 
+                                  lg_frame, lg_n, ca_h0, ca_num, ca_cur, 
+                                  ca_new, ca_i, ca_ok, ca_seen, ca_j, sf_h, 
+                                  sf_start, sf_order, sf_i, sf_r, sf_found, 
+                                  sf_off, sf_nrows, sf_c, sf_k, sf_v, sf_zero, 
+                                  sf_ok, sf_seen, sf_u, tg_h, tg_off, tg_order, 
                                   tg_exp, tg_ok, tg_i, tg_n, tg_seen, tg_u, 
                                   tg_r0, la_frame, la_order, la_h, ps_frame, 
                                   ps_order, lp_frame, lp_order, lp_h, lp_old, 
@@ -6604,7 +6617,7 @@ dl_slots_r(self) == /\ pc[self] = "dl_slots_r"
                                /\ UNCHANGED << dl_found, dl_new >>
                     /\ pc' = [pc EXCEPT ![self] = "dl_slots"]
                     /\ UNCHANGED << mem, held, results, inflight, rv, panicked, 
-                                    lastop, stack, dp_why, tu_loc, tu_fn, 
+                                    hid, lastop, stack, dp_why, tu_loc, tu_fn, 
                                     tu_arg, tu_prev, tu_next, tu_done, tu_ok, 
                                     tu_seen, lg_row, lg_order, lg_tree, lg_off, 
                                     lg_j, lg_i, lg_h, lg_found, lg_frame, lg_n, 
@@ -6647,33 +6660,33 @@ dl_next(self) == /\ pc[self] = "dl_next"
                             /\ dl_i' = dl_i
                  /\ pc' = [pc EXCEPT ![self] = "dl_classes"]
                  /\ UNCHANGED << mem, held, results, inflight, rv, panicked, 
-                                 lastop, stack, dp_why, tu_loc, tu_fn, tu_arg, 
-                                 tu_prev, tu_next, tu_done, tu_ok, tu_seen, 
-                                 lg_row, lg_order, lg_tree, lg_off, lg_j, lg_i, 
-                                 lg_h, lg_found, lg_frame, lg_n, ca_h0, ca_num, 
-                                 ca_cur, ca_new, ca_i, ca_ok, ca_seen, ca_j, 
-                                 sf_h, sf_start, sf_order, sf_i, sf_r, 
-                                 sf_found, sf_off, sf_nrows, sf_c, sf_k, sf_v, 
-                                 sf_zero, sf_ok, sf_seen, sf_u, tg_h, tg_off, 
-                                 tg_order, tg_exp, tg_ok, tg_i, tg_n, tg_seen, 
-                                 tg_u, tg_r0, la_frame, la_order, la_h, 
-                                 ps_frame, ps_order, lp_frame, lp_order, lp_h, 
-                                 lp_old, lp_ok, lp_seen, lp_spin, lp_v, tp_t, 
-                                 tp_n, tu2_t, tu2_free, tu2_class, gl_order, 
-                                 gl_class, gl_local, gl_frame, gl_sync, gl_row, 
-                                 gl_res, gl_min, gl_got, sg_i, sg_class, 
-                                 sg_order, sg_frame, sg_c, rs_i, rs_order, 
-                                 rs_class, rs_local, rs_reserved, rs_free, 
-                                 rs_tc, rs_frame, rs_old, sb_n, sb_start, 
-                                 sb_offset, sb_len, sb_mode, sb_order, 
-                                 sb_class, sb_local, sb_i, sb_idx, sb_t, sb_p, 
-                                 sb_best, sb_done, sb_k, sl_class, sl_local, 
-                                 sl_order, sl_frame, sl_i, sl_tc, sl_j, 
-                                 sl_found, sl_row, sl_jj, dl_class, dl_local, 
-                                 dl_order, dl_frame, dl_tc, dl_j, dl_found, 
-                                 dl_new, dl_old, dl_jj, dl_oldclass, ag_order, 
-                                 ag_class, ag_local, ag_frame, ag_len, 
-                                 ag_start, ag_near, ag_done, ap_frame, 
+                                 hid, lastop, stack, dp_why, tu_loc, tu_fn, 
+                                 tu_arg, tu_prev, tu_next, tu_done, tu_ok, 
+                                 tu_seen, lg_row, lg_order, lg_tree, lg_off, 
+                                 lg_j, lg_i, lg_h, lg_found, lg_frame, lg_n, 
+                                 ca_h0, ca_num, ca_cur, ca_new, ca_i, ca_ok, 
+                                 ca_seen, ca_j, sf_h, sf_start, sf_order, sf_i, 
+                                 sf_r, sf_found, sf_off, sf_nrows, sf_c, sf_k, 
+                                 sf_v, sf_zero, sf_ok, sf_seen, sf_u, tg_h, 
+                                 tg_off, tg_order, tg_exp, tg_ok, tg_i, tg_n, 
+                                 tg_seen, tg_u, tg_r0, la_frame, la_order, 
+                                 la_h, ps_frame, ps_order, lp_frame, lp_order, 
+                                 lp_h, lp_old, lp_ok, lp_seen, lp_spin, lp_v, 
+                                 tp_t, tp_n, tu2_t, tu2_free, tu2_class, 
+                                 gl_order, gl_class, gl_local, gl_frame, 
+                                 gl_sync, gl_row, gl_res, gl_min, gl_got, sg_i, 
+                                 sg_class, sg_order, sg_frame, sg_c, rs_i, 
+                                 rs_order, rs_class, rs_local, rs_reserved, 
+                                 rs_free, rs_tc, rs_frame, rs_old, sb_n, 
+                                 sb_start, sb_offset, sb_len, sb_mode, 
+                                 sb_order, sb_class, sb_local, sb_i, sb_idx, 
+                                 sb_t, sb_p, sb_best, sb_done, sb_k, sl_class, 
+                                 sl_local, sl_order, sl_frame, sl_i, sl_tc, 
+                                 sl_j, sl_found, sl_row, sl_jj, dl_class, 
+                                 dl_local, dl_order, dl_frame, dl_tc, dl_j, 
+                                 dl_found, dl_new, dl_old, dl_jj, dl_oldclass, 
+                                 ag_order, ag_class, ag_local, ag_frame, 
+                                 ag_len, ag_start, ag_near, ag_done, ap_frame, 
                                  ap_order, ap_class, ap_local, ad_c, ad_k, 
                                  ad_old, cg_t, cg_mclass, cg_mfree, cg_cclass, 
                                  cg_cop, cg_prev, cg_done, cg_fetched, cg_h, 
@@ -6696,7 +6709,7 @@ dl_unres(self) == /\ pc[self] = "dl_unres"
                         ELSE /\ pc' = [pc EXCEPT ![self] = "dl_lower"]
                              /\ UNCHANGED << stack, tu2_t, tu2_free, tu2_class >>
                   /\ UNCHANGED << mem, held, results, inflight, rv, panicked, 
-                                  lastop, dp_why, tu_loc, tu_fn, tu_arg, 
+                                  hid, lastop, dp_why, tu_loc, tu_fn, tu_arg, 
                                   tu_prev, tu_next, tu_done, tu_ok, tu_seen, 
                                   lg_row, lg_order, lg_tree, lg_off, lg_j, 
                                   lg_i, lg_h, lg_found, lg_frame, lg_n, ca_h0, 
@@ -6771,7 +6784,7 @@ dl_lower(self) == /\ pc[self] = "dl_lower"
                                              lg_j, lg_i, lg_h, lg_found, 
                                              lg_frame, lg_n >>
                   /\ UNCHANGED << mem, held, results, inflight, rv, panicked, 
-                                  lastop, dp_why, tu_loc, tu_fn, tu_arg, 
+                                  hid, lastop, dp_why, tu_loc, tu_fn, tu_arg, 
                                   tu_prev, tu_next, tu_done, tu_ok, tu_seen, 
                                   ca_h0, ca_num, ca_cur, ca_new, ca_i, ca_ok, 
                                   ca_seen, ca_j, sf_h, sf_start, sf_order, 
@@ -6835,7 +6848,7 @@ dl_lower_r(self) == /\ pc[self] = "dl_lower_r"
                                                dl_j, dl_found, dl_new, dl_old, 
                                                dl_jj, dl_oldclass >>
                     /\ UNCHANGED << mem, held, results, inflight, panicked, 
-                                    lastop, dp_why, tu_loc, tu_fn, tu_arg, 
+                                    hid, lastop, dp_why, tu_loc, tu_fn, tu_arg, 
                                     tu_prev, tu_next, tu_done, tu_ok, tu_seen, 
                                     lg_row, lg_order, lg_tree, lg_off, lg_j, 
                                     lg_i, lg_h, lg_found, lg_frame, lg_n, 
@@ -6885,7 +6898,7 @@ dl_undo_r(self) == /\ pc[self] = "dl_undo_r"
                    /\ dl_order' = [dl_order EXCEPT ![self] = Head(stack[self]).dl_order]
                    /\ dl_frame' = [dl_frame EXCEPT ![self] = Head(stack[self]).dl_frame]
                    /\ stack' = [stack EXCEPT ![self] = Tail(stack[self])]
-                   /\ UNCHANGED << mem, held, results, inflight, panicked, 
+                   /\ UNCHANGED << mem, held, results, inflight, panicked, hid, 
                                    lastop, dp_why, tu_loc, tu_fn, tu_arg, 
                                    tu_prev, tu_next, tu_done, tu_ok, tu_seen, 
                                    lg_row, lg_order, lg_tree, lg_off, lg_j, 
@@ -6925,8 +6938,8 @@ dl_swap(self) == /\ pc[self] = "dl_swap"
                                old |-> mem[Slot(dl_class[self], dl_local[self])], new |-> dl_new[self], ok |-> TRUE]
                  /\ mem' = [mem EXCEPT ![Slot(dl_class[self], dl_local[self])] = dl_new[self]]
                  /\ pc' = [pc EXCEPT ![self] = "dl_unres"]
-                 /\ UNCHANGED << held, results, inflight, rv, panicked, stack, 
-                                 dp_why, tu_loc, tu_fn, tu_arg, tu_prev, 
+                 /\ UNCHANGED << held, results, inflight, rv, panicked, hid, 
+                                 stack, dp_why, tu_loc, tu_fn, tu_arg, tu_prev, 
                                  tu_next, tu_done, tu_ok, tu_seen, lg_row, 
                                  lg_order, lg_tree, lg_off, lg_j, lg_i, lg_h, 
                                  lg_found, lg_frame, lg_n, ca_h0, ca_num, 
@@ -7105,7 +7118,7 @@ ag_begin(self) == /\ pc[self] = "ag_begin"
                                                                    gl_min, 
                                                                    gl_got >>
                              /\ rv' = rv
-                  /\ UNCHANGED << mem, held, results, inflight, panicked, 
+                  /\ UNCHANGED << mem, held, results, inflight, panicked, hid, 
                                   lastop, dp_why, tu_loc, tu_fn, tu_arg, 
                                   tu_prev, tu_next, tu_done, tu_ok, tu_seen, 
                                   lg_row, lg_order, lg_tree, lg_off, lg_j, 
@@ -7146,7 +7159,7 @@ Lbl_9(self) == /\ pc[self] = "Lbl_9"
                /\ ag_local' = [ag_local EXCEPT ![self] = Head(stack[self]).ag_local]
                /\ ag_frame' = [ag_frame EXCEPT ![self] = Head(stack[self]).ag_frame]
                /\ stack' = [stack EXCEPT ![self] = Tail(stack[self])]
-               /\ UNCHANGED << mem, held, results, inflight, rv, panicked, 
+               /\ UNCHANGED << mem, held, results, inflight, rv, panicked, hid, 
                                lastop, dp_why, tu_loc, tu_fn, tu_arg, tu_prev, 
                                tu_next, tu_done, tu_ok, tu_seen, lg_row, 
                                lg_order, lg_tree, lg_off, lg_j, lg_i, lg_h, 
@@ -7198,24 +7211,24 @@ ag_at_global(self) == /\ pc[self] = "ag_at_global"
                                  /\ UNCHANGED << stack, sg_i, sg_class, 
                                                  sg_order, sg_frame, sg_c >>
                       /\ UNCHANGED << mem, held, results, inflight, rv, 
-                                      panicked, lastop, dp_why, tu_loc, tu_fn, 
-                                      tu_arg, tu_prev, tu_next, tu_done, tu_ok, 
-                                      tu_seen, lg_row, lg_order, lg_tree, 
-                                      lg_off, lg_j, lg_i, lg_h, lg_found, 
-                                      lg_frame, lg_n, ca_h0, ca_num, ca_cur, 
-                                      ca_new, ca_i, ca_ok, ca_seen, ca_j, sf_h, 
-                                      sf_start, sf_order, sf_i, sf_r, sf_found, 
-                                      sf_off, sf_nrows, sf_c, sf_k, sf_v, 
-                                      sf_zero, sf_ok, sf_seen, sf_u, tg_h, 
-                                      tg_off, tg_order, tg_exp, tg_ok, tg_i, 
-                                      tg_n, tg_seen, tg_u, tg_r0, la_frame, 
-                                      la_order, la_h, ps_frame, ps_order, 
-                                      lp_frame, lp_order, lp_h, lp_old, lp_ok, 
-                                      lp_seen, lp_spin, lp_v, tp_t, tp_n, 
-                                      tu2_t, tu2_free, tu2_class, gl_order, 
-                                      gl_class, gl_local, gl_frame, gl_sync, 
-                                      gl_row, gl_res, gl_min, gl_got, rs_i, 
-                                      rs_order, rs_class, rs_local, 
+                                      panicked, hid, lastop, dp_why, tu_loc, 
+                                      tu_fn, tu_arg, tu_prev, tu_next, tu_done, 
+                                      tu_ok, tu_seen, lg_row, lg_order, 
+                                      lg_tree, lg_off, lg_j, lg_i, lg_h, 
+                                      lg_found, lg_frame, lg_n, ca_h0, ca_num, 
+                                      ca_cur, ca_new, ca_i, ca_ok, ca_seen, 
+                                      ca_j, sf_h, sf_start, sf_order, sf_i, 
+                                      sf_r, sf_found, sf_off, sf_nrows, sf_c, 
+                                      sf_k, sf_v, sf_zero, sf_ok, sf_seen, 
+                                      sf_u, tg_h, tg_off, tg_order, tg_exp, 
+                                      tg_ok, tg_i, tg_n, tg_seen, tg_u, tg_r0, 
+                                      la_frame, la_order, la_h, ps_frame, 
+                                      ps_order, lp_frame, lp_order, lp_h, 
+                                      lp_old, lp_ok, lp_seen, lp_spin, lp_v, 
+                                      tp_t, tp_n, tu2_t, tu2_free, tu2_class, 
+                                      gl_order, gl_class, gl_local, gl_frame, 
+                                      gl_sync, gl_row, gl_res, gl_min, gl_got, 
+                                      rs_i, rs_order, rs_class, rs_local, 
                                       rs_reserved, rs_free, rs_tc, rs_frame, 
                                       rs_old, sb_n, sb_start, sb_offset, 
                                       sb_len, sb_mode, sb_order, sb_class, 
@@ -7243,7 +7256,7 @@ ag_at_global_r(self) == /\ pc[self] = "ag_at_global_r"
                                    /\ UNCHANGED ag_done
                         /\ pc' = [pc EXCEPT ![self] = "ag_at_steal"]
                         /\ UNCHANGED << mem, held, results, inflight, rv, 
-                                        panicked, lastop, stack, dp_why, 
+                                        panicked, hid, lastop, stack, dp_why, 
                                         tu_loc, tu_fn, tu_arg, tu_prev, 
                                         tu_next, tu_done, tu_ok, tu_seen, 
                                         lg_row, lg_order, lg_tree, lg_off, 
@@ -7315,9 +7328,9 @@ ag_at_steal(self) == /\ pc[self] = "ag_at_steal"
                                                 sl_tc, sl_j, sl_found, sl_row, 
                                                 sl_jj >>
                      /\ UNCHANGED << mem, held, results, inflight, rv, 
-                                     panicked, lastop, dp_why, tu_loc, tu_fn, 
-                                     tu_arg, tu_prev, tu_next, tu_done, tu_ok, 
-                                     tu_seen, lg_row, lg_order, lg_tree, 
+                                     panicked, hid, lastop, dp_why, tu_loc, 
+                                     tu_fn, tu_arg, tu_prev, tu_next, tu_done, 
+                                     tu_ok, tu_seen, lg_row, lg_order, lg_tree, 
                                      lg_off, lg_j, lg_i, lg_h, lg_found, 
                                      lg_frame, lg_n, ca_h0, ca_num, ca_cur, 
                                      ca_new, ca_i, ca_ok, ca_seen, ca_j, sf_h, 
@@ -7357,8 +7370,8 @@ ag_at_steal_r(self) == /\ pc[self] = "ag_at_steal_r"
                                   /\ UNCHANGED ag_done
                        /\ pc' = [pc EXCEPT ![self] = "ag_at_demote"]
                        /\ UNCHANGED << mem, held, results, inflight, rv, 
-                                       panicked, lastop, stack, dp_why, tu_loc, 
-                                       tu_fn, tu_arg, tu_prev, tu_next, 
+                                       panicked, hid, lastop, stack, dp_why, 
+                                       tu_loc, tu_fn, tu_arg, tu_prev, tu_next, 
                                        tu_done, tu_ok, tu_seen, lg_row, 
                                        lg_order, lg_tree, lg_off, lg_j, lg_i, 
                                        lg_h, lg_found, lg_frame, lg_n, ca_h0, 
@@ -7432,25 +7445,25 @@ ag_at_demote(self) == /\ pc[self] = "ag_at_demote"
                                                  dl_tc, dl_j, dl_found, dl_new, 
                                                  dl_old, dl_jj, dl_oldclass >>
                       /\ UNCHANGED << mem, held, results, inflight, rv, 
-                                      panicked, lastop, dp_why, tu_loc, tu_fn, 
-                                      tu_arg, tu_prev, tu_next, tu_done, tu_ok, 
-                                      tu_seen, lg_row, lg_order, lg_tree, 
-                                      lg_off, lg_j, lg_i, lg_h, lg_found, 
-                                      lg_frame, lg_n, ca_h0, ca_num, ca_cur, 
-                                      ca_new, ca_i, ca_ok, ca_seen, ca_j, sf_h, 
-                                      sf_start, sf_order, sf_i, sf_r, sf_found, 
-                                      sf_off, sf_nrows, sf_c, sf_k, sf_v, 
-                                      sf_zero, sf_ok, sf_seen, sf_u, tg_h, 
-                                      tg_off, tg_order, tg_exp, tg_ok, tg_i, 
-                                      tg_n, tg_seen, tg_u, tg_r0, la_frame, 
-                                      la_order, la_h, ps_frame, ps_order, 
-                                      lp_frame, lp_order, lp_h, lp_old, lp_ok, 
-                                      lp_seen, lp_spin, lp_v, tp_t, tp_n, 
-                                      tu2_t, tu2_free, tu2_class, gl_order, 
-                                      gl_class, gl_local, gl_frame, gl_sync, 
-                                      gl_row, gl_res, gl_min, gl_got, sg_i, 
-                                      sg_class, sg_order, sg_frame, sg_c, rs_i, 
-                                      rs_order, rs_class, rs_local, 
+                                      panicked, hid, lastop, dp_why, tu_loc, 
+                                      tu_fn, tu_arg, tu_prev, tu_next, tu_done, 
+                                      tu_ok, tu_seen, lg_row, lg_order, 
+                                      lg_tree, lg_off, lg_j, lg_i, lg_h, 
+                                      lg_found, lg_frame, lg_n, ca_h0, ca_num, 
+                                      ca_cur, ca_new, ca_i, ca_ok, ca_seen, 
+                                      ca_j, sf_h, sf_start, sf_order, sf_i, 
+                                      sf_r, sf_found, sf_off, sf_nrows, sf_c, 
+                                      sf_k, sf_v, sf_zero, sf_ok, sf_seen, 
+                                      sf_u, tg_h, tg_off, tg_order, tg_exp, 
+                                      tg_ok, tg_i, tg_n, tg_seen, tg_u, tg_r0, 
+                                      la_frame, la_order, la_h, ps_frame, 
+                                      ps_order, lp_frame, lp_order, lp_h, 
+                                      lp_old, lp_ok, lp_seen, lp_spin, lp_v, 
+                                      tp_t, tp_n, tu2_t, tu2_free, tu2_class, 
+                                      gl_order, gl_class, gl_local, gl_frame, 
+                                      gl_sync, gl_row, gl_res, gl_min, gl_got, 
+                                      sg_i, sg_class, sg_order, sg_frame, sg_c, 
+                                      rs_i, rs_order, rs_class, rs_local, 
                                       rs_reserved, rs_free, rs_tc, rs_frame, 
                                       rs_old, sb_n, sb_start, sb_offset, 
                                       sb_len, sb_mode, sb_order, sb_class, 
@@ -7480,7 +7493,7 @@ ag_at_ret(self) == /\ pc[self] = "ag_at_ret"
                    /\ ag_frame' = [ag_frame EXCEPT ![self] = Head(stack[self]).ag_frame]
                    /\ stack' = [stack EXCEPT ![self] = Tail(stack[self])]
                    /\ UNCHANGED << mem, held, results, inflight, rv, panicked, 
-                                   lastop, dp_why, tu_loc, tu_fn, tu_arg, 
+                                   hid, lastop, dp_why, tu_loc, tu_fn, tu_arg, 
                                    tu_prev, tu_next, tu_done, tu_ok, tu_seen, 
                                    lg_row, lg_order, lg_tree, lg_off, lg_j, 
                                    lg_i, lg_h, lg_found, lg_frame, lg_n, ca_h0, 
@@ -7545,7 +7558,7 @@ ag_oom1(self) == /\ pc[self] = "ag_oom1"
                                             sl_order, sl_frame, sl_i, sl_tc, 
                                             sl_j, sl_found, sl_row, sl_jj >>
                  /\ UNCHANGED << mem, held, results, inflight, rv, panicked, 
-                                 lastop, dp_why, tu_loc, tu_fn, tu_arg, 
+                                 hid, lastop, dp_why, tu_loc, tu_fn, tu_arg, 
                                  tu_prev, tu_next, tu_done, tu_ok, tu_seen, 
                                  lg_row, lg_order, lg_tree, lg_off, lg_j, lg_i, 
                                  lg_h, lg_found, lg_frame, lg_n, ca_h0, ca_num, 
@@ -7584,7 +7597,7 @@ ag_oom1_r(self) == /\ pc[self] = "ag_oom1_r"
                               /\ UNCHANGED ag_done
                    /\ pc' = [pc EXCEPT ![self] = "ag_oom2"]
                    /\ UNCHANGED << mem, held, results, inflight, rv, panicked, 
-                                   lastop, stack, dp_why, tu_loc, tu_fn, 
+                                   hid, lastop, stack, dp_why, tu_loc, tu_fn, 
                                    tu_arg, tu_prev, tu_next, tu_done, tu_ok, 
                                    tu_seen, lg_row, lg_order, lg_tree, lg_off, 
                                    lg_j, lg_i, lg_h, lg_found, lg_frame, lg_n, 
@@ -7656,7 +7669,7 @@ ag_oom2(self) == /\ pc[self] = "ag_oom2"
                                             dl_j, dl_found, dl_new, dl_old, 
                                             dl_jj, dl_oldclass >>
                  /\ UNCHANGED << mem, held, results, inflight, rv, panicked, 
-                                 lastop, dp_why, tu_loc, tu_fn, tu_arg, 
+                                 hid, lastop, dp_why, tu_loc, tu_fn, tu_arg, 
                                  tu_prev, tu_next, tu_done, tu_ok, tu_seen, 
                                  lg_row, lg_order, lg_tree, lg_off, lg_j, lg_i, 
                                  lg_h, lg_found, lg_frame, lg_n, ca_h0, ca_num, 
@@ -7700,10 +7713,10 @@ ag_ret(self) == /\ pc[self] = "ag_ret"
                 /\ ag_frame' = [ag_frame EXCEPT ![self] = Head(stack[self]).ag_frame]
                 /\ stack' = [stack EXCEPT ![self] = Tail(stack[self])]
                 /\ UNCHANGED << mem, held, results, inflight, rv, panicked, 
-                                lastop, dp_why, tu_loc, tu_fn, tu_arg, tu_prev, 
-                                tu_next, tu_done, tu_ok, tu_seen, lg_row, 
-                                lg_order, lg_tree, lg_off, lg_j, lg_i, lg_h, 
-                                lg_found, lg_frame, lg_n, ca_h0, ca_num, 
+                                hid, lastop, dp_why, tu_loc, tu_fn, tu_arg, 
+                                tu_prev, tu_next, tu_done, tu_ok, tu_seen, 
+                                lg_row, lg_order, lg_tree, lg_off, lg_j, lg_i, 
+                                lg_h, lg_found, lg_frame, lg_n, ca_h0, ca_num, 
                                 ca_cur, ca_new, ca_i, ca_ok, ca_seen, ca_j, 
                                 sf_h, sf_start, sf_order, sf_i, sf_r, sf_found, 
                                 sf_off, sf_nrows, sf_c, sf_k, sf_v, sf_zero, 
@@ -7738,8 +7751,8 @@ ag_at_local_r(self) == /\ pc[self] = "ag_at_local_r"
                                   /\ UNCHANGED ag_done
                        /\ pc' = [pc EXCEPT ![self] = "ag_at_global"]
                        /\ UNCHANGED << mem, held, results, inflight, rv, 
-                                       panicked, lastop, stack, dp_why, tu_loc, 
-                                       tu_fn, tu_arg, tu_prev, tu_next, 
+                                       panicked, hid, lastop, stack, dp_why, 
+                                       tu_loc, tu_fn, tu_arg, tu_prev, tu_next, 
                                        tu_done, tu_ok, tu_seen, lg_row, 
                                        lg_order, lg_tree, lg_off, lg_j, lg_i, 
                                        lg_h, lg_found, lg_frame, lg_n, ca_h0, 
@@ -7788,7 +7801,7 @@ ag_local_r(self) == /\ pc[self] = "ag_local_r"
                                /\ UNCHANGED ag_done
                     /\ pc' = [pc EXCEPT ![self] = "ag_reserve"]
                     /\ UNCHANGED << mem, held, results, inflight, rv, panicked, 
-                                    lastop, stack, dp_why, tu_loc, tu_fn, 
+                                    hid, lastop, stack, dp_why, tu_loc, tu_fn, 
                                     tu_arg, tu_prev, tu_next, tu_done, tu_ok, 
                                     tu_seen, lg_row, lg_order, lg_tree, lg_off, 
                                     lg_j, lg_i, lg_h, lg_found, lg_frame, lg_n, 
@@ -7880,7 +7893,7 @@ ag_reserve(self) == /\ pc[self] = "ag_reserve"
                                                sb_best, sb_done, sb_k, 
                                                ag_start, ag_near >>
                     /\ UNCHANGED << mem, held, results, inflight, rv, panicked, 
-                                    lastop, dp_why, tu_loc, tu_fn, tu_arg, 
+                                    hid, lastop, dp_why, tu_loc, tu_fn, tu_arg, 
                                     tu_prev, tu_next, tu_done, tu_ok, tu_seen, 
                                     lg_row, lg_order, lg_tree, lg_off, lg_j, 
                                     lg_i, lg_h, lg_found, lg_frame, lg_n, 
@@ -7956,7 +7969,7 @@ ag_global(self) == /\ pc[self] = "ag_global"
                                               sb_t, sb_p, sb_best, sb_done, 
                                               sb_k >>
                    /\ UNCHANGED << mem, held, results, inflight, rv, panicked, 
-                                   lastop, dp_why, tu_loc, tu_fn, tu_arg, 
+                                   hid, lastop, dp_why, tu_loc, tu_fn, tu_arg, 
                                    tu_prev, tu_next, tu_done, tu_ok, tu_seen, 
                                    lg_row, lg_order, lg_tree, lg_off, lg_j, 
                                    lg_i, lg_h, lg_found, lg_frame, lg_n, ca_h0, 
@@ -7996,31 +8009,32 @@ ag_global_r(self) == /\ pc[self] = "ag_global_r"
                                 /\ UNCHANGED ag_done
                      /\ pc' = [pc EXCEPT ![self] = "ag_oom1"]
                      /\ UNCHANGED << mem, held, results, inflight, rv, 
-                                     panicked, lastop, stack, dp_why, tu_loc, 
-                                     tu_fn, tu_arg, tu_prev, tu_next, tu_done, 
-                                     tu_ok, tu_seen, lg_row, lg_order, lg_tree, 
-                                     lg_off, lg_j, lg_i, lg_h, lg_found, 
-                                     lg_frame, lg_n, ca_h0, ca_num, ca_cur, 
-                                     ca_new, ca_i, ca_ok, ca_seen, ca_j, sf_h, 
-                                     sf_start, sf_order, sf_i, sf_r, sf_found, 
-                                     sf_off, sf_nrows, sf_c, sf_k, sf_v, 
-                                     sf_zero, sf_ok, sf_seen, sf_u, tg_h, 
-                                     tg_off, tg_order, tg_exp, tg_ok, tg_i, 
-                                     tg_n, tg_seen, tg_u, tg_r0, la_frame, 
-                                     la_order, la_h, ps_frame, ps_order, 
-                                     lp_frame, lp_order, lp_h, lp_old, lp_ok, 
-                                     lp_seen, lp_spin, lp_v, tp_t, tp_n, tu2_t, 
-                                     tu2_free, tu2_class, gl_order, gl_class, 
-                                     gl_local, gl_frame, gl_sync, gl_row, 
-                                     gl_res, gl_min, gl_got, sg_i, sg_class, 
-                                     sg_order, sg_frame, sg_c, rs_i, rs_order, 
-                                     rs_class, rs_local, rs_reserved, rs_free, 
-                                     rs_tc, rs_frame, rs_old, sb_n, sb_start, 
-                                     sb_offset, sb_len, sb_mode, sb_order, 
-                                     sb_class, sb_local, sb_i, sb_idx, sb_t, 
-                                     sb_p, sb_best, sb_done, sb_k, sl_class, 
-                                     sl_local, sl_order, sl_frame, sl_i, sl_tc, 
-                                     sl_j, sl_found, sl_row, sl_jj, dl_class, 
+                                     panicked, hid, lastop, stack, dp_why, 
+                                     tu_loc, tu_fn, tu_arg, tu_prev, tu_next, 
+                                     tu_done, tu_ok, tu_seen, lg_row, lg_order, 
+                                     lg_tree, lg_off, lg_j, lg_i, lg_h, 
+                                     lg_found, lg_frame, lg_n, ca_h0, ca_num, 
+                                     ca_cur, ca_new, ca_i, ca_ok, ca_seen, 
+                                     ca_j, sf_h, sf_start, sf_order, sf_i, 
+                                     sf_r, sf_found, sf_off, sf_nrows, sf_c, 
+                                     sf_k, sf_v, sf_zero, sf_ok, sf_seen, sf_u, 
+                                     tg_h, tg_off, tg_order, tg_exp, tg_ok, 
+                                     tg_i, tg_n, tg_seen, tg_u, tg_r0, 
+                                     la_frame, la_order, la_h, ps_frame, 
+                                     ps_order, lp_frame, lp_order, lp_h, 
+                                     lp_old, lp_ok, lp_seen, lp_spin, lp_v, 
+                                     tp_t, tp_n, tu2_t, tu2_free, tu2_class, 
+                                     gl_order, gl_class, gl_local, gl_frame, 
+                                     gl_sync, gl_row, gl_res, gl_min, gl_got, 
+                                     sg_i, sg_class, sg_order, sg_frame, sg_c, 
+                                     rs_i, rs_order, rs_class, rs_local, 
+                                     rs_reserved, rs_free, rs_tc, rs_frame, 
+                                     rs_old, sb_n, sb_start, sb_offset, sb_len, 
+                                     sb_mode, sb_order, sb_class, sb_local, 
+                                     sb_i, sb_idx, sb_t, sb_p, sb_best, 
+                                     sb_done, sb_k, sl_class, sl_local, 
+                                     sl_order, sl_frame, sl_i, sl_tc, sl_j, 
+                                     sl_found, sl_row, sl_jj, dl_class, 
                                      dl_local, dl_order, dl_frame, dl_i, dl_tc, 
                                      dl_j, dl_found, dl_new, dl_old, dl_jj, 
                                      dl_oldclass, ag_order, ag_class, ag_local, 
@@ -8040,7 +8054,7 @@ ag_near_r(self) == /\ pc[self] = "ag_near_r"
                               /\ UNCHANGED ag_done
                    /\ pc' = [pc EXCEPT ![self] = "ag_global"]
                    /\ UNCHANGED << mem, held, results, inflight, rv, panicked, 
-                                   lastop, stack, dp_why, tu_loc, tu_fn, 
+                                   hid, lastop, stack, dp_why, tu_loc, tu_fn, 
                                    tu_arg, tu_prev, tu_next, tu_done, tu_ok, 
                                    tu_seen, lg_row, lg_order, lg_tree, lg_off, 
                                    lg_j, lg_i, lg_h, lg_found, lg_frame, lg_n, 
@@ -8083,7 +8097,7 @@ ag_steal_r(self) == /\ pc[self] = "ag_steal_r"
                                /\ UNCHANGED ag_done
                     /\ pc' = [pc EXCEPT ![self] = "ag_oom1"]
                     /\ UNCHANGED << mem, held, results, inflight, rv, panicked, 
-                                    lastop, stack, dp_why, tu_loc, tu_fn, 
+                                    hid, lastop, stack, dp_why, tu_loc, tu_fn, 
                                     tu_arg, tu_prev, tu_next, tu_done, tu_ok, 
                                     tu_seen, lg_row, lg_order, lg_tree, lg_off, 
                                     lg_j, lg_i, lg_h, lg_found, lg_frame, lg_n, 
@@ -8161,7 +8175,7 @@ ap_begin(self) == /\ pc[self] = "ap_begin"
                              /\ pc' = [pc EXCEPT ![self] = "lp_begin"]
                              /\ UNCHANGED << rv, ap_frame, ap_order, ap_class, 
                                              ap_local >>
-                  /\ UNCHANGED << mem, held, results, inflight, panicked, 
+                  /\ UNCHANGED << mem, held, results, inflight, panicked, hid, 
                                   lastop, dp_why, tu_loc, tu_fn, tu_arg, 
                                   tu_prev, tu_next, tu_done, tu_ok, tu_seen, 
                                   lg_row, lg_order, lg_tree, lg_off, lg_j, 
@@ -8235,13 +8249,13 @@ ap_lower_r(self) == /\ pc[self] = "ap_lower_r"
                                /\ UNCHANGED << rv, ap_frame, ap_order, 
                                                ap_class, ap_local >>
                     /\ UNCHANGED << mem, held, results, inflight, panicked, 
-                                    lastop, dp_why, lg_row, lg_order, lg_tree, 
-                                    lg_off, lg_j, lg_i, lg_h, lg_found, 
-                                    lg_frame, lg_n, ca_h0, ca_num, ca_cur, 
-                                    ca_new, ca_i, ca_ok, ca_seen, ca_j, sf_h, 
-                                    sf_start, sf_order, sf_i, sf_r, sf_found, 
-                                    sf_off, sf_nrows, sf_c, sf_k, sf_v, 
-                                    sf_zero, sf_ok, sf_seen, sf_u, tg_h, 
+                                    hid, lastop, dp_why, lg_row, lg_order, 
+                                    lg_tree, lg_off, lg_j, lg_i, lg_h, 
+                                    lg_found, lg_frame, lg_n, ca_h0, ca_num, 
+                                    ca_cur, ca_new, ca_i, ca_ok, ca_seen, ca_j, 
+                                    sf_h, sf_start, sf_order, sf_i, sf_r, 
+                                    sf_found, sf_off, sf_nrows, sf_c, sf_k, 
+                                    sf_v, sf_zero, sf_ok, sf_seen, sf_u, tg_h, 
                                     tg_off, tg_order, tg_exp, tg_ok, tg_i, 
                                     tg_n, tg_seen, tg_u, tg_r0, la_frame, 
                                     la_order, la_h, ps_frame, ps_order, 
@@ -8279,7 +8293,7 @@ ap_global(self) == /\ pc[self] = "ap_global"
                       /\ tp_t' = [tp_t EXCEPT ![self] = TreeOfFrame(ap_frame[self])]
                    /\ pc' = [pc EXCEPT ![self] = "tp_begin"]
                    /\ UNCHANGED << mem, held, results, inflight, rv, panicked, 
-                                   lastop, dp_why, tu_loc, tu_fn, tu_arg, 
+                                   hid, lastop, dp_why, tu_loc, tu_fn, tu_arg, 
                                    tu_prev, tu_next, tu_done, tu_ok, tu_seen, 
                                    lg_row, lg_order, lg_tree, lg_off, lg_j, 
                                    lg_i, lg_h, lg_found, lg_frame, lg_n, ca_h0, 
@@ -8323,20 +8337,20 @@ ap_global_r(self) == /\ pc[self] = "ap_global_r"
                      /\ ap_local' = [ap_local EXCEPT ![self] = Head(stack[self]).ap_local]
                      /\ stack' = [stack EXCEPT ![self] = Tail(stack[self])]
                      /\ UNCHANGED << mem, held, results, inflight, panicked, 
-                                     lastop, dp_why, tu_loc, tu_fn, tu_arg, 
-                                     tu_prev, tu_next, tu_done, tu_ok, tu_seen, 
-                                     lg_row, lg_order, lg_tree, lg_off, lg_j, 
-                                     lg_i, lg_h, lg_found, lg_frame, lg_n, 
-                                     ca_h0, ca_num, ca_cur, ca_new, ca_i, 
-                                     ca_ok, ca_seen, ca_j, sf_h, sf_start, 
-                                     sf_order, sf_i, sf_r, sf_found, sf_off, 
-                                     sf_nrows, sf_c, sf_k, sf_v, sf_zero, 
-                                     sf_ok, sf_seen, sf_u, tg_h, tg_off, 
-                                     tg_order, tg_exp, tg_ok, tg_i, tg_n, 
-                                     tg_seen, tg_u, tg_r0, la_frame, la_order, 
-                                     la_h, ps_frame, ps_order, lp_frame, 
-                                     lp_order, lp_h, lp_old, lp_ok, lp_seen, 
-                                     lp_spin, lp_v, tp_t, tp_n, tu2_t, 
+                                     hid, lastop, dp_why, tu_loc, tu_fn, 
+                                     tu_arg, tu_prev, tu_next, tu_done, tu_ok, 
+                                     tu_seen, lg_row, lg_order, lg_tree, 
+                                     lg_off, lg_j, lg_i, lg_h, lg_found, 
+                                     lg_frame, lg_n, ca_h0, ca_num, ca_cur, 
+                                     ca_new, ca_i, ca_ok, ca_seen, ca_j, sf_h, 
+                                     sf_start, sf_order, sf_i, sf_r, sf_found, 
+                                     sf_off, sf_nrows, sf_c, sf_k, sf_v, 
+                                     sf_zero, sf_ok, sf_seen, sf_u, tg_h, 
+                                     tg_off, tg_order, tg_exp, tg_ok, tg_i, 
+                                     tg_n, tg_seen, tg_u, tg_r0, la_frame, 
+                                     la_order, la_h, ps_frame, ps_order, 
+                                     lp_frame, lp_order, lp_h, lp_old, lp_ok, 
+                                     lp_seen, lp_spin, lp_v, tp_t, tp_n, tu2_t, 
                                      tu2_free, tu2_class, gl_order, gl_class, 
                                      gl_local, gl_frame, gl_sync, gl_row, 
                                      gl_res, gl_min, gl_got, sg_i, sg_class, 
@@ -8372,7 +8386,7 @@ ap_local_r(self) == /\ pc[self] = "ap_local_r"
                                /\ UNCHANGED << rv, stack, ap_frame, ap_order, 
                                                ap_class, ap_local >>
                     /\ UNCHANGED << mem, held, results, inflight, panicked, 
-                                    lastop, dp_why, tu_loc, tu_fn, tu_arg, 
+                                    hid, lastop, dp_why, tu_loc, tu_fn, tu_arg, 
                                     tu_prev, tu_next, tu_done, tu_ok, tu_seen, 
                                     lg_row, lg_order, lg_tree, lg_off, lg_j, 
                                     lg_i, lg_h, lg_found, lg_frame, lg_n, 
@@ -8415,31 +8429,31 @@ ad_begin(self) == /\ pc[self] = "ad_begin"
                   /\ ad_c' = [ad_c EXCEPT ![self] = 0]
                   /\ pc' = [pc EXCEPT ![self] = "ad_classes"]
                   /\ UNCHANGED << mem, held, results, inflight, rv, panicked, 
-                                  lastop, stack, dp_why, tu_loc, tu_fn, tu_arg, 
-                                  tu_prev, tu_next, tu_done, tu_ok, tu_seen, 
-                                  lg_row, lg_order, lg_tree, lg_off, lg_j, 
-                                  lg_i, lg_h, lg_found, lg_frame, lg_n, ca_h0, 
-                                  ca_num, ca_cur, ca_new, ca_i, ca_ok, ca_seen, 
-                                  ca_j, sf_h, sf_start, sf_order, sf_i, sf_r, 
-                                  sf_found, sf_off, sf_nrows, sf_c, sf_k, sf_v, 
-                                  sf_zero, sf_ok, sf_seen, sf_u, tg_h, tg_off, 
-                                  tg_order, tg_exp, tg_ok, tg_i, tg_n, tg_seen, 
-                                  tg_u, tg_r0, la_frame, la_order, la_h, 
-                                  ps_frame, ps_order, lp_frame, lp_order, lp_h, 
-                                  lp_old, lp_ok, lp_seen, lp_spin, lp_v, tp_t, 
-                                  tp_n, tu2_t, tu2_free, tu2_class, gl_order, 
-                                  gl_class, gl_local, gl_frame, gl_sync, 
-                                  gl_row, gl_res, gl_min, gl_got, sg_i, 
-                                  sg_class, sg_order, sg_frame, sg_c, rs_i, 
-                                  rs_order, rs_class, rs_local, rs_reserved, 
-                                  rs_free, rs_tc, rs_frame, rs_old, sb_n, 
-                                  sb_start, sb_offset, sb_len, sb_mode, 
-                                  sb_order, sb_class, sb_local, sb_i, sb_idx, 
-                                  sb_t, sb_p, sb_best, sb_done, sb_k, sl_class, 
-                                  sl_local, sl_order, sl_frame, sl_i, sl_tc, 
-                                  sl_j, sl_found, sl_row, sl_jj, dl_class, 
-                                  dl_local, dl_order, dl_frame, dl_i, dl_tc, 
-                                  dl_j, dl_found, dl_new, dl_old, dl_jj, 
+                                  hid, lastop, stack, dp_why, tu_loc, tu_fn, 
+                                  tu_arg, tu_prev, tu_next, tu_done, tu_ok, 
+                                  tu_seen, lg_row, lg_order, lg_tree, lg_off, 
+                                  lg_j, lg_i, lg_h, lg_found, lg_frame, lg_n, 
+                                  ca_h0, ca_num, ca_cur, ca_new, ca_i, ca_ok, 
+                                  ca_seen, ca_j, sf_h, sf_start, sf_order, 
+                                  sf_i, sf_r, sf_found, sf_off, sf_nrows, sf_c, 
+                                  sf_k, sf_v, sf_zero, sf_ok, sf_seen, sf_u, 
+                                  tg_h, tg_off, tg_order, tg_exp, tg_ok, tg_i, 
+                                  tg_n, tg_seen, tg_u, tg_r0, la_frame, 
+                                  la_order, la_h, ps_frame, ps_order, lp_frame, 
+                                  lp_order, lp_h, lp_old, lp_ok, lp_seen, 
+                                  lp_spin, lp_v, tp_t, tp_n, tu2_t, tu2_free, 
+                                  tu2_class, gl_order, gl_class, gl_local, 
+                                  gl_frame, gl_sync, gl_row, gl_res, gl_min, 
+                                  gl_got, sg_i, sg_class, sg_order, sg_frame, 
+                                  sg_c, rs_i, rs_order, rs_class, rs_local, 
+                                  rs_reserved, rs_free, rs_tc, rs_frame, 
+                                  rs_old, sb_n, sb_start, sb_offset, sb_len, 
+                                  sb_mode, sb_order, sb_class, sb_local, sb_i, 
+                                  sb_idx, sb_t, sb_p, sb_best, sb_done, sb_k, 
+                                  sl_class, sl_local, sl_order, sl_frame, sl_i, 
+                                  sl_tc, sl_j, sl_found, sl_row, sl_jj, 
+                                  dl_class, dl_local, dl_order, dl_frame, dl_i, 
+                                  dl_tc, dl_j, dl_found, dl_new, dl_old, dl_jj, 
                                   dl_oldclass, ag_order, ag_class, ag_local, 
                                   ag_frame, ag_len, ag_start, ag_near, ag_done, 
                                   ap_frame, ap_order, ap_class, ap_local, ad_k, 
@@ -8461,7 +8475,7 @@ ad_classes(self) == /\ pc[self] = "ad_classes"
                                /\ ad_old' = [ad_old EXCEPT ![self] = Head(stack[self]).ad_old]
                                /\ stack' = [stack EXCEPT ![self] = Tail(stack[self])]
                     /\ UNCHANGED << mem, held, results, inflight, panicked, 
-                                    lastop, dp_why, tu_loc, tu_fn, tu_arg, 
+                                    hid, lastop, dp_why, tu_loc, tu_fn, tu_arg, 
                                     tu_prev, tu_next, tu_done, tu_ok, tu_seen, 
                                     lg_row, lg_order, lg_tree, lg_off, lg_j, 
                                     lg_i, lg_h, lg_found, lg_frame, lg_n, 
@@ -8522,7 +8536,7 @@ ad_slots(self) == /\ pc[self] = "ad_slots"
                              /\ pc' = [pc EXCEPT ![self] = "ad_classes"]
                              /\ UNCHANGED << mem, lastop, stack, tu2_t, 
                                              tu2_free, tu2_class, ad_old >>
-                  /\ UNCHANGED << held, results, inflight, rv, panicked, 
+                  /\ UNCHANGED << held, results, inflight, rv, panicked, hid, 
                                   dp_why, tu_loc, tu_fn, tu_arg, tu_prev, 
                                   tu_next, tu_done, tu_ok, tu_seen, lg_row, 
                                   lg_order, lg_tree, lg_off, lg_j, lg_i, lg_h, 
@@ -8560,39 +8574,39 @@ ad_next(self) == /\ pc[self] = "ad_next"
                  /\ ad_k' = [ad_k EXCEPT ![self] = ad_k[self] + 1]
                  /\ pc' = [pc EXCEPT ![self] = "ad_slots"]
                  /\ UNCHANGED << mem, held, results, inflight, rv, panicked, 
-                                 lastop, stack, dp_why, tu_loc, tu_fn, tu_arg, 
-                                 tu_prev, tu_next, tu_done, tu_ok, tu_seen, 
-                                 lg_row, lg_order, lg_tree, lg_off, lg_j, lg_i, 
-                                 lg_h, lg_found, lg_frame, lg_n, ca_h0, ca_num, 
-                                 ca_cur, ca_new, ca_i, ca_ok, ca_seen, ca_j, 
-                                 sf_h, sf_start, sf_order, sf_i, sf_r, 
-                                 sf_found, sf_off, sf_nrows, sf_c, sf_k, sf_v, 
-                                 sf_zero, sf_ok, sf_seen, sf_u, tg_h, tg_off, 
-                                 tg_order, tg_exp, tg_ok, tg_i, tg_n, tg_seen, 
-                                 tg_u, tg_r0, la_frame, la_order, la_h, 
-                                 ps_frame, ps_order, lp_frame, lp_order, lp_h, 
-                                 lp_old, lp_ok, lp_seen, lp_spin, lp_v, tp_t, 
-                                 tp_n, tu2_t, tu2_free, tu2_class, gl_order, 
-                                 gl_class, gl_local, gl_frame, gl_sync, gl_row, 
-                                 gl_res, gl_min, gl_got, sg_i, sg_class, 
-                                 sg_order, sg_frame, sg_c, rs_i, rs_order, 
-                                 rs_class, rs_local, rs_reserved, rs_free, 
-                                 rs_tc, rs_frame, rs_old, sb_n, sb_start, 
-                                 sb_offset, sb_len, sb_mode, sb_order, 
-                                 sb_class, sb_local, sb_i, sb_idx, sb_t, sb_p, 
-                                 sb_best, sb_done, sb_k, sl_class, sl_local, 
-                                 sl_order, sl_frame, sl_i, sl_tc, sl_j, 
-                                 sl_found, sl_row, sl_jj, dl_class, dl_local, 
-                                 dl_order, dl_frame, dl_i, dl_tc, dl_j, 
-                                 dl_found, dl_new, dl_old, dl_jj, dl_oldclass, 
-                                 ag_order, ag_class, ag_local, ag_frame, 
-                                 ag_len, ag_start, ag_near, ag_done, ap_frame, 
-                                 ap_order, ap_class, ap_local, ad_c, ad_old, 
-                                 cg_t, cg_mclass, cg_mfree, cg_cclass, cg_cop, 
-                                 cg_prev, cg_done, cg_fetched, cg_h, cg_v, 
-                                 cg_next, cg_ok, cg_seen, ac_id, ac_mclass, 
-                                 ac_mfree, ac_cclass, ac_cop, ac_i, ac_done, 
-                                 pcx, cur, blk >>
+                                 hid, lastop, stack, dp_why, tu_loc, tu_fn, 
+                                 tu_arg, tu_prev, tu_next, tu_done, tu_ok, 
+                                 tu_seen, lg_row, lg_order, lg_tree, lg_off, 
+                                 lg_j, lg_i, lg_h, lg_found, lg_frame, lg_n, 
+                                 ca_h0, ca_num, ca_cur, ca_new, ca_i, ca_ok, 
+                                 ca_seen, ca_j, sf_h, sf_start, sf_order, sf_i, 
+                                 sf_r, sf_found, sf_off, sf_nrows, sf_c, sf_k, 
+                                 sf_v, sf_zero, sf_ok, sf_seen, sf_u, tg_h, 
+                                 tg_off, tg_order, tg_exp, tg_ok, tg_i, tg_n, 
+                                 tg_seen, tg_u, tg_r0, la_frame, la_order, 
+                                 la_h, ps_frame, ps_order, lp_frame, lp_order, 
+                                 lp_h, lp_old, lp_ok, lp_seen, lp_spin, lp_v, 
+                                 tp_t, tp_n, tu2_t, tu2_free, tu2_class, 
+                                 gl_order, gl_class, gl_local, gl_frame, 
+                                 gl_sync, gl_row, gl_res, gl_min, gl_got, sg_i, 
+                                 sg_class, sg_order, sg_frame, sg_c, rs_i, 
+                                 rs_order, rs_class, rs_local, rs_reserved, 
+                                 rs_free, rs_tc, rs_frame, rs_old, sb_n, 
+                                 sb_start, sb_offset, sb_len, sb_mode, 
+                                 sb_order, sb_class, sb_local, sb_i, sb_idx, 
+                                 sb_t, sb_p, sb_best, sb_done, sb_k, sl_class, 
+                                 sl_local, sl_order, sl_frame, sl_i, sl_tc, 
+                                 sl_j, sl_found, sl_row, sl_jj, dl_class, 
+                                 dl_local, dl_order, dl_frame, dl_i, dl_tc, 
+                                 dl_j, dl_found, dl_new, dl_old, dl_jj, 
+                                 dl_oldclass, ag_order, ag_class, ag_local, 
+                                 ag_frame, ag_len, ag_start, ag_near, ag_done, 
+                                 ap_frame, ap_order, ap_class, ap_local, ad_c, 
+                                 ad_old, cg_t, cg_mclass, cg_mfree, cg_cclass, 
+                                 cg_cop, cg_prev, cg_done, cg_fetched, cg_h, 
+                                 cg_v, cg_next, cg_ok, cg_seen, ac_id, 
+                                 ac_mclass, ac_mfree, ac_cclass, ac_cop, ac_i, 
+                                 ac_done, pcx, cur, blk >>
 
 api_drain(self) == ad_begin(self) \/ ad_classes(self) \/ ad_slots(self)
                       \/ ad_next(self)
@@ -8603,10 +8617,10 @@ cg_load(self) == /\ pc[self] = "cg_load"
                  /\ cg_done' = [cg_done EXCEPT ![self] = FALSE]
                  /\ pc' = [pc EXCEPT ![self] = "cg_loop"]
                  /\ UNCHANGED << mem, held, results, inflight, rv, panicked, 
-                                 stack, dp_why, tu_loc, tu_fn, tu_arg, tu_prev, 
-                                 tu_next, tu_done, tu_ok, tu_seen, lg_row, 
-                                 lg_order, lg_tree, lg_off, lg_j, lg_i, lg_h, 
-                                 lg_found, lg_frame, lg_n, ca_h0, ca_num, 
+                                 hid, stack, dp_why, tu_loc, tu_fn, tu_arg, 
+                                 tu_prev, tu_next, tu_done, tu_ok, tu_seen, 
+                                 lg_row, lg_order, lg_tree, lg_off, lg_j, lg_i, 
+                                 lg_h, lg_found, lg_frame, lg_n, ca_h0, ca_num, 
                                  ca_cur, ca_new, ca_i, ca_ok, ca_seen, ca_j, 
                                  sf_h, sf_start, sf_order, sf_i, sf_r, 
                                  sf_found, sf_off, sf_nrows, sf_c, sf_k, sf_v, 
@@ -8666,7 +8680,7 @@ cg_loop(self) == /\ pc[self] = "cg_loop"
                             /\ cg_cop' = [cg_cop EXCEPT ![self] = Head(stack[self]).cg_cop]
                             /\ stack' = [stack EXCEPT ![self] = Tail(stack[self])]
                  /\ UNCHANGED << mem, held, results, inflight, rv, panicked, 
-                                 lastop, dp_why, tu_loc, tu_fn, tu_arg, 
+                                 hid, lastop, dp_why, tu_loc, tu_fn, tu_arg, 
                                  tu_prev, tu_next, tu_done, tu_ok, tu_seen, 
                                  lg_row, lg_order, lg_tree, lg_off, lg_j, lg_i, 
                                  lg_h, lg_found, lg_frame, lg_n, ca_h0, ca_num, 
@@ -8702,7 +8716,7 @@ cg_cas(self) == /\ pc[self] = "cg_cas"
                 /\ IF ~IsSome(cg_next'[self])
                       THEN /\ rv' = [rv EXCEPT ![self] = [ok |-> FALSE, err |-> "mem"]]
                            /\ cg_done' = [cg_done EXCEPT ![self] = TRUE]
-                           /\ UNCHANGED << mem, lastop, cg_prev, cg_ok, 
+                           /\ UNCHANGED << mem, hid, lastop, cg_prev, cg_ok, 
                                            cg_seen >>
                       ELSE /\ IF mem[(Tree(cg_t[self]))] = cg_prev[self]
                                  THEN /\ cg_ok' = [cg_ok EXCEPT ![self] = TRUE]
@@ -8716,9 +8730,15 @@ cg_cas(self) == /\ pc[self] = "cg_cas"
                            /\ IF cg_ok'[self]
                                  THEN /\ rv' = [rv EXCEPT ![self] = [ok |-> TRUE, err |-> ""]]
                                       /\ cg_done' = [cg_done EXCEPT ![self] = TRUE]
+                                      /\ IF cg_cop[self] = 2
+                                            THEN /\ hid' = [hid EXCEPT ![cg_t[self]] = hid[cg_t[self]] + cg_prev[self].free]
+                                            ELSE /\ IF cg_cop[self] = 1
+                                                       THEN /\ hid' = [hid EXCEPT ![cg_t[self]] = 0]
+                                                       ELSE /\ TRUE
+                                                            /\ hid' = hid
                                       /\ UNCHANGED cg_prev
                                  ELSE /\ cg_prev' = [cg_prev EXCEPT ![self] = cg_seen'[self]]
-                                      /\ UNCHANGED << rv, cg_done >>
+                                      /\ UNCHANGED << rv, hid, cg_done >>
                 /\ pc' = [pc EXCEPT ![self] = "cg_loop"]
                 /\ UNCHANGED << held, results, inflight, panicked, stack, 
                                 dp_why, tu_loc, tu_fn, tu_arg, tu_prev, 
@@ -8763,7 +8783,7 @@ cg_fetch(self) == /\ pc[self] = "cg_fetch"
                         ELSE /\ pc' = [pc EXCEPT ![self] = "cg_cas"]
                              /\ UNCHANGED << lastop, cg_fetched, cg_h, cg_v >>
                   /\ UNCHANGED << mem, held, results, inflight, rv, panicked, 
-                                  stack, dp_why, tu_loc, tu_fn, tu_arg, 
+                                  hid, stack, dp_why, tu_loc, tu_fn, tu_arg, 
                                   tu_prev, tu_next, tu_done, tu_ok, tu_seen, 
                                   lg_row, lg_order, lg_tree, lg_off, lg_j, 
                                   lg_i, lg_h, lg_found, lg_frame, lg_n, ca_h0, 
@@ -8861,7 +8881,7 @@ ac_begin(self) == /\ pc[self] = "ac_begin"
                                              cg_h, cg_v, cg_next, cg_ok, 
                                              cg_seen, ac_id, ac_mclass, 
                                              ac_mfree, ac_cclass, ac_cop >>
-                  /\ UNCHANGED << mem, held, results, inflight, panicked, 
+                  /\ UNCHANGED << mem, held, results, inflight, panicked, hid, 
                                   lastop, dp_why, tu_loc, tu_fn, tu_arg, 
                                   tu_prev, tu_next, tu_done, tu_ok, tu_seen, 
                                   lg_row, lg_order, lg_tree, lg_off, lg_j, 
@@ -8943,7 +8963,7 @@ ac_search(self) == /\ pc[self] = "ac_search"
                                               cg_cclass, cg_cop, cg_prev, 
                                               cg_done, cg_fetched, cg_h, cg_v, 
                                               cg_next, cg_ok, cg_seen >>
-                   /\ UNCHANGED << mem, held, results, inflight, panicked, 
+                   /\ UNCHANGED << mem, held, results, inflight, panicked, hid, 
                                    lastop, dp_why, tu_loc, tu_fn, tu_arg, 
                                    tu_prev, tu_next, tu_done, tu_ok, tu_seen, 
                                    lg_row, lg_order, lg_tree, lg_off, lg_j, 
@@ -8983,31 +9003,32 @@ ac_search_r(self) == /\ pc[self] = "ac_search_r"
                                 /\ UNCHANGED ac_done
                      /\ pc' = [pc EXCEPT ![self] = "ac_search"]
                      /\ UNCHANGED << mem, held, results, inflight, rv, 
-                                     panicked, lastop, stack, dp_why, tu_loc, 
-                                     tu_fn, tu_arg, tu_prev, tu_next, tu_done, 
-                                     tu_ok, tu_seen, lg_row, lg_order, lg_tree, 
-                                     lg_off, lg_j, lg_i, lg_h, lg_found, 
-                                     lg_frame, lg_n, ca_h0, ca_num, ca_cur, 
-                                     ca_new, ca_i, ca_ok, ca_seen, ca_j, sf_h, 
-                                     sf_start, sf_order, sf_i, sf_r, sf_found, 
-                                     sf_off, sf_nrows, sf_c, sf_k, sf_v, 
-                                     sf_zero, sf_ok, sf_seen, sf_u, tg_h, 
-                                     tg_off, tg_order, tg_exp, tg_ok, tg_i, 
-                                     tg_n, tg_seen, tg_u, tg_r0, la_frame, 
-                                     la_order, la_h, ps_frame, ps_order, 
-                                     lp_frame, lp_order, lp_h, lp_old, lp_ok, 
-                                     lp_seen, lp_spin, lp_v, tp_t, tp_n, tu2_t, 
-                                     tu2_free, tu2_class, gl_order, gl_class, 
-                                     gl_local, gl_frame, gl_sync, gl_row, 
-                                     gl_res, gl_min, gl_got, sg_i, sg_class, 
-                                     sg_order, sg_frame, sg_c, rs_i, rs_order, 
-                                     rs_class, rs_local, rs_reserved, rs_free, 
-                                     rs_tc, rs_frame, rs_old, sb_n, sb_start, 
-                                     sb_offset, sb_len, sb_mode, sb_order, 
-                                     sb_class, sb_local, sb_i, sb_idx, sb_t, 
-                                     sb_p, sb_best, sb_done, sb_k, sl_class, 
-                                     sl_local, sl_order, sl_frame, sl_i, sl_tc, 
-                                     sl_j, sl_found, sl_row, sl_jj, dl_class, 
+                                     panicked, hid, lastop, stack, dp_why, 
+                                     tu_loc, tu_fn, tu_arg, tu_prev, tu_next, 
+                                     tu_done, tu_ok, tu_seen, lg_row, lg_order, 
+                                     lg_tree, lg_off, lg_j, lg_i, lg_h, 
+                                     lg_found, lg_frame, lg_n, ca_h0, ca_num, 
+                                     ca_cur, ca_new, ca_i, ca_ok, ca_seen, 
+                                     ca_j, sf_h, sf_start, sf_order, sf_i, 
+                                     sf_r, sf_found, sf_off, sf_nrows, sf_c, 
+                                     sf_k, sf_v, sf_zero, sf_ok, sf_seen, sf_u, 
+                                     tg_h, tg_off, tg_order, tg_exp, tg_ok, 
+                                     tg_i, tg_n, tg_seen, tg_u, tg_r0, 
+                                     la_frame, la_order, la_h, ps_frame, 
+                                     ps_order, lp_frame, lp_order, lp_h, 
+                                     lp_old, lp_ok, lp_seen, lp_spin, lp_v, 
+                                     tp_t, tp_n, tu2_t, tu2_free, tu2_class, 
+                                     gl_order, gl_class, gl_local, gl_frame, 
+                                     gl_sync, gl_row, gl_res, gl_min, gl_got, 
+                                     sg_i, sg_class, sg_order, sg_frame, sg_c, 
+                                     rs_i, rs_order, rs_class, rs_local, 
+                                     rs_reserved, rs_free, rs_tc, rs_frame, 
+                                     rs_old, sb_n, sb_start, sb_offset, sb_len, 
+                                     sb_mode, sb_order, sb_class, sb_local, 
+                                     sb_i, sb_idx, sb_t, sb_p, sb_best, 
+                                     sb_done, sb_k, sl_class, sl_local, 
+                                     sl_order, sl_frame, sl_i, sl_tc, sl_j, 
+                                     sl_found, sl_row, sl_jj, dl_class, 
                                      dl_local, dl_order, dl_frame, dl_i, dl_tc, 
                                      dl_j, dl_found, dl_new, dl_old, dl_jj, 
                                      dl_oldclass, ag_order, ag_class, ag_local, 
@@ -9031,7 +9052,7 @@ ac_id_r(self) == /\ pc[self] = "ac_id_r"
                  /\ ac_cop' = [ac_cop EXCEPT ![self] = Head(stack[self]).ac_cop]
                  /\ stack' = [stack EXCEPT ![self] = Tail(stack[self])]
                  /\ UNCHANGED << mem, held, results, inflight, rv, panicked, 
-                                 lastop, dp_why, tu_loc, tu_fn, tu_arg, 
+                                 hid, lastop, dp_why, tu_loc, tu_fn, tu_arg, 
                                  tu_prev, tu_next, tu_done, tu_ok, tu_seen, 
                                  lg_row, lg_order, lg_tree, lg_off, lg_j, lg_i, 
                                  lg_h, lg_found, lg_frame, lg_n, ca_h0, ca_num, 
@@ -9220,44 +9241,11 @@ t_loop(self) == /\ pc[self] = "t_loop"
                                            ap_local, ad_c, ad_k, ad_old, ac_id, 
                                            ac_mclass, ac_mfree, ac_cclass, 
                                            ac_cop, ac_i, ac_done, cur, blk >>
-                /\ UNCHANGED << mem, results, rv, panicked, lastop, dp_why, 
-                                tu_loc, tu_fn, tu_arg, tu_prev, tu_next, 
-                                tu_done, tu_ok, tu_seen, lg_row, lg_order, 
-                                lg_tree, lg_off, lg_j, lg_i, lg_h, lg_found, 
-                                lg_frame, lg_n, ca_h0, ca_num, ca_cur, ca_new, 
-                                ca_i, ca_ok, ca_seen, ca_j, sf_h, sf_start, 
-                                sf_order, sf_i, sf_r, sf_found, sf_off, 
-                                sf_nrows, sf_c, sf_k, sf_v, sf_zero, sf_ok, 
-                                sf_seen, sf_u, tg_h, tg_off, tg_order, tg_exp, 
-                                tg_ok, tg_i, tg_n, tg_seen, tg_u, tg_r0, 
-                                la_frame, la_order, la_h, ps_frame, ps_order, 
-                                lp_frame, lp_order, lp_h, lp_old, lp_ok, 
-                                lp_seen, lp_spin, lp_v, tp_t, tp_n, tu2_t, 
-                                tu2_free, tu2_class, gl_order, gl_class, 
-                                gl_local, gl_frame, gl_sync, gl_row, gl_res, 
-                                gl_min, gl_got, sg_i, sg_class, sg_order, 
-                                sg_frame, sg_c, rs_i, rs_order, rs_class, 
-                                rs_local, rs_reserved, rs_free, rs_tc, 
-                                rs_frame, rs_old, sb_n, sb_start, sb_offset, 
-                                sb_len, sb_mode, sb_order, sb_class, sb_local, 
-                                sb_i, sb_idx, sb_t, sb_p, sb_best, sb_done, 
-                                sb_k, sl_class, sl_local, sl_order, sl_frame, 
-                                sl_i, sl_tc, sl_j, sl_found, sl_row, sl_jj, 
-                                dl_class, dl_local, dl_order, dl_frame, dl_i, 
-                                dl_tc, dl_j, dl_found, dl_new, dl_old, dl_jj, 
-                                dl_oldclass, cg_t, cg_mclass, cg_mfree, 
-                                cg_cclass, cg_cop, cg_prev, cg_done, 
-                                cg_fetched, cg_h, cg_v, cg_next, cg_ok, 
-                                cg_seen, pcx >>
-
-t_next(self) == /\ pc[self] = "t_next"
-                /\ pcx' = [pcx EXCEPT ![self] = pcx[self] + 1]
-                /\ pc' = [pc EXCEPT ![self] = "t_loop"]
-                /\ UNCHANGED << mem, held, results, inflight, rv, panicked, 
-                                lastop, stack, dp_why, tu_loc, tu_fn, tu_arg, 
-                                tu_prev, tu_next, tu_done, tu_ok, tu_seen, 
-                                lg_row, lg_order, lg_tree, lg_off, lg_j, lg_i, 
-                                lg_h, lg_found, lg_frame, lg_n, ca_h0, ca_num, 
+                /\ UNCHANGED << mem, results, rv, panicked, hid, lastop, 
+                                dp_why, tu_loc, tu_fn, tu_arg, tu_prev, 
+                                tu_next, tu_done, tu_ok, tu_seen, lg_row, 
+                                lg_order, lg_tree, lg_off, lg_j, lg_i, lg_h, 
+                                lg_found, lg_frame, lg_n, ca_h0, ca_num, 
                                 ca_cur, ca_new, ca_i, ca_ok, ca_seen, ca_j, 
                                 sf_h, sf_start, sf_order, sf_i, sf_r, sf_found, 
                                 sf_off, sf_nrows, sf_c, sf_k, sf_v, sf_zero, 
@@ -9278,11 +9266,44 @@ t_next(self) == /\ pc[self] = "t_next"
                                 sl_i, sl_tc, sl_j, sl_found, sl_row, sl_jj, 
                                 dl_class, dl_local, dl_order, dl_frame, dl_i, 
                                 dl_tc, dl_j, dl_found, dl_new, dl_old, dl_jj, 
-                                dl_oldclass, ag_order, ag_class, ag_local, 
-                                ag_frame, ag_len, ag_start, ag_near, ag_done, 
-                                ap_frame, ap_order, ap_class, ap_local, ad_c, 
-                                ad_k, ad_old, cg_t, cg_mclass, cg_mfree, 
+                                dl_oldclass, cg_t, cg_mclass, cg_mfree, 
                                 cg_cclass, cg_cop, cg_prev, cg_done, 
+                                cg_fetched, cg_h, cg_v, cg_next, cg_ok, 
+                                cg_seen, pcx >>
+
+t_next(self) == /\ pc[self] = "t_next"
+                /\ pcx' = [pcx EXCEPT ![self] = pcx[self] + 1]
+                /\ pc' = [pc EXCEPT ![self] = "t_loop"]
+                /\ UNCHANGED << mem, held, results, inflight, rv, panicked, 
+                                hid, lastop, stack, dp_why, tu_loc, tu_fn, 
+                                tu_arg, tu_prev, tu_next, tu_done, tu_ok, 
+                                tu_seen, lg_row, lg_order, lg_tree, lg_off, 
+                                lg_j, lg_i, lg_h, lg_found, lg_frame, lg_n, 
+                                ca_h0, ca_num, ca_cur, ca_new, ca_i, ca_ok, 
+                                ca_seen, ca_j, sf_h, sf_start, sf_order, sf_i, 
+                                sf_r, sf_found, sf_off, sf_nrows, sf_c, sf_k, 
+                                sf_v, sf_zero, sf_ok, sf_seen, sf_u, tg_h, 
+                                tg_off, tg_order, tg_exp, tg_ok, tg_i, tg_n, 
+                                tg_seen, tg_u, tg_r0, la_frame, la_order, la_h, 
+                                ps_frame, ps_order, lp_frame, lp_order, lp_h, 
+                                lp_old, lp_ok, lp_seen, lp_spin, lp_v, tp_t, 
+                                tp_n, tu2_t, tu2_free, tu2_class, gl_order, 
+                                gl_class, gl_local, gl_frame, gl_sync, gl_row, 
+                                gl_res, gl_min, gl_got, sg_i, sg_class, 
+                                sg_order, sg_frame, sg_c, rs_i, rs_order, 
+                                rs_class, rs_local, rs_reserved, rs_free, 
+                                rs_tc, rs_frame, rs_old, sb_n, sb_start, 
+                                sb_offset, sb_len, sb_mode, sb_order, sb_class, 
+                                sb_local, sb_i, sb_idx, sb_t, sb_p, sb_best, 
+                                sb_done, sb_k, sl_class, sl_local, sl_order, 
+                                sl_frame, sl_i, sl_tc, sl_j, sl_found, sl_row, 
+                                sl_jj, dl_class, dl_local, dl_order, dl_frame, 
+                                dl_i, dl_tc, dl_j, dl_found, dl_new, dl_old, 
+                                dl_jj, dl_oldclass, ag_order, ag_class, 
+                                ag_local, ag_frame, ag_len, ag_start, ag_near, 
+                                ag_done, ap_frame, ap_order, ap_class, 
+                                ap_local, ad_c, ad_k, ad_old, cg_t, cg_mclass, 
+                                cg_mfree, cg_cclass, cg_cop, cg_prev, cg_done, 
                                 cg_fetched, cg_h, cg_v, cg_next, cg_ok, 
                                 cg_seen, ac_id, ac_mclass, ac_mfree, ac_cclass, 
                                 ac_cop, ac_i, ac_done, cur, blk >>
@@ -9297,7 +9318,7 @@ t_get_r(self) == /\ pc[self] = "t_get_r"
                             /\ held' = held
                  /\ inflight' = [inflight EXCEPT ![self] = <<>>]
                  /\ pc' = [pc EXCEPT ![self] = "t_next"]
-                 /\ UNCHANGED << mem, rv, panicked, lastop, stack, dp_why, 
+                 /\ UNCHANGED << mem, rv, panicked, hid, lastop, stack, dp_why, 
                                  tu_loc, tu_fn, tu_arg, tu_prev, tu_next, 
                                  tu_done, tu_ok, tu_seen, lg_row, lg_order, 
                                  lg_tree, lg_off, lg_j, lg_i, lg_h, lg_found, 
@@ -9337,7 +9358,7 @@ t_put_r(self) == /\ pc[self] = "t_put_r"
                                                                 class |-> -1, err |-> rv[self].err])]
                  /\ inflight' = [inflight EXCEPT ![self] = <<>>]
                  /\ pc' = [pc EXCEPT ![self] = "t_next"]
-                 /\ UNCHANGED << mem, held, rv, panicked, lastop, stack, 
+                 /\ UNCHANGED << mem, held, rv, panicked, hid, lastop, stack, 
                                  dp_why, tu_loc, tu_fn, tu_arg, tu_prev, 
                                  tu_next, tu_done, tu_ok, tu_seen, lg_row, 
                                  lg_order, lg_tree, lg_off, lg_j, lg_i, lg_h, 
@@ -9377,12 +9398,12 @@ t_putraw_r(self) == /\ pc[self] = "t_putraw_r"
                                                                    class |-> -1, err |-> rv[self].err])]
                     /\ inflight' = [inflight EXCEPT ![self] = <<>>]
                     /\ pc' = [pc EXCEPT ![self] = "t_next"]
-                    /\ UNCHANGED << mem, held, rv, panicked, lastop, stack, 
-                                    dp_why, tu_loc, tu_fn, tu_arg, tu_prev, 
-                                    tu_next, tu_done, tu_ok, tu_seen, lg_row, 
-                                    lg_order, lg_tree, lg_off, lg_j, lg_i, 
-                                    lg_h, lg_found, lg_frame, lg_n, ca_h0, 
-                                    ca_num, ca_cur, ca_new, ca_i, ca_ok, 
+                    /\ UNCHANGED << mem, held, rv, panicked, hid, lastop, 
+                                    stack, dp_why, tu_loc, tu_fn, tu_arg, 
+                                    tu_prev, tu_next, tu_done, tu_ok, tu_seen, 
+                                    lg_row, lg_order, lg_tree, lg_off, lg_j, 
+                                    lg_i, lg_h, lg_found, lg_frame, lg_n, 
+                                    ca_h0, ca_num, ca_cur, ca_new, ca_i, ca_ok, 
                                     ca_seen, ca_j, sf_h, sf_start, sf_order, 
                                     sf_i, sf_r, sf_found, sf_off, sf_nrows, 
                                     sf_c, sf_k, sf_v, sf_zero, sf_ok, sf_seen, 
@@ -9419,12 +9440,12 @@ t_change_r(self) == /\ pc[self] = "t_change_r"
                     /\ results' = [results EXCEPT ![self] = Append(results[self], [op |-> "change", ok |-> rv[self].ok, frame |-> -1, class |-> -1, err |-> rv[self].err])]
                     /\ inflight' = [inflight EXCEPT ![self] = <<>>]
                     /\ pc' = [pc EXCEPT ![self] = "t_next"]
-                    /\ UNCHANGED << mem, held, rv, panicked, lastop, stack, 
-                                    dp_why, tu_loc, tu_fn, tu_arg, tu_prev, 
-                                    tu_next, tu_done, tu_ok, tu_seen, lg_row, 
-                                    lg_order, lg_tree, lg_off, lg_j, lg_i, 
-                                    lg_h, lg_found, lg_frame, lg_n, ca_h0, 
-                                    ca_num, ca_cur, ca_new, ca_i, ca_ok, 
+                    /\ UNCHANGED << mem, held, rv, panicked, hid, lastop, 
+                                    stack, dp_why, tu_loc, tu_fn, tu_arg, 
+                                    tu_prev, tu_next, tu_done, tu_ok, tu_seen, 
+                                    lg_row, lg_order, lg_tree, lg_off, lg_j, 
+                                    lg_i, lg_h, lg_found, lg_frame, lg_n, 
+                                    ca_h0, ca_num, ca_cur, ca_new, ca_i, ca_ok, 
                                     ca_seen, ca_j, sf_h, sf_start, sf_order, 
                                     sf_i, sf_r, sf_found, sf_off, sf_nrows, 
                                     sf_c, sf_k, sf_v, sf_zero, sf_ok, sf_seen, 
@@ -9461,7 +9482,7 @@ t_drain_r(self) == /\ pc[self] = "t_drain_r"
                    /\ results' = [results EXCEPT ![self] = Append(results[self], [op |-> "drain", ok |-> TRUE, frame |-> -1, class |-> -1, err |-> ""])]
                    /\ inflight' = [inflight EXCEPT ![self] = <<>>]
                    /\ pc' = [pc EXCEPT ![self] = "t_next"]
-                   /\ UNCHANGED << mem, held, rv, panicked, lastop, stack, 
+                   /\ UNCHANGED << mem, held, rv, panicked, hid, lastop, stack, 
                                    dp_why, tu_loc, tu_fn, tu_arg, tu_prev, 
                                    tu_next, tu_done, tu_ok, tu_seen, lg_row, 
                                    lg_order, lg_tree, lg_off, lg_j, lg_i, lg_h, 
@@ -9576,7 +9597,7 @@ QuiescentAccounting ==
   Quiet =>
     /\ \A h \in 0 .. NHUGE - 1 : EntryOk(h)
     /\ \A t \in 0 .. NT - 1 :
-         /\ mem[Tree(t)].free + SumFn([s \in SlotsOn(t) |-> SlotFreeOf(s)], SlotsOn(t)) = LowerFree(t)
+         /\ mem[Tree(t)].free + SumFn([s \in SlotsOn(t) |-> SlotFreeOf(s)], SlotsOn(t)) + hid[t] = LowerFree(t)
          /\ mem[Tree(t)].res <=> Cardinality(SlotsOn(t)) = 1
          /\ Cardinality(SlotsOn(t)) <= 1
 
